@@ -1,3 +1,5 @@
+open Archive
+open BinInt
 open BinNat
 open BinNums
 open Bytes0
@@ -9,6 +11,8 @@ open List0
 open Names
 open Nat0
 open Path
+open PeanoNat
+open Resume
 open Wire
 
 type tr_cfg = { tc_proto : coq_N; tc_binary : bool; tc_directory : bool;
@@ -75,7 +79,7 @@ let tr_is_compress_fixed c size =
   tr_rules_eval tr_compress_rules c size
 
 type tr_entry = { te_id : coq_Z; te_rel : name list; te_isdir : bool;
-                  te_chunks : byte list list }
+                  te_chunks : byte list list; te_subs : tr_entry list }
 
 (** val te_data : tr_entry -> byte list **)
 
@@ -93,7 +97,9 @@ let te_name e =
   last e.te_rel []
 
 type tr_sched = { sc_sizes : nat list; sc_dflt : nat; sc_profit : bool;
-                  sc_steps : coq_N list; sc_prefinal : coq_N list }
+                  sc_steps : coq_N list; sc_prefinal : coq_N list;
+                  sc_hstops : nat option; sc_rsizes : nat list;
+                  sc_rdflt : nat; sc_wsizes : nat list; sc_wdflt : nat }
 
 (** val tr_add_name : name list -> name -> name list **)
 
@@ -104,6 +110,114 @@ let tr_add_name names nm =
 
 let tr_blen l =
   N.of_nat (length l)
+
+(** val tr_has_subs : tr_entry -> bool **)
+
+let tr_has_subs e =
+  nonempty e.te_subs
+
+(** val tr_archive_mode : tr_cfg -> bool **)
+
+let tr_archive_mode c =
+  (&&) (N.leb tr_proto_archive c.tc_proto) (negb c.tc_overwrite)
+
+(** val tr_same_id : tr_entry -> (tr_entry * tr_sched) -> bool **)
+
+let tr_same_id e x =
+  Z.eqb (fst x).te_id e.te_id
+
+(** val tr_with_subs : tr_entry -> tr_entry list -> tr_entry **)
+
+let tr_with_subs e subs =
+  { te_id = e.te_id; te_rel = e.te_rel; te_isdir = e.te_isdir; te_chunks =
+    e.te_chunks; te_subs = subs }
+
+(** val tr_group_go :
+    nat -> (tr_entry * tr_sched) list -> (tr_entry * tr_sched) list **)
+
+let rec tr_group_go n ess =
+  match n with
+  | O -> []
+  | S n' ->
+    (match ess with
+     | [] -> []
+     | p :: r ->
+       let (e, sc) = p in
+       ((tr_with_subs e (app e.te_subs (map fst (filter (tr_same_id e) r)))),
+       sc) :: (tr_group_go n' (filter (fun x -> negb (tr_same_id e x)) r)))
+
+(** val tr_group :
+    tr_cfg -> (tr_entry * tr_sched) list -> (tr_entry * tr_sched) list **)
+
+let tr_group c ess =
+  if tr_archive_mode c then tr_group_go (length ess) ess else ess
+
+(** val tr_ameta : tr_entry -> ameta **)
+
+let tr_ameta e =
+  { am_path = (tl e.te_rel); am_dir = e.te_isdir; am_size =
+    (Z.of_N (te_size e)) }
+
+(** val tr_aentry : tr_entry -> aentry **)
+
+let tr_aentry e =
+  { ae_meta = (tr_ameta e); ae_data = (te_data e) }
+
+(** val tr_anode : anode -> node **)
+
+let tr_anode = function
+| ADir -> Dir
+| AFile x -> File x
+
+(** val tr_graft : fs -> path -> afs -> fs **)
+
+let tr_graft f base t =
+  fold_right (fun pn f' -> set f' (app base (fst pn)) (tr_anode (snd pn))) f t
+
+(** val tr_set_fs : state -> fs -> state **)
+
+let tr_set_fs st f =
+  { st_fs = f; st_log = st.st_log; st_created = st.st_created; st_map =
+    st.st_map }
+
+(** val tr_graft_st : state -> path -> afs -> state **)
+
+let tr_graft_st st base t =
+  tr_set_fs st (tr_graft st.st_fs base t)
+
+(** val tr_set_file : state -> path -> byte list -> state **)
+
+let tr_set_file st p data =
+  tr_set_fs st (set st.st_fs p (File data))
+
+(** val tr_old_content : state -> path -> byte list **)
+
+let tr_old_content st p =
+  match lookup st.st_fs p with
+  | Some n -> (match n with
+               | File old -> old
+               | Dir -> [])
+  | None -> []
+
+(** val tr_skip_chunks : nat -> byte list list -> byte list list **)
+
+let rec tr_skip_chunks n = function
+| [] -> []
+| ch :: r ->
+  if Nat.leb (length ch) n
+  then tr_skip_chunks (sub n (length ch)) r
+  else (skipn n ch) :: r
+
+(** val tr_rem_entry : tr_entry -> coq_Z -> tr_entry **)
+
+let tr_rem_entry e ms =
+  { te_id = e.te_id; te_rel = e.te_rel; te_isdir = false; te_chunks =
+    (tr_skip_chunks (Z.to_nat ms) e.te_chunks); te_subs = [] }
+
+(** val tr_hash_B : coq_N **)
+
+let tr_hash_B =
+  prefix_hash_step
 
 type tr_npayload =
 | TrPlain of name
@@ -117,11 +231,14 @@ type 'digest tr_msg =
 | TrData of byte list
 | TrMd5 of 'digest
 | TrExit of name list
+| TrHash of coq_Z * digest
+| TrHashOver
 | TrSuccInt of coq_N
 | TrSuccName of name
 | TrSuccTarget of name * coq_N
 | TrSuccAck of coq_N * coq_N
 | TrSuccDigest of 'digest
+| TrSuccHack of coq_Z * bool
 | TrKeepAlive
 | TrFail
 
@@ -130,7 +247,7 @@ type 'digest tr_msg =
 let tr_payload c e =
   if tr_json c
   then TrJson ({ s_id = e.te_id; s_rel = e.te_rel; s_isdir = e.te_isdir;
-         s_archive = false }, (te_size e))
+         s_archive = (tr_has_subs e) }, (te_size e))
   else TrPlain (te_name e)
 
 (** val tr_compress :
@@ -160,9 +277,99 @@ let tr_v1_chunks e sc =
 let tr_v1_payload zl c chunk =
   if c.tc_binary then escape c.tc_table chunk else wire_encode_bytes zl chunk
 
+(** val tr_hdr_of :
+    (src -> coq_Z -> byte list) -> coq_Z -> name -> ameta -> byte list **)
+
+let tr_hdr_of ahdr i r0 m =
+  ahdr { s_id = i; s_rel = (r0 :: m.am_path); s_isdir = m.am_dir; s_archive =
+    false } m.am_size
+
+(** val tr_parse_of :
+    (byte list -> (src * coq_Z) option) -> coq_Z -> byte list -> ameta option **)
+
+let tr_parse_of aparse i raw =
+  match aparse raw with
+  | Some p ->
+    let (s, sz) = p in
+    (match s.s_rel with
+     | [] -> None
+     | r0 :: rest ->
+       if (&&) code_checks.chk_unmarshal
+            (negb (forallb valid_name (r0 :: rest)))
+       then None
+       else if (&&) (Z.eqb s.s_id i) (negb s.s_archive)
+            then Some { am_path = rest; am_dir = s.s_isdir; am_size = sz }
+            else None)
+  | None -> None
+
+(** val tr_arch_hdr :
+    (src -> coq_Z -> byte list) -> tr_entry -> ameta -> byte list **)
+
+let tr_arch_hdr ahdr e =
+  tr_hdr_of ahdr e.te_id (hd [] e.te_rel)
+
+(** val tr_arch_entries : tr_entry -> aentry list **)
+
+let tr_arch_entries e =
+  map tr_aentry e.te_subs
+
+(** val tr_arch_size : (src -> coq_Z -> byte list) -> tr_entry -> coq_Z **)
+
+let tr_arch_size ahdr e =
+  ar_total_size (tr_arch_hdr ahdr e) (tr_arch_entries e)
+
+(** val tr_arch_entry :
+    (src -> coq_Z -> byte list) -> tr_entry -> tr_sched -> tr_entry option **)
+
+let tr_arch_entry ahdr e sc =
+  let (p, _) =
+    ar_reader_run (tr_arch_hdr ahdr e) (tr_arch_entries e)
+      (map (fun x -> S x) sc.sc_rsizes) (S sc.sc_rdflt)
+  in
+  let (outs, a0) = p in
+  (match a0 with
+   | ArEndEof ->
+     Some { te_id = e.te_id; te_rel = e.te_rel; te_isdir = false; te_chunks =
+       outs; te_subs = [] }
+   | _ -> None)
+
+(** val tr_unarchive :
+    (byte list -> (src * coq_Z) option) -> coq_Z -> tr_sched -> byte list ->
+    afs option **)
+
+let tr_unarchive aparse i sc w =
+  match aw_writer_run (tr_parse_of aparse i) true
+          (wire_frames sc.sc_wsizes sc.sc_wdflt w) with
+  | AwDone ast -> Some (aw_close ast).aw_fs
+  | _ -> None
+
+(** val tr_hmsg : hmsg -> 'a1 tr_msg **)
+
+let tr_hmsg = function
+| Hash (s, h) -> TrHash (s, h)
+| Over -> TrHashOver
+
+(** val tr_hack : ack -> 'a1 tr_msg **)
+
+let tr_hack a =
+  TrSuccHack (a.a_step, a.a_match)
+
+(** val tr_resume_size : tr_entry -> coq_N -> nat **)
+
+let tr_resume_size e tsize =
+  N.to_nat (N.min (tr_blen (te_data e)) tsize)
+
+(** val tr_resume_pre : tr_cfg -> tr_entry -> 'a1 tr_msg list **)
+
+let tr_resume_pre c e =
+  if N.ltb c.tc_proto tr_proto_resume_nosize
+  then (TrSize (te_size e)) :: []
+  else []
+
 type tr_sphase =
 | SpNum
 | SpName
+| SpHash of coq_Z * coq_Z
 | SpSize
 | SpAcks of coq_N list
 | SpFinal
@@ -171,7 +378,6 @@ type tr_sphase =
 | SpExit
 | SpDone
 | SpFail
-| SpUnmodelled
 
 type tr_sstate = { ss_phase : tr_sphase;
                    ss_todo : (tr_entry * tr_sched) list; ss_names : name list }
@@ -206,9 +412,9 @@ let tr_s_next c todo names =
 (** val tr_sender_init :
     tr_cfg -> (tr_entry * tr_sched) list -> tr_sstate * 'a1 tr_msg list **)
 
-let tr_sender_init _ ess =
-  ({ ss_phase = SpNum; ss_todo = ess; ss_names = [] }, ((TrNum
-    (N.of_nat (length ess))) :: []))
+let tr_sender_init _ items =
+  ({ ss_phase = SpNum; ss_todo = items; ss_names = [] }, ((TrNum
+    (N.of_nat (length items))) :: []))
 
 (** val tr_s_md5 :
     (byte list -> 'a1) -> tr_sstate -> tr_entry -> tr_sstate * 'a1 tr_msg list **)
@@ -217,19 +423,55 @@ let tr_s_md5 h st e =
   ({ ss_phase = SpMd5; ss_todo = st.ss_todo; ss_names = st.ss_names },
     ((TrMd5 (h (te_data e))) :: []))
 
-(** val tr_s_named :
-    tr_cfg -> tr_sstate -> tr_entry -> (tr_entry * tr_sched) list -> name ->
-    coq_N -> tr_sstate * 'a1 tr_msg list **)
+(** val tr_s_size :
+    tr_entry -> tr_sched -> (tr_entry * tr_sched) list -> name list -> coq_N
+    -> tr_sstate * 'a1 tr_msg list **)
 
-let tr_s_named c st e rest nm tsize =
+let tr_s_size f sc rest names n =
+  ({ ss_phase = SpSize; ss_todo = ((f, sc) :: rest); ss_names = names },
+    ((TrSize n) :: []))
+
+(** val tr_s_resume :
+    (byte list -> digest) -> tr_cfg -> tr_entry -> tr_sched ->
+    (tr_entry * tr_sched) list -> name list -> coq_N -> tr_sstate * 'a1
+    tr_msg list **)
+
+let tr_s_resume hx c e sc rest names tsize =
+  let size = tr_resume_size e tsize in
+  (match send_hashes tr_hash_B hx size sc.sc_hstops (te_data e) size O [] with
+   | Some hs ->
+     if Nat.eqb size O
+     then ({ ss_phase = SpSize; ss_todo = (((tr_rem_entry e Z0),
+            sc) :: rest); ss_names = names },
+            (app (tr_resume_pre c e)
+              (app (map tr_hmsg hs) ((TrSize
+                (te_size (tr_rem_entry e Z0))) :: []))))
+     else ({ ss_phase = (SpHash ((Z.of_nat size), Z0)); ss_todo = ((e,
+            sc) :: rest); ss_names = names },
+            (app (tr_resume_pre c e) (map tr_hmsg hs)))
+   | None ->
+     ({ ss_phase = SpFail; ss_todo = ((e, sc) :: rest); ss_names = names },
+       (TrFail :: [])))
+
+(** val tr_s_named :
+    (byte list -> digest) -> (src -> coq_Z -> byte list) -> tr_cfg ->
+    tr_sstate -> tr_entry -> tr_sched -> (tr_entry * tr_sched) list -> name
+    -> coq_N -> tr_sstate * 'a1 tr_msg list **)
+
+let tr_s_named hx ahdr c st e sc rest nm tsize =
   let names' = tr_add_name st.ss_names nm in
-  if e.te_isdir
-  then tr_s_next c rest names'
-  else if N.ltb N0 tsize
-       then ({ ss_phase = SpUnmodelled; ss_todo = st.ss_todo; ss_names =
-              names' }, [])
-       else ({ ss_phase = SpSize; ss_todo = st.ss_todo; ss_names = names' },
-              ((TrSize (te_size e)) :: []))
+  if (&&) (tr_json_names c) (tr_has_subs e)
+  then (match tr_arch_entry ahdr e sc with
+        | Some f -> tr_s_size f sc rest names' (Z.to_N (tr_arch_size ahdr e))
+        | None ->
+          ({ ss_phase = SpFail; ss_todo = st.ss_todo; ss_names = names' },
+            (TrFail :: [])))
+  else if e.te_isdir
+       then tr_s_next c rest names'
+       else if N.ltb N0 tsize
+            then tr_s_resume hx c e sc rest names' tsize
+            else ({ ss_phase = SpSize; ss_todo = st.ss_todo; ss_names =
+                   names' }, ((TrSize (te_size e)) :: []))
 
 (** val tr_s_data :
     (byte list -> 'a1) -> (byte list list -> byte list list) -> (byte list ->
@@ -250,12 +492,35 @@ let tr_s_data h zcomp zl c st e sc =
             ss_names = st.ss_names }, ((TrData
             (tr_v1_payload zl c ch)) :: [])))
 
+(** val tr_s_hack :
+    tr_sstate -> coq_Z -> coq_Z -> coq_Z -> bool -> tr_sstate * 'a1 tr_msg
+    list **)
+
+let tr_s_hack st size mstep step mtch =
+  match st.ss_todo with
+  | [] -> tr_s_fail st
+  | p :: rest ->
+    let (e, sc) = p in
+    let verdict = fun ms ->
+      tr_s_size (tr_rem_entry e ms) sc rest st.ss_names
+        (te_size (tr_rem_entry e ms))
+    in
+    if negb mtch
+    then verdict mstep
+    else if Z.eqb step size
+         then verdict step
+         else if Z.ltb size step
+              then tr_s_fail st
+              else ({ ss_phase = (SpHash (size, step)); ss_todo = st.ss_todo;
+                     ss_names = st.ss_names }, [])
+
 (** val tr_sender :
     (byte list -> 'a1) -> ('a1 -> 'a1 -> bool) -> (byte list list -> byte
-    list list) -> (byte list -> byte list) -> tr_cfg -> tr_sstate -> 'a1
-    tr_msg -> tr_sstate * 'a1 tr_msg list **)
+    list list) -> (byte list -> byte list) -> (byte list -> digest) -> (src
+    -> coq_Z -> byte list) -> tr_cfg -> tr_sstate -> 'a1 tr_msg ->
+    tr_sstate * 'a1 tr_msg list **)
 
-let tr_sender h deq zcomp zl c st m =
+let tr_sender h deq zcomp zl hx ahdr c st m =
   match st.ss_phase with
   | SpFinal ->
     let ph = SpFinal in
@@ -276,17 +541,21 @@ let tr_sender h deq zcomp zl c st m =
           (match st.ss_todo with
            | [] -> tr_s_fail st
            | p :: rest ->
-             let (e, _) = p in
+             let (e, sc) = p in
              (match m with
               | TrSuccName nm ->
                 if tr_json_names c
                 then tr_s_fail st
-                else tr_s_named c st e rest nm N0
+                else tr_s_named hx ahdr c st e sc rest nm N0
               | TrSuccTarget (nm, sz) ->
                 if tr_json_names c
-                then tr_s_named c st e rest nm sz
+                then tr_s_named hx ahdr c st e sc rest nm sz
                 else tr_s_fail st
               | _ -> tr_s_fail st))
+        | SpHash (size, mstep) ->
+          (match m with
+           | TrSuccHack (step, mtch) -> tr_s_hack st size mstep step mtch
+           | _ -> tr_s_fail st)
         | SpSize ->
           (match st.ss_todo with
            | [] -> tr_s_fail st
@@ -366,7 +635,6 @@ let tr_sender h deq zcomp zl c st m =
         | _ -> tr_s_stay st))
   | SpDone -> tr_s_stay st
   | SpFail -> tr_s_stay st
-  | SpUnmodelled -> tr_s_stay st
   | x ->
     (match m with
      | TrFail ->
@@ -385,17 +653,21 @@ let tr_sender h deq zcomp zl c st m =
           (match st.ss_todo with
            | [] -> tr_s_fail st
            | p :: rest ->
-             let (e, _) = p in
+             let (e, sc) = p in
              (match m with
               | TrSuccName nm ->
                 if tr_json_names c
                 then tr_s_fail st
-                else tr_s_named c st e rest nm N0
+                else tr_s_named hx ahdr c st e sc rest nm N0
               | TrSuccTarget (nm, sz) ->
                 if tr_json_names c
-                then tr_s_named c st e rest nm sz
+                then tr_s_named hx ahdr c st e sc rest nm sz
                 else tr_s_fail st
               | _ -> tr_s_fail st))
+        | SpHash (size, mstep) ->
+          (match m with
+           | TrSuccHack (step, mtch) -> tr_s_hack st size mstep step mtch
+           | _ -> tr_s_fail st)
         | SpSize ->
           (match st.ss_todo with
            | [] -> tr_s_fail st
@@ -475,7 +747,8 @@ let tr_sender h deq zcomp zl c st m =
         | _ -> tr_s_stay st))
 
 (** val tr_create :
-    tr_cfg -> path -> tr_npayload -> byte list -> state -> result * state **)
+    tr_cfg -> path -> tr_npayload -> byte list -> state ->
+    Names.result * state **)
 
 let tr_create c dest p content st =
   match p with
@@ -509,6 +782,18 @@ let tr_p_tail = function
 | TrPlain _ -> []
 | TrJson (s, _) -> tl s.s_rel
 
+(** val tr_p_aid : tr_npayload -> coq_Z **)
+
+let tr_p_aid = function
+| TrPlain _ -> Z0
+| TrJson (s, _) -> s.s_id
+
+(** val tr_p_size : tr_npayload -> coq_N **)
+
+let tr_p_size = function
+| TrPlain _ -> N0
+| TrJson (_, size) -> size
+
 (** val tr_leaf : path -> name -> tr_npayload -> path **)
 
 let tr_leaf dest ln p =
@@ -526,6 +811,8 @@ let tr_target_size dest ln p st =
 type tr_rphase =
 | RpNum
 | RpName
+| RpHSize of tr_npayload * path * byte list
+| RpHash of tr_npayload * path * byte list * coq_N * rstate
 | RpSize of tr_npayload
 | RpComp of tr_npayload * coq_N
 | RpData of tr_npayload * coq_N * bool * byte list list * coq_N list
@@ -534,16 +821,17 @@ type tr_rphase =
 | RpExit
 | RpDone
 | RpFail
-| RpUnmodelled
 
 type tr_rstate = { rs_phase : tr_rphase; rs_left : nat; rs_st : state;
-                   rs_names : name list; rs_sched : tr_sched list }
+                   rs_names : name list; rs_sched : tr_sched list;
+                   rs_open : ((path * file) * coq_Z) option }
 
 (** val tr_r_fail : tr_rstate -> tr_rstate * 'a1 tr_msg list **)
 
 let tr_r_fail st =
   ({ rs_phase = RpFail; rs_left = st.rs_left; rs_st = st.rs_st; rs_names =
-    st.rs_names; rs_sched = st.rs_sched }, (TrFail :: []))
+    st.rs_names; rs_sched = st.rs_sched; rs_open = st.rs_open },
+    (TrFail :: []))
 
 (** val tr_r_stay : tr_rstate -> tr_rstate * 'a1 tr_msg list **)
 
@@ -554,7 +842,7 @@ let tr_r_stay st =
 
 let tr_r_phase st ph =
   { rs_phase = ph; rs_left = st.rs_left; rs_st = st.rs_st; rs_names =
-    st.rs_names; rs_sched = st.rs_sched }
+    st.rs_names; rs_sched = st.rs_sched; rs_open = st.rs_open }
 
 (** val tr_r_next :
     tr_cfg -> nat -> state -> name list -> tr_sched list -> tr_rstate * 'a1
@@ -565,26 +853,31 @@ let tr_r_next c left fst_ names sch =
   | O ->
     if c.tc_upload
     then ({ rs_phase = RpExit; rs_left = O; rs_st = fst_; rs_names = names;
-           rs_sched = sch }, [])
+           rs_sched = sch; rs_open = None }, [])
     else ({ rs_phase = RpDone; rs_left = O; rs_st = fst_; rs_names = names;
-           rs_sched = sch }, ((TrExit names) :: []))
+           rs_sched = sch; rs_open = None }, ((TrExit names) :: []))
   | S _ ->
     ({ rs_phase = RpName; rs_left = left; rs_st = fst_; rs_names = names;
-      rs_sched = sch }, [])
+      rs_sched = sch; rs_open = None }, [])
 
 (** val tr_receiver_init : fs -> tr_sched list -> tr_rstate **)
 
 let tr_receiver_init f0 sch =
   { rs_phase = RpNum; rs_left = O; rs_st = (init_state f0); rs_names = [];
-    rs_sched = sch }
+    rs_sched = sch; rs_open = None }
+
+(** val tr_dflt_sched : tr_sched **)
+
+let tr_dflt_sched =
+  { sc_sizes = []; sc_dflt = (S O); sc_profit = false; sc_steps = [];
+    sc_prefinal = []; sc_hstops = None; sc_rsizes = []; sc_rdflt = O;
+    sc_wsizes = []; sc_wdflt = (S O) }
 
 (** val tr_cur_sched : tr_rstate -> tr_sched **)
 
 let tr_cur_sched st =
   match st.rs_sched with
-  | [] ->
-    { sc_sizes = []; sc_dflt = (S O); sc_profit = false; sc_steps = [];
-      sc_prefinal = [] }
+  | [] -> tr_dflt_sched
   | sc :: _ -> sc
 
 (** val tr_r_done :
@@ -605,47 +898,119 @@ let tr_r_name c dest st p =
   (match r with
    | NOk ln ->
      let names' = tr_add_name st.rs_names ln in
-     let tsize = if tr_p_isdir p then N0 else tr_target_size dest ln p st1 in
+     let tsize =
+       if (||) (tr_p_isdir p) (tr_p_archive p)
+       then N0
+       else tr_target_size dest ln p st1
+     in
      let reply =
        if tr_json_names c then TrSuccTarget (ln, tsize) else TrSuccName ln
      in
      let stn = { rs_phase = st.rs_phase; rs_left = st.rs_left; rs_st =
-       st.rs_st; rs_names = names'; rs_sched = st.rs_sched }
+       st.rs_st; rs_names = names'; rs_sched = st.rs_sched; rs_open =
+       st.rs_open }
      in
      if tr_p_archive p
-     then ((tr_r_phase stn RpUnmodelled), (reply :: []))
+     then ((tr_r_phase stn (RpSize p)), (reply :: []))
      else if tr_p_isdir p
           then tr_r_done c stn st1 (reply :: [])
           else if (&&) (tr_json_names c) (N.ltb N0 tsize)
-               then ((tr_r_phase stn RpUnmodelled), (reply :: []))
+               then let leaf = tr_leaf dest ln p in
+                    let old = tr_old_content st1 leaf in
+                    ((tr_r_phase stn
+                       (if N.ltb c.tc_proto tr_proto_resume_nosize
+                        then RpHSize (p, leaf, old)
+                        else RpHash (p, leaf, old, (tr_p_size p), r_init))),
+                    (reply :: []))
                else ((tr_r_phase stn (RpSize p)), (reply :: []))
    | NErr -> tr_r_fail st)
+
+(** val tr_r_hash :
+    (byte list -> digest) -> tr_rstate -> tr_npayload -> path -> byte list ->
+    coq_N -> rstate -> coq_Z -> digest -> tr_rstate * 'a1 tr_msg list **)
+
+let tr_r_hash hx st p leaf old ssize r step h =
+  match recv_hashes tr_hash_B hx old ((Hash (step, h)) :: []) r with
+  | RBlocked r' ->
+    ((tr_r_phase st (RpHash (p, leaf, old, ssize, r'))),
+      (map tr_hack (skipn (length r.r_acks) r'.r_acks)))
+  | _ -> tr_r_fail st
+
+(** val tr_r_over :
+    tr_rstate -> tr_npayload -> path -> byte list -> coq_N -> rstate ->
+    tr_rstate * 'a1 tr_msg list **)
+
+let tr_r_over st p leaf old ssize r =
+  let mr = Z.to_nat r.r_mstep in
+  let f = f_truncate (f_seek { f_data = old; f_off = r.r_off } mr) mr in
+  ({ rs_phase = (RpSize p); rs_left = st.rs_left; rs_st = st.rs_st;
+  rs_names = st.rs_names; rs_sched = st.rs_sched; rs_open = (Some ((leaf, f),
+  (Z.sub (Z.of_N ssize) r.r_mstep))) }, [])
+
+(** val tr_rest_mismatch : tr_rstate -> coq_N -> bool **)
+
+let tr_rest_mismatch st n =
+  match st.rs_open with
+  | Some p ->
+    let (_, rest) = p in
+    (&&) tr_resume_rest_check
+      ((&&) (Z.leb Z0 rest) (negb (Z.eqb (Z.of_N n) rest)))
+  | None -> false
 
 (** val tr_r_size :
     tr_cfg -> tr_rstate -> tr_npayload -> coq_N -> tr_rstate * 'a1 tr_msg list **)
 
 let tr_r_size c st p n =
-  if tr_pipeline c
-  then let (b, cp) = tr_is_compress_fixed c n in
-       if b
-       then ((tr_r_phase st (RpData (p, n, cp, [],
-               (tr_cur_sched st).sc_steps))), ((TrSuccInt n) :: []))
-       else ((tr_r_phase st (RpComp (p, n))), ((TrSuccInt n) :: []))
-  else if N.ltb N0 n
-       then ((tr_r_phase st (RpV1 (p, n, []))), ((TrSuccInt n) :: []))
-       else ((tr_r_phase st (RpMd5 (p, []))), ((TrSuccInt n) :: []))
+  if tr_rest_mismatch st n
+  then ((tr_r_phase st RpFail), ((TrSuccInt n) :: (TrFail :: [])))
+  else if tr_pipeline c
+       then let (b, cp) = tr_is_compress_fixed c n in
+            if b
+            then ((tr_r_phase st (RpData (p, n, cp, [],
+                    (tr_cur_sched st).sc_steps))), ((TrSuccInt n) :: []))
+            else ((tr_r_phase st (RpComp (p, n))), ((TrSuccInt n) :: []))
+       else if N.ltb N0 n
+            then ((tr_r_phase st (RpV1 (p, n, []))), ((TrSuccInt n) :: []))
+            else ((tr_r_phase st (RpMd5 (p, []))), ((TrSuccInt n) :: []))
 
 (** val tr_rdflt : nat **)
 
 let tr_rdflt =
   S O
 
-(** val tr_r_frame :
-    (byte list -> byte list option) -> tr_cfg -> tr_rstate -> tr_npayload ->
-    coq_N -> bool -> byte list list -> coq_N list -> byte list ->
-    tr_rstate * 'a1 tr_msg list **)
+(** val tr_complete :
+    (byte list -> (src * coq_Z) option) -> tr_cfg -> path -> tr_rstate ->
+    tr_npayload -> byte list -> state option **)
 
-let tr_r_frame zdecomp c st p size cp acc steps f =
+let tr_complete aparse c dest st p w =
+  match st.rs_open with
+  | Some p0 ->
+    let (p1, _) = p0 in
+    let (leaf, f) = p1 in
+    let (r, st2) = tr_create c dest p [] st.rs_st in
+    (match r with
+     | NOk _ -> Some (tr_set_file st2 leaf (f_write f w).f_data)
+     | NErr -> None)
+  | None ->
+    if tr_p_archive p
+    then let (r, st2) = tr_create c dest p [] st.rs_st in
+         (match r with
+          | NOk ln ->
+            (match tr_unarchive aparse (tr_p_aid p) (tr_cur_sched st) w with
+             | Some t -> Some (tr_graft_st st2 (app dest (ln :: [])) t)
+             | None -> None)
+          | NErr -> None)
+    else let (r, st2) = tr_create c dest p w st.rs_st in
+         (match r with
+          | NOk _ -> Some st2
+          | NErr -> None)
+
+(** val tr_r_frame :
+    (byte list -> byte list option) -> (byte list -> (src * coq_Z) option) ->
+    tr_cfg -> tr_rstate -> tr_npayload -> coq_N -> bool -> byte list list ->
+    coq_N list -> byte list -> tr_rstate * 'a1 tr_msg list **)
+
+let tr_r_frame zdecomp aparse c st p size cp acc steps f =
   let step = match steps with
              | [] -> N0
              | s :: _ -> s in
@@ -654,13 +1019,18 @@ let tr_r_frame zdecomp c st p size cp acc steps f =
      (match wire_decode zdecomp c.tc_binary cp c.tc_table acc [] tr_rdflt with
       | Some w ->
         if N.eqb (tr_blen w) size
-        then ((tr_r_phase st (RpMd5 (p, w))),
-               (app ((TrSuccAck (N0, step)) :: [])
-                 (app
-                   (map (fun x -> TrSuccInt x)
-                     (filter (fun s -> N.ltb s size)
-                       (tr_cur_sched st).sc_prefinal)) ((TrSuccInt
-                   size) :: []))))
+        then if (&&) (tr_p_archive p)
+                  (match tr_unarchive aparse (tr_p_aid p) (tr_cur_sched st) w with
+                   | Some _ -> false
+                   | None -> true)
+             then tr_r_fail st
+             else ((tr_r_phase st (RpMd5 (p, w))),
+                    (app ((TrSuccAck (N0, step)) :: [])
+                      (app
+                        (map (fun x -> TrSuccInt x)
+                          (filter (fun s -> N.ltb s size)
+                            (tr_cur_sched st).sc_prefinal)) ((TrSuccInt
+                        size) :: []))))
         else tr_r_fail st
       | None -> tr_r_fail st)
    | _ :: _ ->
@@ -681,23 +1051,24 @@ let tr_r_v1 unzl c st p size w pl =
   | None -> tr_r_fail st
 
 (** val tr_r_md5 :
-    (byte list -> 'a1) -> ('a1 -> 'a1 -> bool) -> tr_cfg -> path -> tr_rstate
-    -> tr_npayload -> byte list -> 'a1 -> tr_rstate * 'a1 tr_msg list **)
+    (byte list -> 'a1) -> ('a1 -> 'a1 -> bool) -> (byte list -> (src * coq_Z)
+    option) -> tr_cfg -> path -> tr_rstate -> tr_npayload -> byte list -> 'a1
+    -> tr_rstate * 'a1 tr_msg list **)
 
-let tr_r_md5 h deq c dest st p w d =
+let tr_r_md5 h deq aparse c dest st p w d =
   if deq d (h w)
-  then let (r, st2) = tr_create c dest p w st.rs_st in
-       (match r with
-        | NOk _ -> tr_r_done c st st2 ((TrSuccDigest (h w)) :: [])
-        | NErr -> tr_r_fail st)
+  then (match tr_complete aparse c dest st p w with
+        | Some st2 -> tr_r_done c st st2 ((TrSuccDigest (h w)) :: [])
+        | None -> tr_r_fail st)
   else tr_r_fail st
 
 (** val tr_receiver :
     (byte list -> 'a1) -> ('a1 -> 'a1 -> bool) -> (byte list -> byte list
-    option) -> (byte list -> byte list option) -> tr_cfg -> path -> tr_rstate
-    -> 'a1 tr_msg -> tr_rstate * 'a1 tr_msg list **)
+    option) -> (byte list -> byte list option) -> (byte list -> digest) ->
+    (byte list -> (src * coq_Z) option) -> tr_cfg -> path -> tr_rstate -> 'a1
+    tr_msg -> tr_rstate * 'a1 tr_msg list **)
 
-let tr_receiver h deq zdecomp unzl c dest st m =
+let tr_receiver h deq zdecomp unzl hx aparse c dest st m =
   match st.rs_phase with
   | RpNum ->
     let ph = RpNum in
@@ -716,6 +1087,16 @@ let tr_receiver h deq zdecomp unzl c dest st m =
           (match m with
            | TrName p -> tr_r_name c dest st p
            | _ -> tr_r_fail st)
+        | RpHSize (p, leaf, old) ->
+          (match m with
+           | TrSize n ->
+             ((tr_r_phase st (RpHash (p, leaf, old, n, r_init))), [])
+           | _ -> tr_r_fail st)
+        | RpHash (p, leaf, old, ssize, r) ->
+          (match m with
+           | TrHash (step, h0) -> tr_r_hash hx st p leaf old ssize r step h0
+           | TrHashOver -> tr_r_over st p leaf old ssize r
+           | _ -> tr_r_fail st)
         | RpSize p ->
           (match m with
            | TrSize n -> tr_r_size c st p n
@@ -728,7 +1109,7 @@ let tr_receiver h deq zdecomp unzl c dest st m =
            | _ -> tr_r_fail st)
         | RpData (p, size, cp, acc, steps) ->
           (match m with
-           | TrData f -> tr_r_frame zdecomp c st p size cp acc steps f
+           | TrData f -> tr_r_frame zdecomp aparse c st p size cp acc steps f
            | TrKeepAlive -> tr_r_stay st
            | _ -> tr_r_fail st)
         | RpV1 (p, size, w) ->
@@ -737,7 +1118,7 @@ let tr_receiver h deq zdecomp unzl c dest st m =
            | _ -> tr_r_fail st)
         | RpMd5 (p, w) ->
           (match m with
-           | TrMd5 d -> tr_r_md5 h deq c dest st p w d
+           | TrMd5 d -> tr_r_md5 h deq aparse c dest st p w d
            | _ -> tr_r_fail st)
         | RpExit ->
           (match m with
@@ -758,6 +1139,16 @@ let tr_receiver h deq zdecomp unzl c dest st m =
           (match m with
            | TrName p -> tr_r_name c dest st p
            | _ -> tr_r_fail st)
+        | RpHSize (p, leaf, old) ->
+          (match m with
+           | TrSize n ->
+             ((tr_r_phase st (RpHash (p, leaf, old, n, r_init))), [])
+           | _ -> tr_r_fail st)
+        | RpHash (p, leaf, old, ssize, r) ->
+          (match m with
+           | TrHash (step, h0) -> tr_r_hash hx st p leaf old ssize r step h0
+           | TrHashOver -> tr_r_over st p leaf old ssize r
+           | _ -> tr_r_fail st)
         | RpSize p ->
           (match m with
            | TrSize n -> tr_r_size c st p n
@@ -770,7 +1161,7 @@ let tr_receiver h deq zdecomp unzl c dest st m =
            | _ -> tr_r_fail st)
         | RpData (p, size, cp, acc, steps) ->
           (match m with
-           | TrData f -> tr_r_frame zdecomp c st p size cp acc steps f
+           | TrData f -> tr_r_frame zdecomp aparse c st p size cp acc steps f
            | TrKeepAlive -> tr_r_stay st
            | _ -> tr_r_fail st)
         | RpV1 (p, size, w) ->
@@ -779,7 +1170,7 @@ let tr_receiver h deq zdecomp unzl c dest st m =
            | _ -> tr_r_fail st)
         | RpMd5 (p, w) ->
           (match m with
-           | TrMd5 d -> tr_r_md5 h deq c dest st p w d
+           | TrMd5 d -> tr_r_md5 h deq aparse c dest st p w d
            | _ -> tr_r_fail st)
         | RpExit ->
           (match m with
@@ -800,6 +1191,16 @@ let tr_receiver h deq zdecomp unzl c dest st m =
           (match m with
            | TrName p -> tr_r_name c dest st p
            | _ -> tr_r_fail st)
+        | RpHSize (p, leaf, old) ->
+          (match m with
+           | TrSize n ->
+             ((tr_r_phase st (RpHash (p, leaf, old, n, r_init))), [])
+           | _ -> tr_r_fail st)
+        | RpHash (p, leaf, old, ssize, r) ->
+          (match m with
+           | TrHash (step, h0) -> tr_r_hash hx st p leaf old ssize r step h0
+           | TrHashOver -> tr_r_over st p leaf old ssize r
+           | _ -> tr_r_fail st)
         | RpSize p ->
           (match m with
            | TrSize n -> tr_r_size c st p n
@@ -812,7 +1213,7 @@ let tr_receiver h deq zdecomp unzl c dest st m =
            | _ -> tr_r_fail st)
         | RpData (p, size, cp, acc, steps) ->
           (match m with
-           | TrData f -> tr_r_frame zdecomp c st p size cp acc steps f
+           | TrData f -> tr_r_frame zdecomp aparse c st p size cp acc steps f
            | TrKeepAlive -> tr_r_stay st
            | _ -> tr_r_fail st)
         | RpV1 (p, size, w) ->
@@ -821,7 +1222,7 @@ let tr_receiver h deq zdecomp unzl c dest st m =
            | _ -> tr_r_fail st)
         | RpMd5 (p, w) ->
           (match m with
-           | TrMd5 d -> tr_r_md5 h deq c dest st p w d
+           | TrMd5 d -> tr_r_md5 h deq aparse c dest st p w d
            | _ -> tr_r_fail st)
         | RpExit ->
           (match m with
@@ -842,6 +1243,16 @@ let tr_receiver h deq zdecomp unzl c dest st m =
           (match m with
            | TrName p -> tr_r_name c dest st p
            | _ -> tr_r_fail st)
+        | RpHSize (p, leaf, old) ->
+          (match m with
+           | TrSize n ->
+             ((tr_r_phase st (RpHash (p, leaf, old, n, r_init))), [])
+           | _ -> tr_r_fail st)
+        | RpHash (p, leaf, old, ssize, r) ->
+          (match m with
+           | TrHash (step, h0) -> tr_r_hash hx st p leaf old ssize r step h0
+           | TrHashOver -> tr_r_over st p leaf old ssize r
+           | _ -> tr_r_fail st)
         | RpSize p ->
           (match m with
            | TrSize n -> tr_r_size c st p n
@@ -854,7 +1265,7 @@ let tr_receiver h deq zdecomp unzl c dest st m =
            | _ -> tr_r_fail st)
         | RpData (p, size, cp, acc, steps) ->
           (match m with
-           | TrData f -> tr_r_frame zdecomp c st p size cp acc steps f
+           | TrData f -> tr_r_frame zdecomp aparse c st p size cp acc steps f
            | TrKeepAlive -> tr_r_stay st
            | _ -> tr_r_fail st)
         | RpV1 (p, size, w) ->
@@ -863,7 +1274,7 @@ let tr_receiver h deq zdecomp unzl c dest st m =
            | _ -> tr_r_fail st)
         | RpMd5 (p, w) ->
           (match m with
-           | TrMd5 d -> tr_r_md5 h deq c dest st p w d
+           | TrMd5 d -> tr_r_md5 h deq aparse c dest st p w d
            | _ -> tr_r_fail st)
         | RpExit ->
           (match m with
@@ -884,6 +1295,16 @@ let tr_receiver h deq zdecomp unzl c dest st m =
           (match m with
            | TrName p -> tr_r_name c dest st p
            | _ -> tr_r_fail st)
+        | RpHSize (p, leaf, old) ->
+          (match m with
+           | TrSize n ->
+             ((tr_r_phase st (RpHash (p, leaf, old, n, r_init))), [])
+           | _ -> tr_r_fail st)
+        | RpHash (p, leaf, old, ssize, r) ->
+          (match m with
+           | TrHash (step, h0) -> tr_r_hash hx st p leaf old ssize r step h0
+           | TrHashOver -> tr_r_over st p leaf old ssize r
+           | _ -> tr_r_fail st)
         | RpSize p ->
           (match m with
            | TrSize n -> tr_r_size c st p n
@@ -896,7 +1317,7 @@ let tr_receiver h deq zdecomp unzl c dest st m =
            | _ -> tr_r_fail st)
         | RpData (p, size, cp, acc, steps) ->
           (match m with
-           | TrData f -> tr_r_frame zdecomp c st p size cp acc steps f
+           | TrData f -> tr_r_frame zdecomp aparse c st p size cp acc steps f
            | TrKeepAlive -> tr_r_stay st
            | _ -> tr_r_fail st)
         | RpV1 (p, size, w) ->
@@ -905,7 +1326,7 @@ let tr_receiver h deq zdecomp unzl c dest st m =
            | _ -> tr_r_fail st)
         | RpMd5 (p, w) ->
           (match m with
-           | TrMd5 d -> tr_r_md5 h deq c dest st p w d
+           | TrMd5 d -> tr_r_md5 h deq aparse c dest st p w d
            | _ -> tr_r_fail st)
         | RpExit ->
           (match m with
@@ -926,6 +1347,16 @@ let tr_receiver h deq zdecomp unzl c dest st m =
           (match m with
            | TrName p -> tr_r_name c dest st p
            | _ -> tr_r_fail st)
+        | RpHSize (p, leaf, old) ->
+          (match m with
+           | TrSize n ->
+             ((tr_r_phase st (RpHash (p, leaf, old, n, r_init))), [])
+           | _ -> tr_r_fail st)
+        | RpHash (p, leaf, old, ssize, r) ->
+          (match m with
+           | TrHash (step, h0) -> tr_r_hash hx st p leaf old ssize r step h0
+           | TrHashOver -> tr_r_over st p leaf old ssize r
+           | _ -> tr_r_fail st)
         | RpSize p ->
           (match m with
            | TrSize n -> tr_r_size c st p n
@@ -938,7 +1369,7 @@ let tr_receiver h deq zdecomp unzl c dest st m =
            | _ -> tr_r_fail st)
         | RpData (p, size, cp, acc, steps) ->
           (match m with
-           | TrData f -> tr_r_frame zdecomp c st p size cp acc steps f
+           | TrData f -> tr_r_frame zdecomp aparse c st p size cp acc steps f
            | TrKeepAlive -> tr_r_stay st
            | _ -> tr_r_fail st)
         | RpV1 (p, size, w) ->
@@ -947,7 +1378,7 @@ let tr_receiver h deq zdecomp unzl c dest st m =
            | _ -> tr_r_fail st)
         | RpMd5 (p, w) ->
           (match m with
-           | TrMd5 d -> tr_r_md5 h deq c dest st p w d
+           | TrMd5 d -> tr_r_md5 h deq aparse c dest st p w d
            | _ -> tr_r_fail st)
         | RpExit ->
           (match m with
@@ -968,6 +1399,16 @@ let tr_receiver h deq zdecomp unzl c dest st m =
           (match m with
            | TrName p -> tr_r_name c dest st p
            | _ -> tr_r_fail st)
+        | RpHSize (p, leaf, old) ->
+          (match m with
+           | TrSize n ->
+             ((tr_r_phase st (RpHash (p, leaf, old, n, r_init))), [])
+           | _ -> tr_r_fail st)
+        | RpHash (p, leaf, old, ssize, r) ->
+          (match m with
+           | TrHash (step, h0) -> tr_r_hash hx st p leaf old ssize r step h0
+           | TrHashOver -> tr_r_over st p leaf old ssize r
+           | _ -> tr_r_fail st)
         | RpSize p ->
           (match m with
            | TrSize n -> tr_r_size c st p n
@@ -980,7 +1421,7 @@ let tr_receiver h deq zdecomp unzl c dest st m =
            | _ -> tr_r_fail st)
         | RpData (p, size, cp, acc, steps) ->
           (match m with
-           | TrData f -> tr_r_frame zdecomp c st p size cp acc steps f
+           | TrData f -> tr_r_frame zdecomp aparse c st p size cp acc steps f
            | TrKeepAlive -> tr_r_stay st
            | _ -> tr_r_fail st)
         | RpV1 (p, size, w) ->
@@ -989,7 +1430,111 @@ let tr_receiver h deq zdecomp unzl c dest st m =
            | _ -> tr_r_fail st)
         | RpMd5 (p, w) ->
           (match m with
-           | TrMd5 d -> tr_r_md5 h deq c dest st p w d
+           | TrMd5 d -> tr_r_md5 h deq aparse c dest st p w d
+           | _ -> tr_r_fail st)
+        | RpExit ->
+          (match m with
+           | TrExit _ -> ((tr_r_phase st RpDone), [])
+           | _ -> tr_r_fail st)
+        | _ -> tr_r_stay st)
+     | TrHash (_, _) ->
+       (match ph with
+        | RpNum ->
+          (match m with
+           | TrNum n ->
+             let (st', outs) =
+               tr_r_next c (N.to_nat n) st.rs_st st.rs_names st.rs_sched
+             in
+             (st', ((TrSuccInt n) :: outs))
+           | _ -> tr_r_fail st)
+        | RpName ->
+          (match m with
+           | TrName p -> tr_r_name c dest st p
+           | _ -> tr_r_fail st)
+        | RpHSize (p, leaf, old) ->
+          (match m with
+           | TrSize n ->
+             ((tr_r_phase st (RpHash (p, leaf, old, n, r_init))), [])
+           | _ -> tr_r_fail st)
+        | RpHash (p, leaf, old, ssize, r) ->
+          (match m with
+           | TrHash (step, h0) -> tr_r_hash hx st p leaf old ssize r step h0
+           | TrHashOver -> tr_r_over st p leaf old ssize r
+           | _ -> tr_r_fail st)
+        | RpSize p ->
+          (match m with
+           | TrSize n -> tr_r_size c st p n
+           | _ -> tr_r_fail st)
+        | RpComp (p, size) ->
+          (match m with
+           | TrComp b ->
+             ((tr_r_phase st (RpData (p, size, b, [],
+                (tr_cur_sched st).sc_steps))), [])
+           | _ -> tr_r_fail st)
+        | RpData (p, size, cp, acc, steps) ->
+          (match m with
+           | TrData f -> tr_r_frame zdecomp aparse c st p size cp acc steps f
+           | TrKeepAlive -> tr_r_stay st
+           | _ -> tr_r_fail st)
+        | RpV1 (p, size, w) ->
+          (match m with
+           | TrData pl -> tr_r_v1 unzl c st p size w pl
+           | _ -> tr_r_fail st)
+        | RpMd5 (p, w) ->
+          (match m with
+           | TrMd5 d -> tr_r_md5 h deq aparse c dest st p w d
+           | _ -> tr_r_fail st)
+        | RpExit ->
+          (match m with
+           | TrExit _ -> ((tr_r_phase st RpDone), [])
+           | _ -> tr_r_fail st)
+        | _ -> tr_r_stay st)
+     | TrHashOver ->
+       (match ph with
+        | RpNum ->
+          (match m with
+           | TrNum n ->
+             let (st', outs) =
+               tr_r_next c (N.to_nat n) st.rs_st st.rs_names st.rs_sched
+             in
+             (st', ((TrSuccInt n) :: outs))
+           | _ -> tr_r_fail st)
+        | RpName ->
+          (match m with
+           | TrName p -> tr_r_name c dest st p
+           | _ -> tr_r_fail st)
+        | RpHSize (p, leaf, old) ->
+          (match m with
+           | TrSize n ->
+             ((tr_r_phase st (RpHash (p, leaf, old, n, r_init))), [])
+           | _ -> tr_r_fail st)
+        | RpHash (p, leaf, old, ssize, r) ->
+          (match m with
+           | TrHash (step, h0) -> tr_r_hash hx st p leaf old ssize r step h0
+           | TrHashOver -> tr_r_over st p leaf old ssize r
+           | _ -> tr_r_fail st)
+        | RpSize p ->
+          (match m with
+           | TrSize n -> tr_r_size c st p n
+           | _ -> tr_r_fail st)
+        | RpComp (p, size) ->
+          (match m with
+           | TrComp b ->
+             ((tr_r_phase st (RpData (p, size, b, [],
+                (tr_cur_sched st).sc_steps))), [])
+           | _ -> tr_r_fail st)
+        | RpData (p, size, cp, acc, steps) ->
+          (match m with
+           | TrData f -> tr_r_frame zdecomp aparse c st p size cp acc steps f
+           | TrKeepAlive -> tr_r_stay st
+           | _ -> tr_r_fail st)
+        | RpV1 (p, size, w) ->
+          (match m with
+           | TrData pl -> tr_r_v1 unzl c st p size w pl
+           | _ -> tr_r_fail st)
+        | RpMd5 (p, w) ->
+          (match m with
+           | TrMd5 d -> tr_r_md5 h deq aparse c dest st p w d
            | _ -> tr_r_fail st)
         | RpExit ->
           (match m with
@@ -1010,6 +1555,16 @@ let tr_receiver h deq zdecomp unzl c dest st m =
           (match m with
            | TrName p -> tr_r_name c dest st p
            | _ -> tr_r_fail st)
+        | RpHSize (p, leaf, old) ->
+          (match m with
+           | TrSize n ->
+             ((tr_r_phase st (RpHash (p, leaf, old, n, r_init))), [])
+           | _ -> tr_r_fail st)
+        | RpHash (p, leaf, old, ssize, r) ->
+          (match m with
+           | TrHash (step, h0) -> tr_r_hash hx st p leaf old ssize r step h0
+           | TrHashOver -> tr_r_over st p leaf old ssize r
+           | _ -> tr_r_fail st)
         | RpSize p ->
           (match m with
            | TrSize n -> tr_r_size c st p n
@@ -1022,7 +1577,7 @@ let tr_receiver h deq zdecomp unzl c dest st m =
            | _ -> tr_r_fail st)
         | RpData (p, size, cp, acc, steps) ->
           (match m with
-           | TrData f -> tr_r_frame zdecomp c st p size cp acc steps f
+           | TrData f -> tr_r_frame zdecomp aparse c st p size cp acc steps f
            | TrKeepAlive -> tr_r_stay st
            | _ -> tr_r_fail st)
         | RpV1 (p, size, w) ->
@@ -1031,7 +1586,7 @@ let tr_receiver h deq zdecomp unzl c dest st m =
            | _ -> tr_r_fail st)
         | RpMd5 (p, w) ->
           (match m with
-           | TrMd5 d -> tr_r_md5 h deq c dest st p w d
+           | TrMd5 d -> tr_r_md5 h deq aparse c dest st p w d
            | _ -> tr_r_fail st)
         | RpExit ->
           (match m with
@@ -1052,6 +1607,16 @@ let tr_receiver h deq zdecomp unzl c dest st m =
           (match m with
            | TrName p -> tr_r_name c dest st p
            | _ -> tr_r_fail st)
+        | RpHSize (p, leaf, old) ->
+          (match m with
+           | TrSize n ->
+             ((tr_r_phase st (RpHash (p, leaf, old, n, r_init))), [])
+           | _ -> tr_r_fail st)
+        | RpHash (p, leaf, old, ssize, r) ->
+          (match m with
+           | TrHash (step, h0) -> tr_r_hash hx st p leaf old ssize r step h0
+           | TrHashOver -> tr_r_over st p leaf old ssize r
+           | _ -> tr_r_fail st)
         | RpSize p ->
           (match m with
            | TrSize n -> tr_r_size c st p n
@@ -1064,7 +1629,7 @@ let tr_receiver h deq zdecomp unzl c dest st m =
            | _ -> tr_r_fail st)
         | RpData (p, size, cp, acc, steps) ->
           (match m with
-           | TrData f -> tr_r_frame zdecomp c st p size cp acc steps f
+           | TrData f -> tr_r_frame zdecomp aparse c st p size cp acc steps f
            | TrKeepAlive -> tr_r_stay st
            | _ -> tr_r_fail st)
         | RpV1 (p, size, w) ->
@@ -1073,7 +1638,7 @@ let tr_receiver h deq zdecomp unzl c dest st m =
            | _ -> tr_r_fail st)
         | RpMd5 (p, w) ->
           (match m with
-           | TrMd5 d -> tr_r_md5 h deq c dest st p w d
+           | TrMd5 d -> tr_r_md5 h deq aparse c dest st p w d
            | _ -> tr_r_fail st)
         | RpExit ->
           (match m with
@@ -1094,6 +1659,16 @@ let tr_receiver h deq zdecomp unzl c dest st m =
           (match m with
            | TrName p -> tr_r_name c dest st p
            | _ -> tr_r_fail st)
+        | RpHSize (p, leaf, old) ->
+          (match m with
+           | TrSize n ->
+             ((tr_r_phase st (RpHash (p, leaf, old, n, r_init))), [])
+           | _ -> tr_r_fail st)
+        | RpHash (p, leaf, old, ssize, r) ->
+          (match m with
+           | TrHash (step, h0) -> tr_r_hash hx st p leaf old ssize r step h0
+           | TrHashOver -> tr_r_over st p leaf old ssize r
+           | _ -> tr_r_fail st)
         | RpSize p ->
           (match m with
            | TrSize n -> tr_r_size c st p n
@@ -1106,7 +1681,7 @@ let tr_receiver h deq zdecomp unzl c dest st m =
            | _ -> tr_r_fail st)
         | RpData (p, size, cp, acc, steps) ->
           (match m with
-           | TrData f -> tr_r_frame zdecomp c st p size cp acc steps f
+           | TrData f -> tr_r_frame zdecomp aparse c st p size cp acc steps f
            | TrKeepAlive -> tr_r_stay st
            | _ -> tr_r_fail st)
         | RpV1 (p, size, w) ->
@@ -1115,7 +1690,7 @@ let tr_receiver h deq zdecomp unzl c dest st m =
            | _ -> tr_r_fail st)
         | RpMd5 (p, w) ->
           (match m with
-           | TrMd5 d -> tr_r_md5 h deq c dest st p w d
+           | TrMd5 d -> tr_r_md5 h deq aparse c dest st p w d
            | _ -> tr_r_fail st)
         | RpExit ->
           (match m with
@@ -1136,6 +1711,16 @@ let tr_receiver h deq zdecomp unzl c dest st m =
           (match m with
            | TrName p -> tr_r_name c dest st p
            | _ -> tr_r_fail st)
+        | RpHSize (p, leaf, old) ->
+          (match m with
+           | TrSize n ->
+             ((tr_r_phase st (RpHash (p, leaf, old, n, r_init))), [])
+           | _ -> tr_r_fail st)
+        | RpHash (p, leaf, old, ssize, r) ->
+          (match m with
+           | TrHash (step, h0) -> tr_r_hash hx st p leaf old ssize r step h0
+           | TrHashOver -> tr_r_over st p leaf old ssize r
+           | _ -> tr_r_fail st)
         | RpSize p ->
           (match m with
            | TrSize n -> tr_r_size c st p n
@@ -1148,7 +1733,7 @@ let tr_receiver h deq zdecomp unzl c dest st m =
            | _ -> tr_r_fail st)
         | RpData (p, size, cp, acc, steps) ->
           (match m with
-           | TrData f -> tr_r_frame zdecomp c st p size cp acc steps f
+           | TrData f -> tr_r_frame zdecomp aparse c st p size cp acc steps f
            | TrKeepAlive -> tr_r_stay st
            | _ -> tr_r_fail st)
         | RpV1 (p, size, w) ->
@@ -1157,7 +1742,7 @@ let tr_receiver h deq zdecomp unzl c dest st m =
            | _ -> tr_r_fail st)
         | RpMd5 (p, w) ->
           (match m with
-           | TrMd5 d -> tr_r_md5 h deq c dest st p w d
+           | TrMd5 d -> tr_r_md5 h deq aparse c dest st p w d
            | _ -> tr_r_fail st)
         | RpExit ->
           (match m with
@@ -1178,6 +1763,16 @@ let tr_receiver h deq zdecomp unzl c dest st m =
           (match m with
            | TrName p -> tr_r_name c dest st p
            | _ -> tr_r_fail st)
+        | RpHSize (p, leaf, old) ->
+          (match m with
+           | TrSize n ->
+             ((tr_r_phase st (RpHash (p, leaf, old, n, r_init))), [])
+           | _ -> tr_r_fail st)
+        | RpHash (p, leaf, old, ssize, r) ->
+          (match m with
+           | TrHash (step, h0) -> tr_r_hash hx st p leaf old ssize r step h0
+           | TrHashOver -> tr_r_over st p leaf old ssize r
+           | _ -> tr_r_fail st)
         | RpSize p ->
           (match m with
            | TrSize n -> tr_r_size c st p n
@@ -1190,7 +1785,7 @@ let tr_receiver h deq zdecomp unzl c dest st m =
            | _ -> tr_r_fail st)
         | RpData (p, size, cp, acc, steps) ->
           (match m with
-           | TrData f -> tr_r_frame zdecomp c st p size cp acc steps f
+           | TrData f -> tr_r_frame zdecomp aparse c st p size cp acc steps f
            | TrKeepAlive -> tr_r_stay st
            | _ -> tr_r_fail st)
         | RpV1 (p, size, w) ->
@@ -1199,7 +1794,59 @@ let tr_receiver h deq zdecomp unzl c dest st m =
            | _ -> tr_r_fail st)
         | RpMd5 (p, w) ->
           (match m with
-           | TrMd5 d -> tr_r_md5 h deq c dest st p w d
+           | TrMd5 d -> tr_r_md5 h deq aparse c dest st p w d
+           | _ -> tr_r_fail st)
+        | RpExit ->
+          (match m with
+           | TrExit _ -> ((tr_r_phase st RpDone), [])
+           | _ -> tr_r_fail st)
+        | _ -> tr_r_stay st)
+     | TrSuccHack (_, _) ->
+       (match ph with
+        | RpNum ->
+          (match m with
+           | TrNum n ->
+             let (st', outs) =
+               tr_r_next c (N.to_nat n) st.rs_st st.rs_names st.rs_sched
+             in
+             (st', ((TrSuccInt n) :: outs))
+           | _ -> tr_r_fail st)
+        | RpName ->
+          (match m with
+           | TrName p -> tr_r_name c dest st p
+           | _ -> tr_r_fail st)
+        | RpHSize (p, leaf, old) ->
+          (match m with
+           | TrSize n ->
+             ((tr_r_phase st (RpHash (p, leaf, old, n, r_init))), [])
+           | _ -> tr_r_fail st)
+        | RpHash (p, leaf, old, ssize, r) ->
+          (match m with
+           | TrHash (step, h0) -> tr_r_hash hx st p leaf old ssize r step h0
+           | TrHashOver -> tr_r_over st p leaf old ssize r
+           | _ -> tr_r_fail st)
+        | RpSize p ->
+          (match m with
+           | TrSize n -> tr_r_size c st p n
+           | _ -> tr_r_fail st)
+        | RpComp (p, size) ->
+          (match m with
+           | TrComp b ->
+             ((tr_r_phase st (RpData (p, size, b, [],
+                (tr_cur_sched st).sc_steps))), [])
+           | _ -> tr_r_fail st)
+        | RpData (p, size, cp, acc, steps) ->
+          (match m with
+           | TrData f -> tr_r_frame zdecomp aparse c st p size cp acc steps f
+           | TrKeepAlive -> tr_r_stay st
+           | _ -> tr_r_fail st)
+        | RpV1 (p, size, w) ->
+          (match m with
+           | TrData pl -> tr_r_v1 unzl c st p size w pl
+           | _ -> tr_r_fail st)
+        | RpMd5 (p, w) ->
+          (match m with
+           | TrMd5 d -> tr_r_md5 h deq aparse c dest st p w d
            | _ -> tr_r_fail st)
         | RpExit ->
           (match m with
@@ -1220,6 +1867,16 @@ let tr_receiver h deq zdecomp unzl c dest st m =
           (match m with
            | TrName p -> tr_r_name c dest st p
            | _ -> tr_r_fail st)
+        | RpHSize (p, leaf, old) ->
+          (match m with
+           | TrSize n ->
+             ((tr_r_phase st (RpHash (p, leaf, old, n, r_init))), [])
+           | _ -> tr_r_fail st)
+        | RpHash (p, leaf, old, ssize, r) ->
+          (match m with
+           | TrHash (step, h0) -> tr_r_hash hx st p leaf old ssize r step h0
+           | TrHashOver -> tr_r_over st p leaf old ssize r
+           | _ -> tr_r_fail st)
         | RpSize p ->
           (match m with
            | TrSize n -> tr_r_size c st p n
@@ -1232,7 +1889,7 @@ let tr_receiver h deq zdecomp unzl c dest st m =
            | _ -> tr_r_fail st)
         | RpData (p, size, cp, acc, steps) ->
           (match m with
-           | TrData f -> tr_r_frame zdecomp c st p size cp acc steps f
+           | TrData f -> tr_r_frame zdecomp aparse c st p size cp acc steps f
            | TrKeepAlive -> tr_r_stay st
            | _ -> tr_r_fail st)
         | RpV1 (p, size, w) ->
@@ -1241,7 +1898,7 @@ let tr_receiver h deq zdecomp unzl c dest st m =
            | _ -> tr_r_fail st)
         | RpMd5 (p, w) ->
           (match m with
-           | TrMd5 d -> tr_r_md5 h deq c dest st p w d
+           | TrMd5 d -> tr_r_md5 h deq aparse c dest st p w d
            | _ -> tr_r_fail st)
         | RpExit ->
           (match m with
@@ -1266,6 +1923,16 @@ let tr_receiver h deq zdecomp unzl c dest st m =
           (match m with
            | TrName p -> tr_r_name c dest st p
            | _ -> tr_r_fail st)
+        | RpHSize (p, leaf, old) ->
+          (match m with
+           | TrSize n ->
+             ((tr_r_phase st (RpHash (p, leaf, old, n, r_init))), [])
+           | _ -> tr_r_fail st)
+        | RpHash (p, leaf, old, ssize, r) ->
+          (match m with
+           | TrHash (step, h0) -> tr_r_hash hx st p leaf old ssize r step h0
+           | TrHashOver -> tr_r_over st p leaf old ssize r
+           | _ -> tr_r_fail st)
         | RpSize p ->
           (match m with
            | TrSize n -> tr_r_size c st p n
@@ -1278,7 +1945,7 @@ let tr_receiver h deq zdecomp unzl c dest st m =
            | _ -> tr_r_fail st)
         | RpData (p, size, cp, acc, steps) ->
           (match m with
-           | TrData f -> tr_r_frame zdecomp c st p size cp acc steps f
+           | TrData f -> tr_r_frame zdecomp aparse c st p size cp acc steps f
            | TrKeepAlive -> tr_r_stay st
            | _ -> tr_r_fail st)
         | RpV1 (p, size, w) ->
@@ -1287,7 +1954,7 @@ let tr_receiver h deq zdecomp unzl c dest st m =
            | _ -> tr_r_fail st)
         | RpMd5 (p, w) ->
           (match m with
-           | TrMd5 d -> tr_r_md5 h deq c dest st p w d
+           | TrMd5 d -> tr_r_md5 h deq aparse c dest st p w d
            | _ -> tr_r_fail st)
         | RpExit ->
           (match m with
@@ -1308,6 +1975,16 @@ let tr_receiver h deq zdecomp unzl c dest st m =
           (match m with
            | TrName p -> tr_r_name c dest st p
            | _ -> tr_r_fail st)
+        | RpHSize (p, leaf, old) ->
+          (match m with
+           | TrSize n ->
+             ((tr_r_phase st (RpHash (p, leaf, old, n, r_init))), [])
+           | _ -> tr_r_fail st)
+        | RpHash (p, leaf, old, ssize, r) ->
+          (match m with
+           | TrHash (step, h0) -> tr_r_hash hx st p leaf old ssize r step h0
+           | TrHashOver -> tr_r_over st p leaf old ssize r
+           | _ -> tr_r_fail st)
         | RpSize p ->
           (match m with
            | TrSize n -> tr_r_size c st p n
@@ -1320,7 +1997,7 @@ let tr_receiver h deq zdecomp unzl c dest st m =
            | _ -> tr_r_fail st)
         | RpData (p, size, cp, acc, steps) ->
           (match m with
-           | TrData f -> tr_r_frame zdecomp c st p size cp acc steps f
+           | TrData f -> tr_r_frame zdecomp aparse c st p size cp acc steps f
            | TrKeepAlive -> tr_r_stay st
            | _ -> tr_r_fail st)
         | RpV1 (p, size, w) ->
@@ -1329,7 +2006,7 @@ let tr_receiver h deq zdecomp unzl c dest st m =
            | _ -> tr_r_fail st)
         | RpMd5 (p, w) ->
           (match m with
-           | TrMd5 d -> tr_r_md5 h deq c dest st p w d
+           | TrMd5 d -> tr_r_md5 h deq aparse c dest st p w d
            | _ -> tr_r_fail st)
         | RpExit ->
           (match m with
@@ -1350,6 +2027,16 @@ let tr_receiver h deq zdecomp unzl c dest st m =
           (match m with
            | TrName p -> tr_r_name c dest st p
            | _ -> tr_r_fail st)
+        | RpHSize (p, leaf, old) ->
+          (match m with
+           | TrSize n ->
+             ((tr_r_phase st (RpHash (p, leaf, old, n, r_init))), [])
+           | _ -> tr_r_fail st)
+        | RpHash (p, leaf, old, ssize, r) ->
+          (match m with
+           | TrHash (step, h0) -> tr_r_hash hx st p leaf old ssize r step h0
+           | TrHashOver -> tr_r_over st p leaf old ssize r
+           | _ -> tr_r_fail st)
         | RpSize p ->
           (match m with
            | TrSize n -> tr_r_size c st p n
@@ -1362,7 +2049,7 @@ let tr_receiver h deq zdecomp unzl c dest st m =
            | _ -> tr_r_fail st)
         | RpData (p, size, cp, acc, steps) ->
           (match m with
-           | TrData f -> tr_r_frame zdecomp c st p size cp acc steps f
+           | TrData f -> tr_r_frame zdecomp aparse c st p size cp acc steps f
            | TrKeepAlive -> tr_r_stay st
            | _ -> tr_r_fail st)
         | RpV1 (p, size, w) ->
@@ -1371,7 +2058,7 @@ let tr_receiver h deq zdecomp unzl c dest st m =
            | _ -> tr_r_fail st)
         | RpMd5 (p, w) ->
           (match m with
-           | TrMd5 d -> tr_r_md5 h deq c dest st p w d
+           | TrMd5 d -> tr_r_md5 h deq aparse c dest st p w d
            | _ -> tr_r_fail st)
         | RpExit ->
           (match m with
@@ -1392,6 +2079,16 @@ let tr_receiver h deq zdecomp unzl c dest st m =
           (match m with
            | TrName p -> tr_r_name c dest st p
            | _ -> tr_r_fail st)
+        | RpHSize (p, leaf, old) ->
+          (match m with
+           | TrSize n ->
+             ((tr_r_phase st (RpHash (p, leaf, old, n, r_init))), [])
+           | _ -> tr_r_fail st)
+        | RpHash (p, leaf, old, ssize, r) ->
+          (match m with
+           | TrHash (step, h0) -> tr_r_hash hx st p leaf old ssize r step h0
+           | TrHashOver -> tr_r_over st p leaf old ssize r
+           | _ -> tr_r_fail st)
         | RpSize p ->
           (match m with
            | TrSize n -> tr_r_size c st p n
@@ -1404,7 +2101,7 @@ let tr_receiver h deq zdecomp unzl c dest st m =
            | _ -> tr_r_fail st)
         | RpData (p, size, cp, acc, steps) ->
           (match m with
-           | TrData f -> tr_r_frame zdecomp c st p size cp acc steps f
+           | TrData f -> tr_r_frame zdecomp aparse c st p size cp acc steps f
            | TrKeepAlive -> tr_r_stay st
            | _ -> tr_r_fail st)
         | RpV1 (p, size, w) ->
@@ -1413,7 +2110,7 @@ let tr_receiver h deq zdecomp unzl c dest st m =
            | _ -> tr_r_fail st)
         | RpMd5 (p, w) ->
           (match m with
-           | TrMd5 d -> tr_r_md5 h deq c dest st p w d
+           | TrMd5 d -> tr_r_md5 h deq aparse c dest st p w d
            | _ -> tr_r_fail st)
         | RpExit ->
           (match m with
@@ -1434,6 +2131,16 @@ let tr_receiver h deq zdecomp unzl c dest st m =
           (match m with
            | TrName p -> tr_r_name c dest st p
            | _ -> tr_r_fail st)
+        | RpHSize (p, leaf, old) ->
+          (match m with
+           | TrSize n ->
+             ((tr_r_phase st (RpHash (p, leaf, old, n, r_init))), [])
+           | _ -> tr_r_fail st)
+        | RpHash (p, leaf, old, ssize, r) ->
+          (match m with
+           | TrHash (step, h0) -> tr_r_hash hx st p leaf old ssize r step h0
+           | TrHashOver -> tr_r_over st p leaf old ssize r
+           | _ -> tr_r_fail st)
         | RpSize p ->
           (match m with
            | TrSize n -> tr_r_size c st p n
@@ -1446,7 +2153,7 @@ let tr_receiver h deq zdecomp unzl c dest st m =
            | _ -> tr_r_fail st)
         | RpData (p, size, cp, acc, steps) ->
           (match m with
-           | TrData f -> tr_r_frame zdecomp c st p size cp acc steps f
+           | TrData f -> tr_r_frame zdecomp aparse c st p size cp acc steps f
            | TrKeepAlive -> tr_r_stay st
            | _ -> tr_r_fail st)
         | RpV1 (p, size, w) ->
@@ -1455,7 +2162,7 @@ let tr_receiver h deq zdecomp unzl c dest st m =
            | _ -> tr_r_fail st)
         | RpMd5 (p, w) ->
           (match m with
-           | TrMd5 d -> tr_r_md5 h deq c dest st p w d
+           | TrMd5 d -> tr_r_md5 h deq aparse c dest st p w d
            | _ -> tr_r_fail st)
         | RpExit ->
           (match m with
@@ -1476,6 +2183,16 @@ let tr_receiver h deq zdecomp unzl c dest st m =
           (match m with
            | TrName p -> tr_r_name c dest st p
            | _ -> tr_r_fail st)
+        | RpHSize (p, leaf, old) ->
+          (match m with
+           | TrSize n ->
+             ((tr_r_phase st (RpHash (p, leaf, old, n, r_init))), [])
+           | _ -> tr_r_fail st)
+        | RpHash (p, leaf, old, ssize, r) ->
+          (match m with
+           | TrHash (step, h0) -> tr_r_hash hx st p leaf old ssize r step h0
+           | TrHashOver -> tr_r_over st p leaf old ssize r
+           | _ -> tr_r_fail st)
         | RpSize p ->
           (match m with
            | TrSize n -> tr_r_size c st p n
@@ -1488,7 +2205,7 @@ let tr_receiver h deq zdecomp unzl c dest st m =
            | _ -> tr_r_fail st)
         | RpData (p, size, cp, acc, steps) ->
           (match m with
-           | TrData f -> tr_r_frame zdecomp c st p size cp acc steps f
+           | TrData f -> tr_r_frame zdecomp aparse c st p size cp acc steps f
            | TrKeepAlive -> tr_r_stay st
            | _ -> tr_r_fail st)
         | RpV1 (p, size, w) ->
@@ -1497,7 +2214,7 @@ let tr_receiver h deq zdecomp unzl c dest st m =
            | _ -> tr_r_fail st)
         | RpMd5 (p, w) ->
           (match m with
-           | TrMd5 d -> tr_r_md5 h deq c dest st p w d
+           | TrMd5 d -> tr_r_md5 h deq aparse c dest st p w d
            | _ -> tr_r_fail st)
         | RpExit ->
           (match m with
@@ -1518,6 +2235,16 @@ let tr_receiver h deq zdecomp unzl c dest st m =
           (match m with
            | TrName p -> tr_r_name c dest st p
            | _ -> tr_r_fail st)
+        | RpHSize (p, leaf, old) ->
+          (match m with
+           | TrSize n ->
+             ((tr_r_phase st (RpHash (p, leaf, old, n, r_init))), [])
+           | _ -> tr_r_fail st)
+        | RpHash (p, leaf, old, ssize, r) ->
+          (match m with
+           | TrHash (step, h0) -> tr_r_hash hx st p leaf old ssize r step h0
+           | TrHashOver -> tr_r_over st p leaf old ssize r
+           | _ -> tr_r_fail st)
         | RpSize p ->
           (match m with
            | TrSize n -> tr_r_size c st p n
@@ -1530,7 +2257,7 @@ let tr_receiver h deq zdecomp unzl c dest st m =
            | _ -> tr_r_fail st)
         | RpData (p, size, cp, acc, steps) ->
           (match m with
-           | TrData f -> tr_r_frame zdecomp c st p size cp acc steps f
+           | TrData f -> tr_r_frame zdecomp aparse c st p size cp acc steps f
            | TrKeepAlive -> tr_r_stay st
            | _ -> tr_r_fail st)
         | RpV1 (p, size, w) ->
@@ -1539,7 +2266,111 @@ let tr_receiver h deq zdecomp unzl c dest st m =
            | _ -> tr_r_fail st)
         | RpMd5 (p, w) ->
           (match m with
-           | TrMd5 d -> tr_r_md5 h deq c dest st p w d
+           | TrMd5 d -> tr_r_md5 h deq aparse c dest st p w d
+           | _ -> tr_r_fail st)
+        | RpExit ->
+          (match m with
+           | TrExit _ -> ((tr_r_phase st RpDone), [])
+           | _ -> tr_r_fail st)
+        | _ -> tr_r_stay st)
+     | TrHash (_, _) ->
+       (match ph with
+        | RpNum ->
+          (match m with
+           | TrNum n ->
+             let (st', outs) =
+               tr_r_next c (N.to_nat n) st.rs_st st.rs_names st.rs_sched
+             in
+             (st', ((TrSuccInt n) :: outs))
+           | _ -> tr_r_fail st)
+        | RpName ->
+          (match m with
+           | TrName p -> tr_r_name c dest st p
+           | _ -> tr_r_fail st)
+        | RpHSize (p, leaf, old) ->
+          (match m with
+           | TrSize n ->
+             ((tr_r_phase st (RpHash (p, leaf, old, n, r_init))), [])
+           | _ -> tr_r_fail st)
+        | RpHash (p, leaf, old, ssize, r) ->
+          (match m with
+           | TrHash (step, h0) -> tr_r_hash hx st p leaf old ssize r step h0
+           | TrHashOver -> tr_r_over st p leaf old ssize r
+           | _ -> tr_r_fail st)
+        | RpSize p ->
+          (match m with
+           | TrSize n -> tr_r_size c st p n
+           | _ -> tr_r_fail st)
+        | RpComp (p, size) ->
+          (match m with
+           | TrComp b ->
+             ((tr_r_phase st (RpData (p, size, b, [],
+                (tr_cur_sched st).sc_steps))), [])
+           | _ -> tr_r_fail st)
+        | RpData (p, size, cp, acc, steps) ->
+          (match m with
+           | TrData f -> tr_r_frame zdecomp aparse c st p size cp acc steps f
+           | TrKeepAlive -> tr_r_stay st
+           | _ -> tr_r_fail st)
+        | RpV1 (p, size, w) ->
+          (match m with
+           | TrData pl -> tr_r_v1 unzl c st p size w pl
+           | _ -> tr_r_fail st)
+        | RpMd5 (p, w) ->
+          (match m with
+           | TrMd5 d -> tr_r_md5 h deq aparse c dest st p w d
+           | _ -> tr_r_fail st)
+        | RpExit ->
+          (match m with
+           | TrExit _ -> ((tr_r_phase st RpDone), [])
+           | _ -> tr_r_fail st)
+        | _ -> tr_r_stay st)
+     | TrHashOver ->
+       (match ph with
+        | RpNum ->
+          (match m with
+           | TrNum n ->
+             let (st', outs) =
+               tr_r_next c (N.to_nat n) st.rs_st st.rs_names st.rs_sched
+             in
+             (st', ((TrSuccInt n) :: outs))
+           | _ -> tr_r_fail st)
+        | RpName ->
+          (match m with
+           | TrName p -> tr_r_name c dest st p
+           | _ -> tr_r_fail st)
+        | RpHSize (p, leaf, old) ->
+          (match m with
+           | TrSize n ->
+             ((tr_r_phase st (RpHash (p, leaf, old, n, r_init))), [])
+           | _ -> tr_r_fail st)
+        | RpHash (p, leaf, old, ssize, r) ->
+          (match m with
+           | TrHash (step, h0) -> tr_r_hash hx st p leaf old ssize r step h0
+           | TrHashOver -> tr_r_over st p leaf old ssize r
+           | _ -> tr_r_fail st)
+        | RpSize p ->
+          (match m with
+           | TrSize n -> tr_r_size c st p n
+           | _ -> tr_r_fail st)
+        | RpComp (p, size) ->
+          (match m with
+           | TrComp b ->
+             ((tr_r_phase st (RpData (p, size, b, [],
+                (tr_cur_sched st).sc_steps))), [])
+           | _ -> tr_r_fail st)
+        | RpData (p, size, cp, acc, steps) ->
+          (match m with
+           | TrData f -> tr_r_frame zdecomp aparse c st p size cp acc steps f
+           | TrKeepAlive -> tr_r_stay st
+           | _ -> tr_r_fail st)
+        | RpV1 (p, size, w) ->
+          (match m with
+           | TrData pl -> tr_r_v1 unzl c st p size w pl
+           | _ -> tr_r_fail st)
+        | RpMd5 (p, w) ->
+          (match m with
+           | TrMd5 d -> tr_r_md5 h deq aparse c dest st p w d
            | _ -> tr_r_fail st)
         | RpExit ->
           (match m with
@@ -1560,6 +2391,16 @@ let tr_receiver h deq zdecomp unzl c dest st m =
           (match m with
            | TrName p -> tr_r_name c dest st p
            | _ -> tr_r_fail st)
+        | RpHSize (p, leaf, old) ->
+          (match m with
+           | TrSize n ->
+             ((tr_r_phase st (RpHash (p, leaf, old, n, r_init))), [])
+           | _ -> tr_r_fail st)
+        | RpHash (p, leaf, old, ssize, r) ->
+          (match m with
+           | TrHash (step, h0) -> tr_r_hash hx st p leaf old ssize r step h0
+           | TrHashOver -> tr_r_over st p leaf old ssize r
+           | _ -> tr_r_fail st)
         | RpSize p ->
           (match m with
            | TrSize n -> tr_r_size c st p n
@@ -1572,7 +2413,7 @@ let tr_receiver h deq zdecomp unzl c dest st m =
            | _ -> tr_r_fail st)
         | RpData (p, size, cp, acc, steps) ->
           (match m with
-           | TrData f -> tr_r_frame zdecomp c st p size cp acc steps f
+           | TrData f -> tr_r_frame zdecomp aparse c st p size cp acc steps f
            | TrKeepAlive -> tr_r_stay st
            | _ -> tr_r_fail st)
         | RpV1 (p, size, w) ->
@@ -1581,7 +2422,7 @@ let tr_receiver h deq zdecomp unzl c dest st m =
            | _ -> tr_r_fail st)
         | RpMd5 (p, w) ->
           (match m with
-           | TrMd5 d -> tr_r_md5 h deq c dest st p w d
+           | TrMd5 d -> tr_r_md5 h deq aparse c dest st p w d
            | _ -> tr_r_fail st)
         | RpExit ->
           (match m with
@@ -1602,6 +2443,16 @@ let tr_receiver h deq zdecomp unzl c dest st m =
           (match m with
            | TrName p -> tr_r_name c dest st p
            | _ -> tr_r_fail st)
+        | RpHSize (p, leaf, old) ->
+          (match m with
+           | TrSize n ->
+             ((tr_r_phase st (RpHash (p, leaf, old, n, r_init))), [])
+           | _ -> tr_r_fail st)
+        | RpHash (p, leaf, old, ssize, r) ->
+          (match m with
+           | TrHash (step, h0) -> tr_r_hash hx st p leaf old ssize r step h0
+           | TrHashOver -> tr_r_over st p leaf old ssize r
+           | _ -> tr_r_fail st)
         | RpSize p ->
           (match m with
            | TrSize n -> tr_r_size c st p n
@@ -1614,7 +2465,7 @@ let tr_receiver h deq zdecomp unzl c dest st m =
            | _ -> tr_r_fail st)
         | RpData (p, size, cp, acc, steps) ->
           (match m with
-           | TrData f -> tr_r_frame zdecomp c st p size cp acc steps f
+           | TrData f -> tr_r_frame zdecomp aparse c st p size cp acc steps f
            | TrKeepAlive -> tr_r_stay st
            | _ -> tr_r_fail st)
         | RpV1 (p, size, w) ->
@@ -1623,7 +2474,7 @@ let tr_receiver h deq zdecomp unzl c dest st m =
            | _ -> tr_r_fail st)
         | RpMd5 (p, w) ->
           (match m with
-           | TrMd5 d -> tr_r_md5 h deq c dest st p w d
+           | TrMd5 d -> tr_r_md5 h deq aparse c dest st p w d
            | _ -> tr_r_fail st)
         | RpExit ->
           (match m with
@@ -1644,6 +2495,16 @@ let tr_receiver h deq zdecomp unzl c dest st m =
           (match m with
            | TrName p -> tr_r_name c dest st p
            | _ -> tr_r_fail st)
+        | RpHSize (p, leaf, old) ->
+          (match m with
+           | TrSize n ->
+             ((tr_r_phase st (RpHash (p, leaf, old, n, r_init))), [])
+           | _ -> tr_r_fail st)
+        | RpHash (p, leaf, old, ssize, r) ->
+          (match m with
+           | TrHash (step, h0) -> tr_r_hash hx st p leaf old ssize r step h0
+           | TrHashOver -> tr_r_over st p leaf old ssize r
+           | _ -> tr_r_fail st)
         | RpSize p ->
           (match m with
            | TrSize n -> tr_r_size c st p n
@@ -1656,7 +2517,7 @@ let tr_receiver h deq zdecomp unzl c dest st m =
            | _ -> tr_r_fail st)
         | RpData (p, size, cp, acc, steps) ->
           (match m with
-           | TrData f -> tr_r_frame zdecomp c st p size cp acc steps f
+           | TrData f -> tr_r_frame zdecomp aparse c st p size cp acc steps f
            | TrKeepAlive -> tr_r_stay st
            | _ -> tr_r_fail st)
         | RpV1 (p, size, w) ->
@@ -1665,7 +2526,7 @@ let tr_receiver h deq zdecomp unzl c dest st m =
            | _ -> tr_r_fail st)
         | RpMd5 (p, w) ->
           (match m with
-           | TrMd5 d -> tr_r_md5 h deq c dest st p w d
+           | TrMd5 d -> tr_r_md5 h deq aparse c dest st p w d
            | _ -> tr_r_fail st)
         | RpExit ->
           (match m with
@@ -1686,6 +2547,16 @@ let tr_receiver h deq zdecomp unzl c dest st m =
           (match m with
            | TrName p -> tr_r_name c dest st p
            | _ -> tr_r_fail st)
+        | RpHSize (p, leaf, old) ->
+          (match m with
+           | TrSize n ->
+             ((tr_r_phase st (RpHash (p, leaf, old, n, r_init))), [])
+           | _ -> tr_r_fail st)
+        | RpHash (p, leaf, old, ssize, r) ->
+          (match m with
+           | TrHash (step, h0) -> tr_r_hash hx st p leaf old ssize r step h0
+           | TrHashOver -> tr_r_over st p leaf old ssize r
+           | _ -> tr_r_fail st)
         | RpSize p ->
           (match m with
            | TrSize n -> tr_r_size c st p n
@@ -1698,7 +2569,7 @@ let tr_receiver h deq zdecomp unzl c dest st m =
            | _ -> tr_r_fail st)
         | RpData (p, size, cp, acc, steps) ->
           (match m with
-           | TrData f -> tr_r_frame zdecomp c st p size cp acc steps f
+           | TrData f -> tr_r_frame zdecomp aparse c st p size cp acc steps f
            | TrKeepAlive -> tr_r_stay st
            | _ -> tr_r_fail st)
         | RpV1 (p, size, w) ->
@@ -1707,7 +2578,7 @@ let tr_receiver h deq zdecomp unzl c dest st m =
            | _ -> tr_r_fail st)
         | RpMd5 (p, w) ->
           (match m with
-           | TrMd5 d -> tr_r_md5 h deq c dest st p w d
+           | TrMd5 d -> tr_r_md5 h deq aparse c dest st p w d
            | _ -> tr_r_fail st)
         | RpExit ->
           (match m with
@@ -1728,6 +2599,16 @@ let tr_receiver h deq zdecomp unzl c dest st m =
           (match m with
            | TrName p -> tr_r_name c dest st p
            | _ -> tr_r_fail st)
+        | RpHSize (p, leaf, old) ->
+          (match m with
+           | TrSize n ->
+             ((tr_r_phase st (RpHash (p, leaf, old, n, r_init))), [])
+           | _ -> tr_r_fail st)
+        | RpHash (p, leaf, old, ssize, r) ->
+          (match m with
+           | TrHash (step, h0) -> tr_r_hash hx st p leaf old ssize r step h0
+           | TrHashOver -> tr_r_over st p leaf old ssize r
+           | _ -> tr_r_fail st)
         | RpSize p ->
           (match m with
            | TrSize n -> tr_r_size c st p n
@@ -1740,7 +2621,7 @@ let tr_receiver h deq zdecomp unzl c dest st m =
            | _ -> tr_r_fail st)
         | RpData (p, size, cp, acc, steps) ->
           (match m with
-           | TrData f -> tr_r_frame zdecomp c st p size cp acc steps f
+           | TrData f -> tr_r_frame zdecomp aparse c st p size cp acc steps f
            | TrKeepAlive -> tr_r_stay st
            | _ -> tr_r_fail st)
         | RpV1 (p, size, w) ->
@@ -1749,7 +2630,59 @@ let tr_receiver h deq zdecomp unzl c dest st m =
            | _ -> tr_r_fail st)
         | RpMd5 (p, w) ->
           (match m with
-           | TrMd5 d -> tr_r_md5 h deq c dest st p w d
+           | TrMd5 d -> tr_r_md5 h deq aparse c dest st p w d
+           | _ -> tr_r_fail st)
+        | RpExit ->
+          (match m with
+           | TrExit _ -> ((tr_r_phase st RpDone), [])
+           | _ -> tr_r_fail st)
+        | _ -> tr_r_stay st)
+     | TrSuccHack (_, _) ->
+       (match ph with
+        | RpNum ->
+          (match m with
+           | TrNum n ->
+             let (st', outs) =
+               tr_r_next c (N.to_nat n) st.rs_st st.rs_names st.rs_sched
+             in
+             (st', ((TrSuccInt n) :: outs))
+           | _ -> tr_r_fail st)
+        | RpName ->
+          (match m with
+           | TrName p -> tr_r_name c dest st p
+           | _ -> tr_r_fail st)
+        | RpHSize (p, leaf, old) ->
+          (match m with
+           | TrSize n ->
+             ((tr_r_phase st (RpHash (p, leaf, old, n, r_init))), [])
+           | _ -> tr_r_fail st)
+        | RpHash (p, leaf, old, ssize, r) ->
+          (match m with
+           | TrHash (step, h0) -> tr_r_hash hx st p leaf old ssize r step h0
+           | TrHashOver -> tr_r_over st p leaf old ssize r
+           | _ -> tr_r_fail st)
+        | RpSize p ->
+          (match m with
+           | TrSize n -> tr_r_size c st p n
+           | _ -> tr_r_fail st)
+        | RpComp (p, size) ->
+          (match m with
+           | TrComp b ->
+             ((tr_r_phase st (RpData (p, size, b, [],
+                (tr_cur_sched st).sc_steps))), [])
+           | _ -> tr_r_fail st)
+        | RpData (p, size, cp, acc, steps) ->
+          (match m with
+           | TrData f -> tr_r_frame zdecomp aparse c st p size cp acc steps f
+           | TrKeepAlive -> tr_r_stay st
+           | _ -> tr_r_fail st)
+        | RpV1 (p, size, w) ->
+          (match m with
+           | TrData pl -> tr_r_v1 unzl c st p size w pl
+           | _ -> tr_r_fail st)
+        | RpMd5 (p, w) ->
+          (match m with
+           | TrMd5 d -> tr_r_md5 h deq aparse c dest st p w d
            | _ -> tr_r_fail st)
         | RpExit ->
           (match m with
@@ -1770,6 +2703,16 @@ let tr_receiver h deq zdecomp unzl c dest st m =
           (match m with
            | TrName p -> tr_r_name c dest st p
            | _ -> tr_r_fail st)
+        | RpHSize (p, leaf, old) ->
+          (match m with
+           | TrSize n ->
+             ((tr_r_phase st (RpHash (p, leaf, old, n, r_init))), [])
+           | _ -> tr_r_fail st)
+        | RpHash (p, leaf, old, ssize, r) ->
+          (match m with
+           | TrHash (step, h0) -> tr_r_hash hx st p leaf old ssize r step h0
+           | TrHashOver -> tr_r_over st p leaf old ssize r
+           | _ -> tr_r_fail st)
         | RpSize p ->
           (match m with
            | TrSize n -> tr_r_size c st p n
@@ -1782,7 +2725,7 @@ let tr_receiver h deq zdecomp unzl c dest st m =
            | _ -> tr_r_fail st)
         | RpData (p, size, cp, acc, steps) ->
           (match m with
-           | TrData f -> tr_r_frame zdecomp c st p size cp acc steps f
+           | TrData f -> tr_r_frame zdecomp aparse c st p size cp acc steps f
            | TrKeepAlive -> tr_r_stay st
            | _ -> tr_r_fail st)
         | RpV1 (p, size, w) ->
@@ -1791,7 +2734,1711 @@ let tr_receiver h deq zdecomp unzl c dest st m =
            | _ -> tr_r_fail st)
         | RpMd5 (p, w) ->
           (match m with
-           | TrMd5 d -> tr_r_md5 h deq c dest st p w d
+           | TrMd5 d -> tr_r_md5 h deq aparse c dest st p w d
+           | _ -> tr_r_fail st)
+        | RpExit ->
+          (match m with
+           | TrExit _ -> ((tr_r_phase st RpDone), [])
+           | _ -> tr_r_fail st)
+        | _ -> tr_r_stay st)
+     | TrFail -> ((tr_r_phase st RpFail), []))
+  | RpHSize (p, leaf, old) ->
+    let ph = RpHSize (p, leaf, old) in
+    (match m with
+     | TrNum _ ->
+       (match ph with
+        | RpNum ->
+          (match m with
+           | TrNum n ->
+             let (st', outs) =
+               tr_r_next c (N.to_nat n) st.rs_st st.rs_names st.rs_sched
+             in
+             (st', ((TrSuccInt n) :: outs))
+           | _ -> tr_r_fail st)
+        | RpName ->
+          (match m with
+           | TrName p0 -> tr_r_name c dest st p0
+           | _ -> tr_r_fail st)
+        | RpHSize (p0, leaf0, old0) ->
+          (match m with
+           | TrSize n ->
+             ((tr_r_phase st (RpHash (p0, leaf0, old0, n, r_init))), [])
+           | _ -> tr_r_fail st)
+        | RpHash (p0, leaf0, old0, ssize, r) ->
+          (match m with
+           | TrHash (step, h0) ->
+             tr_r_hash hx st p0 leaf0 old0 ssize r step h0
+           | TrHashOver -> tr_r_over st p0 leaf0 old0 ssize r
+           | _ -> tr_r_fail st)
+        | RpSize p0 ->
+          (match m with
+           | TrSize n -> tr_r_size c st p0 n
+           | _ -> tr_r_fail st)
+        | RpComp (p0, size) ->
+          (match m with
+           | TrComp b ->
+             ((tr_r_phase st (RpData (p0, size, b, [],
+                (tr_cur_sched st).sc_steps))), [])
+           | _ -> tr_r_fail st)
+        | RpData (p0, size, cp, acc, steps) ->
+          (match m with
+           | TrData f -> tr_r_frame zdecomp aparse c st p0 size cp acc steps f
+           | TrKeepAlive -> tr_r_stay st
+           | _ -> tr_r_fail st)
+        | RpV1 (p0, size, w) ->
+          (match m with
+           | TrData pl -> tr_r_v1 unzl c st p0 size w pl
+           | _ -> tr_r_fail st)
+        | RpMd5 (p0, w) ->
+          (match m with
+           | TrMd5 d -> tr_r_md5 h deq aparse c dest st p0 w d
+           | _ -> tr_r_fail st)
+        | RpExit ->
+          (match m with
+           | TrExit _ -> ((tr_r_phase st RpDone), [])
+           | _ -> tr_r_fail st)
+        | _ -> tr_r_stay st)
+     | TrName _ ->
+       (match ph with
+        | RpNum ->
+          (match m with
+           | TrNum n ->
+             let (st', outs) =
+               tr_r_next c (N.to_nat n) st.rs_st st.rs_names st.rs_sched
+             in
+             (st', ((TrSuccInt n) :: outs))
+           | _ -> tr_r_fail st)
+        | RpName ->
+          (match m with
+           | TrName p0 -> tr_r_name c dest st p0
+           | _ -> tr_r_fail st)
+        | RpHSize (p0, leaf0, old0) ->
+          (match m with
+           | TrSize n ->
+             ((tr_r_phase st (RpHash (p0, leaf0, old0, n, r_init))), [])
+           | _ -> tr_r_fail st)
+        | RpHash (p0, leaf0, old0, ssize, r) ->
+          (match m with
+           | TrHash (step, h0) ->
+             tr_r_hash hx st p0 leaf0 old0 ssize r step h0
+           | TrHashOver -> tr_r_over st p0 leaf0 old0 ssize r
+           | _ -> tr_r_fail st)
+        | RpSize p0 ->
+          (match m with
+           | TrSize n -> tr_r_size c st p0 n
+           | _ -> tr_r_fail st)
+        | RpComp (p0, size) ->
+          (match m with
+           | TrComp b ->
+             ((tr_r_phase st (RpData (p0, size, b, [],
+                (tr_cur_sched st).sc_steps))), [])
+           | _ -> tr_r_fail st)
+        | RpData (p0, size, cp, acc, steps) ->
+          (match m with
+           | TrData f -> tr_r_frame zdecomp aparse c st p0 size cp acc steps f
+           | TrKeepAlive -> tr_r_stay st
+           | _ -> tr_r_fail st)
+        | RpV1 (p0, size, w) ->
+          (match m with
+           | TrData pl -> tr_r_v1 unzl c st p0 size w pl
+           | _ -> tr_r_fail st)
+        | RpMd5 (p0, w) ->
+          (match m with
+           | TrMd5 d -> tr_r_md5 h deq aparse c dest st p0 w d
+           | _ -> tr_r_fail st)
+        | RpExit ->
+          (match m with
+           | TrExit _ -> ((tr_r_phase st RpDone), [])
+           | _ -> tr_r_fail st)
+        | _ -> tr_r_stay st)
+     | TrSize _ ->
+       (match ph with
+        | RpNum ->
+          (match m with
+           | TrNum n ->
+             let (st', outs) =
+               tr_r_next c (N.to_nat n) st.rs_st st.rs_names st.rs_sched
+             in
+             (st', ((TrSuccInt n) :: outs))
+           | _ -> tr_r_fail st)
+        | RpName ->
+          (match m with
+           | TrName p0 -> tr_r_name c dest st p0
+           | _ -> tr_r_fail st)
+        | RpHSize (p0, leaf0, old0) ->
+          (match m with
+           | TrSize n ->
+             ((tr_r_phase st (RpHash (p0, leaf0, old0, n, r_init))), [])
+           | _ -> tr_r_fail st)
+        | RpHash (p0, leaf0, old0, ssize, r) ->
+          (match m with
+           | TrHash (step, h0) ->
+             tr_r_hash hx st p0 leaf0 old0 ssize r step h0
+           | TrHashOver -> tr_r_over st p0 leaf0 old0 ssize r
+           | _ -> tr_r_fail st)
+        | RpSize p0 ->
+          (match m with
+           | TrSize n -> tr_r_size c st p0 n
+           | _ -> tr_r_fail st)
+        | RpComp (p0, size) ->
+          (match m with
+           | TrComp b ->
+             ((tr_r_phase st (RpData (p0, size, b, [],
+                (tr_cur_sched st).sc_steps))), [])
+           | _ -> tr_r_fail st)
+        | RpData (p0, size, cp, acc, steps) ->
+          (match m with
+           | TrData f -> tr_r_frame zdecomp aparse c st p0 size cp acc steps f
+           | TrKeepAlive -> tr_r_stay st
+           | _ -> tr_r_fail st)
+        | RpV1 (p0, size, w) ->
+          (match m with
+           | TrData pl -> tr_r_v1 unzl c st p0 size w pl
+           | _ -> tr_r_fail st)
+        | RpMd5 (p0, w) ->
+          (match m with
+           | TrMd5 d -> tr_r_md5 h deq aparse c dest st p0 w d
+           | _ -> tr_r_fail st)
+        | RpExit ->
+          (match m with
+           | TrExit _ -> ((tr_r_phase st RpDone), [])
+           | _ -> tr_r_fail st)
+        | _ -> tr_r_stay st)
+     | TrComp _ ->
+       (match ph with
+        | RpNum ->
+          (match m with
+           | TrNum n ->
+             let (st', outs) =
+               tr_r_next c (N.to_nat n) st.rs_st st.rs_names st.rs_sched
+             in
+             (st', ((TrSuccInt n) :: outs))
+           | _ -> tr_r_fail st)
+        | RpName ->
+          (match m with
+           | TrName p0 -> tr_r_name c dest st p0
+           | _ -> tr_r_fail st)
+        | RpHSize (p0, leaf0, old0) ->
+          (match m with
+           | TrSize n ->
+             ((tr_r_phase st (RpHash (p0, leaf0, old0, n, r_init))), [])
+           | _ -> tr_r_fail st)
+        | RpHash (p0, leaf0, old0, ssize, r) ->
+          (match m with
+           | TrHash (step, h0) ->
+             tr_r_hash hx st p0 leaf0 old0 ssize r step h0
+           | TrHashOver -> tr_r_over st p0 leaf0 old0 ssize r
+           | _ -> tr_r_fail st)
+        | RpSize p0 ->
+          (match m with
+           | TrSize n -> tr_r_size c st p0 n
+           | _ -> tr_r_fail st)
+        | RpComp (p0, size) ->
+          (match m with
+           | TrComp b ->
+             ((tr_r_phase st (RpData (p0, size, b, [],
+                (tr_cur_sched st).sc_steps))), [])
+           | _ -> tr_r_fail st)
+        | RpData (p0, size, cp, acc, steps) ->
+          (match m with
+           | TrData f -> tr_r_frame zdecomp aparse c st p0 size cp acc steps f
+           | TrKeepAlive -> tr_r_stay st
+           | _ -> tr_r_fail st)
+        | RpV1 (p0, size, w) ->
+          (match m with
+           | TrData pl -> tr_r_v1 unzl c st p0 size w pl
+           | _ -> tr_r_fail st)
+        | RpMd5 (p0, w) ->
+          (match m with
+           | TrMd5 d -> tr_r_md5 h deq aparse c dest st p0 w d
+           | _ -> tr_r_fail st)
+        | RpExit ->
+          (match m with
+           | TrExit _ -> ((tr_r_phase st RpDone), [])
+           | _ -> tr_r_fail st)
+        | _ -> tr_r_stay st)
+     | TrData _ ->
+       (match ph with
+        | RpNum ->
+          (match m with
+           | TrNum n ->
+             let (st', outs) =
+               tr_r_next c (N.to_nat n) st.rs_st st.rs_names st.rs_sched
+             in
+             (st', ((TrSuccInt n) :: outs))
+           | _ -> tr_r_fail st)
+        | RpName ->
+          (match m with
+           | TrName p0 -> tr_r_name c dest st p0
+           | _ -> tr_r_fail st)
+        | RpHSize (p0, leaf0, old0) ->
+          (match m with
+           | TrSize n ->
+             ((tr_r_phase st (RpHash (p0, leaf0, old0, n, r_init))), [])
+           | _ -> tr_r_fail st)
+        | RpHash (p0, leaf0, old0, ssize, r) ->
+          (match m with
+           | TrHash (step, h0) ->
+             tr_r_hash hx st p0 leaf0 old0 ssize r step h0
+           | TrHashOver -> tr_r_over st p0 leaf0 old0 ssize r
+           | _ -> tr_r_fail st)
+        | RpSize p0 ->
+          (match m with
+           | TrSize n -> tr_r_size c st p0 n
+           | _ -> tr_r_fail st)
+        | RpComp (p0, size) ->
+          (match m with
+           | TrComp b ->
+             ((tr_r_phase st (RpData (p0, size, b, [],
+                (tr_cur_sched st).sc_steps))), [])
+           | _ -> tr_r_fail st)
+        | RpData (p0, size, cp, acc, steps) ->
+          (match m with
+           | TrData f -> tr_r_frame zdecomp aparse c st p0 size cp acc steps f
+           | TrKeepAlive -> tr_r_stay st
+           | _ -> tr_r_fail st)
+        | RpV1 (p0, size, w) ->
+          (match m with
+           | TrData pl -> tr_r_v1 unzl c st p0 size w pl
+           | _ -> tr_r_fail st)
+        | RpMd5 (p0, w) ->
+          (match m with
+           | TrMd5 d -> tr_r_md5 h deq aparse c dest st p0 w d
+           | _ -> tr_r_fail st)
+        | RpExit ->
+          (match m with
+           | TrExit _ -> ((tr_r_phase st RpDone), [])
+           | _ -> tr_r_fail st)
+        | _ -> tr_r_stay st)
+     | TrMd5 _ ->
+       (match ph with
+        | RpNum ->
+          (match m with
+           | TrNum n ->
+             let (st', outs) =
+               tr_r_next c (N.to_nat n) st.rs_st st.rs_names st.rs_sched
+             in
+             (st', ((TrSuccInt n) :: outs))
+           | _ -> tr_r_fail st)
+        | RpName ->
+          (match m with
+           | TrName p0 -> tr_r_name c dest st p0
+           | _ -> tr_r_fail st)
+        | RpHSize (p0, leaf0, old0) ->
+          (match m with
+           | TrSize n ->
+             ((tr_r_phase st (RpHash (p0, leaf0, old0, n, r_init))), [])
+           | _ -> tr_r_fail st)
+        | RpHash (p0, leaf0, old0, ssize, r) ->
+          (match m with
+           | TrHash (step, h0) ->
+             tr_r_hash hx st p0 leaf0 old0 ssize r step h0
+           | TrHashOver -> tr_r_over st p0 leaf0 old0 ssize r
+           | _ -> tr_r_fail st)
+        | RpSize p0 ->
+          (match m with
+           | TrSize n -> tr_r_size c st p0 n
+           | _ -> tr_r_fail st)
+        | RpComp (p0, size) ->
+          (match m with
+           | TrComp b ->
+             ((tr_r_phase st (RpData (p0, size, b, [],
+                (tr_cur_sched st).sc_steps))), [])
+           | _ -> tr_r_fail st)
+        | RpData (p0, size, cp, acc, steps) ->
+          (match m with
+           | TrData f -> tr_r_frame zdecomp aparse c st p0 size cp acc steps f
+           | TrKeepAlive -> tr_r_stay st
+           | _ -> tr_r_fail st)
+        | RpV1 (p0, size, w) ->
+          (match m with
+           | TrData pl -> tr_r_v1 unzl c st p0 size w pl
+           | _ -> tr_r_fail st)
+        | RpMd5 (p0, w) ->
+          (match m with
+           | TrMd5 d -> tr_r_md5 h deq aparse c dest st p0 w d
+           | _ -> tr_r_fail st)
+        | RpExit ->
+          (match m with
+           | TrExit _ -> ((tr_r_phase st RpDone), [])
+           | _ -> tr_r_fail st)
+        | _ -> tr_r_stay st)
+     | TrExit _ ->
+       (match ph with
+        | RpNum ->
+          (match m with
+           | TrNum n ->
+             let (st', outs) =
+               tr_r_next c (N.to_nat n) st.rs_st st.rs_names st.rs_sched
+             in
+             (st', ((TrSuccInt n) :: outs))
+           | _ -> tr_r_fail st)
+        | RpName ->
+          (match m with
+           | TrName p0 -> tr_r_name c dest st p0
+           | _ -> tr_r_fail st)
+        | RpHSize (p0, leaf0, old0) ->
+          (match m with
+           | TrSize n ->
+             ((tr_r_phase st (RpHash (p0, leaf0, old0, n, r_init))), [])
+           | _ -> tr_r_fail st)
+        | RpHash (p0, leaf0, old0, ssize, r) ->
+          (match m with
+           | TrHash (step, h0) ->
+             tr_r_hash hx st p0 leaf0 old0 ssize r step h0
+           | TrHashOver -> tr_r_over st p0 leaf0 old0 ssize r
+           | _ -> tr_r_fail st)
+        | RpSize p0 ->
+          (match m with
+           | TrSize n -> tr_r_size c st p0 n
+           | _ -> tr_r_fail st)
+        | RpComp (p0, size) ->
+          (match m with
+           | TrComp b ->
+             ((tr_r_phase st (RpData (p0, size, b, [],
+                (tr_cur_sched st).sc_steps))), [])
+           | _ -> tr_r_fail st)
+        | RpData (p0, size, cp, acc, steps) ->
+          (match m with
+           | TrData f -> tr_r_frame zdecomp aparse c st p0 size cp acc steps f
+           | TrKeepAlive -> tr_r_stay st
+           | _ -> tr_r_fail st)
+        | RpV1 (p0, size, w) ->
+          (match m with
+           | TrData pl -> tr_r_v1 unzl c st p0 size w pl
+           | _ -> tr_r_fail st)
+        | RpMd5 (p0, w) ->
+          (match m with
+           | TrMd5 d -> tr_r_md5 h deq aparse c dest st p0 w d
+           | _ -> tr_r_fail st)
+        | RpExit ->
+          (match m with
+           | TrExit _ -> ((tr_r_phase st RpDone), [])
+           | _ -> tr_r_fail st)
+        | _ -> tr_r_stay st)
+     | TrHash (_, _) ->
+       (match ph with
+        | RpNum ->
+          (match m with
+           | TrNum n ->
+             let (st', outs) =
+               tr_r_next c (N.to_nat n) st.rs_st st.rs_names st.rs_sched
+             in
+             (st', ((TrSuccInt n) :: outs))
+           | _ -> tr_r_fail st)
+        | RpName ->
+          (match m with
+           | TrName p0 -> tr_r_name c dest st p0
+           | _ -> tr_r_fail st)
+        | RpHSize (p0, leaf0, old0) ->
+          (match m with
+           | TrSize n ->
+             ((tr_r_phase st (RpHash (p0, leaf0, old0, n, r_init))), [])
+           | _ -> tr_r_fail st)
+        | RpHash (p0, leaf0, old0, ssize, r) ->
+          (match m with
+           | TrHash (step, h0) ->
+             tr_r_hash hx st p0 leaf0 old0 ssize r step h0
+           | TrHashOver -> tr_r_over st p0 leaf0 old0 ssize r
+           | _ -> tr_r_fail st)
+        | RpSize p0 ->
+          (match m with
+           | TrSize n -> tr_r_size c st p0 n
+           | _ -> tr_r_fail st)
+        | RpComp (p0, size) ->
+          (match m with
+           | TrComp b ->
+             ((tr_r_phase st (RpData (p0, size, b, [],
+                (tr_cur_sched st).sc_steps))), [])
+           | _ -> tr_r_fail st)
+        | RpData (p0, size, cp, acc, steps) ->
+          (match m with
+           | TrData f -> tr_r_frame zdecomp aparse c st p0 size cp acc steps f
+           | TrKeepAlive -> tr_r_stay st
+           | _ -> tr_r_fail st)
+        | RpV1 (p0, size, w) ->
+          (match m with
+           | TrData pl -> tr_r_v1 unzl c st p0 size w pl
+           | _ -> tr_r_fail st)
+        | RpMd5 (p0, w) ->
+          (match m with
+           | TrMd5 d -> tr_r_md5 h deq aparse c dest st p0 w d
+           | _ -> tr_r_fail st)
+        | RpExit ->
+          (match m with
+           | TrExit _ -> ((tr_r_phase st RpDone), [])
+           | _ -> tr_r_fail st)
+        | _ -> tr_r_stay st)
+     | TrHashOver ->
+       (match ph with
+        | RpNum ->
+          (match m with
+           | TrNum n ->
+             let (st', outs) =
+               tr_r_next c (N.to_nat n) st.rs_st st.rs_names st.rs_sched
+             in
+             (st', ((TrSuccInt n) :: outs))
+           | _ -> tr_r_fail st)
+        | RpName ->
+          (match m with
+           | TrName p0 -> tr_r_name c dest st p0
+           | _ -> tr_r_fail st)
+        | RpHSize (p0, leaf0, old0) ->
+          (match m with
+           | TrSize n ->
+             ((tr_r_phase st (RpHash (p0, leaf0, old0, n, r_init))), [])
+           | _ -> tr_r_fail st)
+        | RpHash (p0, leaf0, old0, ssize, r) ->
+          (match m with
+           | TrHash (step, h0) ->
+             tr_r_hash hx st p0 leaf0 old0 ssize r step h0
+           | TrHashOver -> tr_r_over st p0 leaf0 old0 ssize r
+           | _ -> tr_r_fail st)
+        | RpSize p0 ->
+          (match m with
+           | TrSize n -> tr_r_size c st p0 n
+           | _ -> tr_r_fail st)
+        | RpComp (p0, size) ->
+          (match m with
+           | TrComp b ->
+             ((tr_r_phase st (RpData (p0, size, b, [],
+                (tr_cur_sched st).sc_steps))), [])
+           | _ -> tr_r_fail st)
+        | RpData (p0, size, cp, acc, steps) ->
+          (match m with
+           | TrData f -> tr_r_frame zdecomp aparse c st p0 size cp acc steps f
+           | TrKeepAlive -> tr_r_stay st
+           | _ -> tr_r_fail st)
+        | RpV1 (p0, size, w) ->
+          (match m with
+           | TrData pl -> tr_r_v1 unzl c st p0 size w pl
+           | _ -> tr_r_fail st)
+        | RpMd5 (p0, w) ->
+          (match m with
+           | TrMd5 d -> tr_r_md5 h deq aparse c dest st p0 w d
+           | _ -> tr_r_fail st)
+        | RpExit ->
+          (match m with
+           | TrExit _ -> ((tr_r_phase st RpDone), [])
+           | _ -> tr_r_fail st)
+        | _ -> tr_r_stay st)
+     | TrSuccInt _ ->
+       (match ph with
+        | RpNum ->
+          (match m with
+           | TrNum n ->
+             let (st', outs) =
+               tr_r_next c (N.to_nat n) st.rs_st st.rs_names st.rs_sched
+             in
+             (st', ((TrSuccInt n) :: outs))
+           | _ -> tr_r_fail st)
+        | RpName ->
+          (match m with
+           | TrName p0 -> tr_r_name c dest st p0
+           | _ -> tr_r_fail st)
+        | RpHSize (p0, leaf0, old0) ->
+          (match m with
+           | TrSize n ->
+             ((tr_r_phase st (RpHash (p0, leaf0, old0, n, r_init))), [])
+           | _ -> tr_r_fail st)
+        | RpHash (p0, leaf0, old0, ssize, r) ->
+          (match m with
+           | TrHash (step, h0) ->
+             tr_r_hash hx st p0 leaf0 old0 ssize r step h0
+           | TrHashOver -> tr_r_over st p0 leaf0 old0 ssize r
+           | _ -> tr_r_fail st)
+        | RpSize p0 ->
+          (match m with
+           | TrSize n -> tr_r_size c st p0 n
+           | _ -> tr_r_fail st)
+        | RpComp (p0, size) ->
+          (match m with
+           | TrComp b ->
+             ((tr_r_phase st (RpData (p0, size, b, [],
+                (tr_cur_sched st).sc_steps))), [])
+           | _ -> tr_r_fail st)
+        | RpData (p0, size, cp, acc, steps) ->
+          (match m with
+           | TrData f -> tr_r_frame zdecomp aparse c st p0 size cp acc steps f
+           | TrKeepAlive -> tr_r_stay st
+           | _ -> tr_r_fail st)
+        | RpV1 (p0, size, w) ->
+          (match m with
+           | TrData pl -> tr_r_v1 unzl c st p0 size w pl
+           | _ -> tr_r_fail st)
+        | RpMd5 (p0, w) ->
+          (match m with
+           | TrMd5 d -> tr_r_md5 h deq aparse c dest st p0 w d
+           | _ -> tr_r_fail st)
+        | RpExit ->
+          (match m with
+           | TrExit _ -> ((tr_r_phase st RpDone), [])
+           | _ -> tr_r_fail st)
+        | _ -> tr_r_stay st)
+     | TrSuccName _ ->
+       (match ph with
+        | RpNum ->
+          (match m with
+           | TrNum n ->
+             let (st', outs) =
+               tr_r_next c (N.to_nat n) st.rs_st st.rs_names st.rs_sched
+             in
+             (st', ((TrSuccInt n) :: outs))
+           | _ -> tr_r_fail st)
+        | RpName ->
+          (match m with
+           | TrName p0 -> tr_r_name c dest st p0
+           | _ -> tr_r_fail st)
+        | RpHSize (p0, leaf0, old0) ->
+          (match m with
+           | TrSize n ->
+             ((tr_r_phase st (RpHash (p0, leaf0, old0, n, r_init))), [])
+           | _ -> tr_r_fail st)
+        | RpHash (p0, leaf0, old0, ssize, r) ->
+          (match m with
+           | TrHash (step, h0) ->
+             tr_r_hash hx st p0 leaf0 old0 ssize r step h0
+           | TrHashOver -> tr_r_over st p0 leaf0 old0 ssize r
+           | _ -> tr_r_fail st)
+        | RpSize p0 ->
+          (match m with
+           | TrSize n -> tr_r_size c st p0 n
+           | _ -> tr_r_fail st)
+        | RpComp (p0, size) ->
+          (match m with
+           | TrComp b ->
+             ((tr_r_phase st (RpData (p0, size, b, [],
+                (tr_cur_sched st).sc_steps))), [])
+           | _ -> tr_r_fail st)
+        | RpData (p0, size, cp, acc, steps) ->
+          (match m with
+           | TrData f -> tr_r_frame zdecomp aparse c st p0 size cp acc steps f
+           | TrKeepAlive -> tr_r_stay st
+           | _ -> tr_r_fail st)
+        | RpV1 (p0, size, w) ->
+          (match m with
+           | TrData pl -> tr_r_v1 unzl c st p0 size w pl
+           | _ -> tr_r_fail st)
+        | RpMd5 (p0, w) ->
+          (match m with
+           | TrMd5 d -> tr_r_md5 h deq aparse c dest st p0 w d
+           | _ -> tr_r_fail st)
+        | RpExit ->
+          (match m with
+           | TrExit _ -> ((tr_r_phase st RpDone), [])
+           | _ -> tr_r_fail st)
+        | _ -> tr_r_stay st)
+     | TrSuccTarget (_, _) ->
+       (match ph with
+        | RpNum ->
+          (match m with
+           | TrNum n ->
+             let (st', outs) =
+               tr_r_next c (N.to_nat n) st.rs_st st.rs_names st.rs_sched
+             in
+             (st', ((TrSuccInt n) :: outs))
+           | _ -> tr_r_fail st)
+        | RpName ->
+          (match m with
+           | TrName p0 -> tr_r_name c dest st p0
+           | _ -> tr_r_fail st)
+        | RpHSize (p0, leaf0, old0) ->
+          (match m with
+           | TrSize n ->
+             ((tr_r_phase st (RpHash (p0, leaf0, old0, n, r_init))), [])
+           | _ -> tr_r_fail st)
+        | RpHash (p0, leaf0, old0, ssize, r) ->
+          (match m with
+           | TrHash (step, h0) ->
+             tr_r_hash hx st p0 leaf0 old0 ssize r step h0
+           | TrHashOver -> tr_r_over st p0 leaf0 old0 ssize r
+           | _ -> tr_r_fail st)
+        | RpSize p0 ->
+          (match m with
+           | TrSize n -> tr_r_size c st p0 n
+           | _ -> tr_r_fail st)
+        | RpComp (p0, size) ->
+          (match m with
+           | TrComp b ->
+             ((tr_r_phase st (RpData (p0, size, b, [],
+                (tr_cur_sched st).sc_steps))), [])
+           | _ -> tr_r_fail st)
+        | RpData (p0, size, cp, acc, steps) ->
+          (match m with
+           | TrData f -> tr_r_frame zdecomp aparse c st p0 size cp acc steps f
+           | TrKeepAlive -> tr_r_stay st
+           | _ -> tr_r_fail st)
+        | RpV1 (p0, size, w) ->
+          (match m with
+           | TrData pl -> tr_r_v1 unzl c st p0 size w pl
+           | _ -> tr_r_fail st)
+        | RpMd5 (p0, w) ->
+          (match m with
+           | TrMd5 d -> tr_r_md5 h deq aparse c dest st p0 w d
+           | _ -> tr_r_fail st)
+        | RpExit ->
+          (match m with
+           | TrExit _ -> ((tr_r_phase st RpDone), [])
+           | _ -> tr_r_fail st)
+        | _ -> tr_r_stay st)
+     | TrSuccAck (_, _) ->
+       (match ph with
+        | RpNum ->
+          (match m with
+           | TrNum n ->
+             let (st', outs) =
+               tr_r_next c (N.to_nat n) st.rs_st st.rs_names st.rs_sched
+             in
+             (st', ((TrSuccInt n) :: outs))
+           | _ -> tr_r_fail st)
+        | RpName ->
+          (match m with
+           | TrName p0 -> tr_r_name c dest st p0
+           | _ -> tr_r_fail st)
+        | RpHSize (p0, leaf0, old0) ->
+          (match m with
+           | TrSize n ->
+             ((tr_r_phase st (RpHash (p0, leaf0, old0, n, r_init))), [])
+           | _ -> tr_r_fail st)
+        | RpHash (p0, leaf0, old0, ssize, r) ->
+          (match m with
+           | TrHash (step, h0) ->
+             tr_r_hash hx st p0 leaf0 old0 ssize r step h0
+           | TrHashOver -> tr_r_over st p0 leaf0 old0 ssize r
+           | _ -> tr_r_fail st)
+        | RpSize p0 ->
+          (match m with
+           | TrSize n -> tr_r_size c st p0 n
+           | _ -> tr_r_fail st)
+        | RpComp (p0, size) ->
+          (match m with
+           | TrComp b ->
+             ((tr_r_phase st (RpData (p0, size, b, [],
+                (tr_cur_sched st).sc_steps))), [])
+           | _ -> tr_r_fail st)
+        | RpData (p0, size, cp, acc, steps) ->
+          (match m with
+           | TrData f -> tr_r_frame zdecomp aparse c st p0 size cp acc steps f
+           | TrKeepAlive -> tr_r_stay st
+           | _ -> tr_r_fail st)
+        | RpV1 (p0, size, w) ->
+          (match m with
+           | TrData pl -> tr_r_v1 unzl c st p0 size w pl
+           | _ -> tr_r_fail st)
+        | RpMd5 (p0, w) ->
+          (match m with
+           | TrMd5 d -> tr_r_md5 h deq aparse c dest st p0 w d
+           | _ -> tr_r_fail st)
+        | RpExit ->
+          (match m with
+           | TrExit _ -> ((tr_r_phase st RpDone), [])
+           | _ -> tr_r_fail st)
+        | _ -> tr_r_stay st)
+     | TrSuccDigest _ ->
+       (match ph with
+        | RpNum ->
+          (match m with
+           | TrNum n ->
+             let (st', outs) =
+               tr_r_next c (N.to_nat n) st.rs_st st.rs_names st.rs_sched
+             in
+             (st', ((TrSuccInt n) :: outs))
+           | _ -> tr_r_fail st)
+        | RpName ->
+          (match m with
+           | TrName p0 -> tr_r_name c dest st p0
+           | _ -> tr_r_fail st)
+        | RpHSize (p0, leaf0, old0) ->
+          (match m with
+           | TrSize n ->
+             ((tr_r_phase st (RpHash (p0, leaf0, old0, n, r_init))), [])
+           | _ -> tr_r_fail st)
+        | RpHash (p0, leaf0, old0, ssize, r) ->
+          (match m with
+           | TrHash (step, h0) ->
+             tr_r_hash hx st p0 leaf0 old0 ssize r step h0
+           | TrHashOver -> tr_r_over st p0 leaf0 old0 ssize r
+           | _ -> tr_r_fail st)
+        | RpSize p0 ->
+          (match m with
+           | TrSize n -> tr_r_size c st p0 n
+           | _ -> tr_r_fail st)
+        | RpComp (p0, size) ->
+          (match m with
+           | TrComp b ->
+             ((tr_r_phase st (RpData (p0, size, b, [],
+                (tr_cur_sched st).sc_steps))), [])
+           | _ -> tr_r_fail st)
+        | RpData (p0, size, cp, acc, steps) ->
+          (match m with
+           | TrData f -> tr_r_frame zdecomp aparse c st p0 size cp acc steps f
+           | TrKeepAlive -> tr_r_stay st
+           | _ -> tr_r_fail st)
+        | RpV1 (p0, size, w) ->
+          (match m with
+           | TrData pl -> tr_r_v1 unzl c st p0 size w pl
+           | _ -> tr_r_fail st)
+        | RpMd5 (p0, w) ->
+          (match m with
+           | TrMd5 d -> tr_r_md5 h deq aparse c dest st p0 w d
+           | _ -> tr_r_fail st)
+        | RpExit ->
+          (match m with
+           | TrExit _ -> ((tr_r_phase st RpDone), [])
+           | _ -> tr_r_fail st)
+        | _ -> tr_r_stay st)
+     | TrSuccHack (_, _) ->
+       (match ph with
+        | RpNum ->
+          (match m with
+           | TrNum n ->
+             let (st', outs) =
+               tr_r_next c (N.to_nat n) st.rs_st st.rs_names st.rs_sched
+             in
+             (st', ((TrSuccInt n) :: outs))
+           | _ -> tr_r_fail st)
+        | RpName ->
+          (match m with
+           | TrName p0 -> tr_r_name c dest st p0
+           | _ -> tr_r_fail st)
+        | RpHSize (p0, leaf0, old0) ->
+          (match m with
+           | TrSize n ->
+             ((tr_r_phase st (RpHash (p0, leaf0, old0, n, r_init))), [])
+           | _ -> tr_r_fail st)
+        | RpHash (p0, leaf0, old0, ssize, r) ->
+          (match m with
+           | TrHash (step, h0) ->
+             tr_r_hash hx st p0 leaf0 old0 ssize r step h0
+           | TrHashOver -> tr_r_over st p0 leaf0 old0 ssize r
+           | _ -> tr_r_fail st)
+        | RpSize p0 ->
+          (match m with
+           | TrSize n -> tr_r_size c st p0 n
+           | _ -> tr_r_fail st)
+        | RpComp (p0, size) ->
+          (match m with
+           | TrComp b ->
+             ((tr_r_phase st (RpData (p0, size, b, [],
+                (tr_cur_sched st).sc_steps))), [])
+           | _ -> tr_r_fail st)
+        | RpData (p0, size, cp, acc, steps) ->
+          (match m with
+           | TrData f -> tr_r_frame zdecomp aparse c st p0 size cp acc steps f
+           | TrKeepAlive -> tr_r_stay st
+           | _ -> tr_r_fail st)
+        | RpV1 (p0, size, w) ->
+          (match m with
+           | TrData pl -> tr_r_v1 unzl c st p0 size w pl
+           | _ -> tr_r_fail st)
+        | RpMd5 (p0, w) ->
+          (match m with
+           | TrMd5 d -> tr_r_md5 h deq aparse c dest st p0 w d
+           | _ -> tr_r_fail st)
+        | RpExit ->
+          (match m with
+           | TrExit _ -> ((tr_r_phase st RpDone), [])
+           | _ -> tr_r_fail st)
+        | _ -> tr_r_stay st)
+     | TrKeepAlive ->
+       (match ph with
+        | RpNum ->
+          (match m with
+           | TrNum n ->
+             let (st', outs) =
+               tr_r_next c (N.to_nat n) st.rs_st st.rs_names st.rs_sched
+             in
+             (st', ((TrSuccInt n) :: outs))
+           | _ -> tr_r_fail st)
+        | RpName ->
+          (match m with
+           | TrName p0 -> tr_r_name c dest st p0
+           | _ -> tr_r_fail st)
+        | RpHSize (p0, leaf0, old0) ->
+          (match m with
+           | TrSize n ->
+             ((tr_r_phase st (RpHash (p0, leaf0, old0, n, r_init))), [])
+           | _ -> tr_r_fail st)
+        | RpHash (p0, leaf0, old0, ssize, r) ->
+          (match m with
+           | TrHash (step, h0) ->
+             tr_r_hash hx st p0 leaf0 old0 ssize r step h0
+           | TrHashOver -> tr_r_over st p0 leaf0 old0 ssize r
+           | _ -> tr_r_fail st)
+        | RpSize p0 ->
+          (match m with
+           | TrSize n -> tr_r_size c st p0 n
+           | _ -> tr_r_fail st)
+        | RpComp (p0, size) ->
+          (match m with
+           | TrComp b ->
+             ((tr_r_phase st (RpData (p0, size, b, [],
+                (tr_cur_sched st).sc_steps))), [])
+           | _ -> tr_r_fail st)
+        | RpData (p0, size, cp, acc, steps) ->
+          (match m with
+           | TrData f -> tr_r_frame zdecomp aparse c st p0 size cp acc steps f
+           | TrKeepAlive -> tr_r_stay st
+           | _ -> tr_r_fail st)
+        | RpV1 (p0, size, w) ->
+          (match m with
+           | TrData pl -> tr_r_v1 unzl c st p0 size w pl
+           | _ -> tr_r_fail st)
+        | RpMd5 (p0, w) ->
+          (match m with
+           | TrMd5 d -> tr_r_md5 h deq aparse c dest st p0 w d
+           | _ -> tr_r_fail st)
+        | RpExit ->
+          (match m with
+           | TrExit _ -> ((tr_r_phase st RpDone), [])
+           | _ -> tr_r_fail st)
+        | _ -> tr_r_stay st)
+     | TrFail -> ((tr_r_phase st RpFail), []))
+  | RpHash (p, leaf, old, ssize, r) ->
+    let ph = RpHash (p, leaf, old, ssize, r) in
+    (match m with
+     | TrNum _ ->
+       (match ph with
+        | RpNum ->
+          (match m with
+           | TrNum n ->
+             let (st', outs) =
+               tr_r_next c (N.to_nat n) st.rs_st st.rs_names st.rs_sched
+             in
+             (st', ((TrSuccInt n) :: outs))
+           | _ -> tr_r_fail st)
+        | RpName ->
+          (match m with
+           | TrName p0 -> tr_r_name c dest st p0
+           | _ -> tr_r_fail st)
+        | RpHSize (p0, leaf0, old0) ->
+          (match m with
+           | TrSize n ->
+             ((tr_r_phase st (RpHash (p0, leaf0, old0, n, r_init))), [])
+           | _ -> tr_r_fail st)
+        | RpHash (p0, leaf0, old0, ssize0, r0) ->
+          (match m with
+           | TrHash (step, h0) ->
+             tr_r_hash hx st p0 leaf0 old0 ssize0 r0 step h0
+           | TrHashOver -> tr_r_over st p0 leaf0 old0 ssize0 r0
+           | _ -> tr_r_fail st)
+        | RpSize p0 ->
+          (match m with
+           | TrSize n -> tr_r_size c st p0 n
+           | _ -> tr_r_fail st)
+        | RpComp (p0, size) ->
+          (match m with
+           | TrComp b ->
+             ((tr_r_phase st (RpData (p0, size, b, [],
+                (tr_cur_sched st).sc_steps))), [])
+           | _ -> tr_r_fail st)
+        | RpData (p0, size, cp, acc, steps) ->
+          (match m with
+           | TrData f -> tr_r_frame zdecomp aparse c st p0 size cp acc steps f
+           | TrKeepAlive -> tr_r_stay st
+           | _ -> tr_r_fail st)
+        | RpV1 (p0, size, w) ->
+          (match m with
+           | TrData pl -> tr_r_v1 unzl c st p0 size w pl
+           | _ -> tr_r_fail st)
+        | RpMd5 (p0, w) ->
+          (match m with
+           | TrMd5 d -> tr_r_md5 h deq aparse c dest st p0 w d
+           | _ -> tr_r_fail st)
+        | RpExit ->
+          (match m with
+           | TrExit _ -> ((tr_r_phase st RpDone), [])
+           | _ -> tr_r_fail st)
+        | _ -> tr_r_stay st)
+     | TrName _ ->
+       (match ph with
+        | RpNum ->
+          (match m with
+           | TrNum n ->
+             let (st', outs) =
+               tr_r_next c (N.to_nat n) st.rs_st st.rs_names st.rs_sched
+             in
+             (st', ((TrSuccInt n) :: outs))
+           | _ -> tr_r_fail st)
+        | RpName ->
+          (match m with
+           | TrName p0 -> tr_r_name c dest st p0
+           | _ -> tr_r_fail st)
+        | RpHSize (p0, leaf0, old0) ->
+          (match m with
+           | TrSize n ->
+             ((tr_r_phase st (RpHash (p0, leaf0, old0, n, r_init))), [])
+           | _ -> tr_r_fail st)
+        | RpHash (p0, leaf0, old0, ssize0, r0) ->
+          (match m with
+           | TrHash (step, h0) ->
+             tr_r_hash hx st p0 leaf0 old0 ssize0 r0 step h0
+           | TrHashOver -> tr_r_over st p0 leaf0 old0 ssize0 r0
+           | _ -> tr_r_fail st)
+        | RpSize p0 ->
+          (match m with
+           | TrSize n -> tr_r_size c st p0 n
+           | _ -> tr_r_fail st)
+        | RpComp (p0, size) ->
+          (match m with
+           | TrComp b ->
+             ((tr_r_phase st (RpData (p0, size, b, [],
+                (tr_cur_sched st).sc_steps))), [])
+           | _ -> tr_r_fail st)
+        | RpData (p0, size, cp, acc, steps) ->
+          (match m with
+           | TrData f -> tr_r_frame zdecomp aparse c st p0 size cp acc steps f
+           | TrKeepAlive -> tr_r_stay st
+           | _ -> tr_r_fail st)
+        | RpV1 (p0, size, w) ->
+          (match m with
+           | TrData pl -> tr_r_v1 unzl c st p0 size w pl
+           | _ -> tr_r_fail st)
+        | RpMd5 (p0, w) ->
+          (match m with
+           | TrMd5 d -> tr_r_md5 h deq aparse c dest st p0 w d
+           | _ -> tr_r_fail st)
+        | RpExit ->
+          (match m with
+           | TrExit _ -> ((tr_r_phase st RpDone), [])
+           | _ -> tr_r_fail st)
+        | _ -> tr_r_stay st)
+     | TrSize _ ->
+       (match ph with
+        | RpNum ->
+          (match m with
+           | TrNum n ->
+             let (st', outs) =
+               tr_r_next c (N.to_nat n) st.rs_st st.rs_names st.rs_sched
+             in
+             (st', ((TrSuccInt n) :: outs))
+           | _ -> tr_r_fail st)
+        | RpName ->
+          (match m with
+           | TrName p0 -> tr_r_name c dest st p0
+           | _ -> tr_r_fail st)
+        | RpHSize (p0, leaf0, old0) ->
+          (match m with
+           | TrSize n ->
+             ((tr_r_phase st (RpHash (p0, leaf0, old0, n, r_init))), [])
+           | _ -> tr_r_fail st)
+        | RpHash (p0, leaf0, old0, ssize0, r0) ->
+          (match m with
+           | TrHash (step, h0) ->
+             tr_r_hash hx st p0 leaf0 old0 ssize0 r0 step h0
+           | TrHashOver -> tr_r_over st p0 leaf0 old0 ssize0 r0
+           | _ -> tr_r_fail st)
+        | RpSize p0 ->
+          (match m with
+           | TrSize n -> tr_r_size c st p0 n
+           | _ -> tr_r_fail st)
+        | RpComp (p0, size) ->
+          (match m with
+           | TrComp b ->
+             ((tr_r_phase st (RpData (p0, size, b, [],
+                (tr_cur_sched st).sc_steps))), [])
+           | _ -> tr_r_fail st)
+        | RpData (p0, size, cp, acc, steps) ->
+          (match m with
+           | TrData f -> tr_r_frame zdecomp aparse c st p0 size cp acc steps f
+           | TrKeepAlive -> tr_r_stay st
+           | _ -> tr_r_fail st)
+        | RpV1 (p0, size, w) ->
+          (match m with
+           | TrData pl -> tr_r_v1 unzl c st p0 size w pl
+           | _ -> tr_r_fail st)
+        | RpMd5 (p0, w) ->
+          (match m with
+           | TrMd5 d -> tr_r_md5 h deq aparse c dest st p0 w d
+           | _ -> tr_r_fail st)
+        | RpExit ->
+          (match m with
+           | TrExit _ -> ((tr_r_phase st RpDone), [])
+           | _ -> tr_r_fail st)
+        | _ -> tr_r_stay st)
+     | TrComp _ ->
+       (match ph with
+        | RpNum ->
+          (match m with
+           | TrNum n ->
+             let (st', outs) =
+               tr_r_next c (N.to_nat n) st.rs_st st.rs_names st.rs_sched
+             in
+             (st', ((TrSuccInt n) :: outs))
+           | _ -> tr_r_fail st)
+        | RpName ->
+          (match m with
+           | TrName p0 -> tr_r_name c dest st p0
+           | _ -> tr_r_fail st)
+        | RpHSize (p0, leaf0, old0) ->
+          (match m with
+           | TrSize n ->
+             ((tr_r_phase st (RpHash (p0, leaf0, old0, n, r_init))), [])
+           | _ -> tr_r_fail st)
+        | RpHash (p0, leaf0, old0, ssize0, r0) ->
+          (match m with
+           | TrHash (step, h0) ->
+             tr_r_hash hx st p0 leaf0 old0 ssize0 r0 step h0
+           | TrHashOver -> tr_r_over st p0 leaf0 old0 ssize0 r0
+           | _ -> tr_r_fail st)
+        | RpSize p0 ->
+          (match m with
+           | TrSize n -> tr_r_size c st p0 n
+           | _ -> tr_r_fail st)
+        | RpComp (p0, size) ->
+          (match m with
+           | TrComp b ->
+             ((tr_r_phase st (RpData (p0, size, b, [],
+                (tr_cur_sched st).sc_steps))), [])
+           | _ -> tr_r_fail st)
+        | RpData (p0, size, cp, acc, steps) ->
+          (match m with
+           | TrData f -> tr_r_frame zdecomp aparse c st p0 size cp acc steps f
+           | TrKeepAlive -> tr_r_stay st
+           | _ -> tr_r_fail st)
+        | RpV1 (p0, size, w) ->
+          (match m with
+           | TrData pl -> tr_r_v1 unzl c st p0 size w pl
+           | _ -> tr_r_fail st)
+        | RpMd5 (p0, w) ->
+          (match m with
+           | TrMd5 d -> tr_r_md5 h deq aparse c dest st p0 w d
+           | _ -> tr_r_fail st)
+        | RpExit ->
+          (match m with
+           | TrExit _ -> ((tr_r_phase st RpDone), [])
+           | _ -> tr_r_fail st)
+        | _ -> tr_r_stay st)
+     | TrData _ ->
+       (match ph with
+        | RpNum ->
+          (match m with
+           | TrNum n ->
+             let (st', outs) =
+               tr_r_next c (N.to_nat n) st.rs_st st.rs_names st.rs_sched
+             in
+             (st', ((TrSuccInt n) :: outs))
+           | _ -> tr_r_fail st)
+        | RpName ->
+          (match m with
+           | TrName p0 -> tr_r_name c dest st p0
+           | _ -> tr_r_fail st)
+        | RpHSize (p0, leaf0, old0) ->
+          (match m with
+           | TrSize n ->
+             ((tr_r_phase st (RpHash (p0, leaf0, old0, n, r_init))), [])
+           | _ -> tr_r_fail st)
+        | RpHash (p0, leaf0, old0, ssize0, r0) ->
+          (match m with
+           | TrHash (step, h0) ->
+             tr_r_hash hx st p0 leaf0 old0 ssize0 r0 step h0
+           | TrHashOver -> tr_r_over st p0 leaf0 old0 ssize0 r0
+           | _ -> tr_r_fail st)
+        | RpSize p0 ->
+          (match m with
+           | TrSize n -> tr_r_size c st p0 n
+           | _ -> tr_r_fail st)
+        | RpComp (p0, size) ->
+          (match m with
+           | TrComp b ->
+             ((tr_r_phase st (RpData (p0, size, b, [],
+                (tr_cur_sched st).sc_steps))), [])
+           | _ -> tr_r_fail st)
+        | RpData (p0, size, cp, acc, steps) ->
+          (match m with
+           | TrData f -> tr_r_frame zdecomp aparse c st p0 size cp acc steps f
+           | TrKeepAlive -> tr_r_stay st
+           | _ -> tr_r_fail st)
+        | RpV1 (p0, size, w) ->
+          (match m with
+           | TrData pl -> tr_r_v1 unzl c st p0 size w pl
+           | _ -> tr_r_fail st)
+        | RpMd5 (p0, w) ->
+          (match m with
+           | TrMd5 d -> tr_r_md5 h deq aparse c dest st p0 w d
+           | _ -> tr_r_fail st)
+        | RpExit ->
+          (match m with
+           | TrExit _ -> ((tr_r_phase st RpDone), [])
+           | _ -> tr_r_fail st)
+        | _ -> tr_r_stay st)
+     | TrMd5 _ ->
+       (match ph with
+        | RpNum ->
+          (match m with
+           | TrNum n ->
+             let (st', outs) =
+               tr_r_next c (N.to_nat n) st.rs_st st.rs_names st.rs_sched
+             in
+             (st', ((TrSuccInt n) :: outs))
+           | _ -> tr_r_fail st)
+        | RpName ->
+          (match m with
+           | TrName p0 -> tr_r_name c dest st p0
+           | _ -> tr_r_fail st)
+        | RpHSize (p0, leaf0, old0) ->
+          (match m with
+           | TrSize n ->
+             ((tr_r_phase st (RpHash (p0, leaf0, old0, n, r_init))), [])
+           | _ -> tr_r_fail st)
+        | RpHash (p0, leaf0, old0, ssize0, r0) ->
+          (match m with
+           | TrHash (step, h0) ->
+             tr_r_hash hx st p0 leaf0 old0 ssize0 r0 step h0
+           | TrHashOver -> tr_r_over st p0 leaf0 old0 ssize0 r0
+           | _ -> tr_r_fail st)
+        | RpSize p0 ->
+          (match m with
+           | TrSize n -> tr_r_size c st p0 n
+           | _ -> tr_r_fail st)
+        | RpComp (p0, size) ->
+          (match m with
+           | TrComp b ->
+             ((tr_r_phase st (RpData (p0, size, b, [],
+                (tr_cur_sched st).sc_steps))), [])
+           | _ -> tr_r_fail st)
+        | RpData (p0, size, cp, acc, steps) ->
+          (match m with
+           | TrData f -> tr_r_frame zdecomp aparse c st p0 size cp acc steps f
+           | TrKeepAlive -> tr_r_stay st
+           | _ -> tr_r_fail st)
+        | RpV1 (p0, size, w) ->
+          (match m with
+           | TrData pl -> tr_r_v1 unzl c st p0 size w pl
+           | _ -> tr_r_fail st)
+        | RpMd5 (p0, w) ->
+          (match m with
+           | TrMd5 d -> tr_r_md5 h deq aparse c dest st p0 w d
+           | _ -> tr_r_fail st)
+        | RpExit ->
+          (match m with
+           | TrExit _ -> ((tr_r_phase st RpDone), [])
+           | _ -> tr_r_fail st)
+        | _ -> tr_r_stay st)
+     | TrExit _ ->
+       (match ph with
+        | RpNum ->
+          (match m with
+           | TrNum n ->
+             let (st', outs) =
+               tr_r_next c (N.to_nat n) st.rs_st st.rs_names st.rs_sched
+             in
+             (st', ((TrSuccInt n) :: outs))
+           | _ -> tr_r_fail st)
+        | RpName ->
+          (match m with
+           | TrName p0 -> tr_r_name c dest st p0
+           | _ -> tr_r_fail st)
+        | RpHSize (p0, leaf0, old0) ->
+          (match m with
+           | TrSize n ->
+             ((tr_r_phase st (RpHash (p0, leaf0, old0, n, r_init))), [])
+           | _ -> tr_r_fail st)
+        | RpHash (p0, leaf0, old0, ssize0, r0) ->
+          (match m with
+           | TrHash (step, h0) ->
+             tr_r_hash hx st p0 leaf0 old0 ssize0 r0 step h0
+           | TrHashOver -> tr_r_over st p0 leaf0 old0 ssize0 r0
+           | _ -> tr_r_fail st)
+        | RpSize p0 ->
+          (match m with
+           | TrSize n -> tr_r_size c st p0 n
+           | _ -> tr_r_fail st)
+        | RpComp (p0, size) ->
+          (match m with
+           | TrComp b ->
+             ((tr_r_phase st (RpData (p0, size, b, [],
+                (tr_cur_sched st).sc_steps))), [])
+           | _ -> tr_r_fail st)
+        | RpData (p0, size, cp, acc, steps) ->
+          (match m with
+           | TrData f -> tr_r_frame zdecomp aparse c st p0 size cp acc steps f
+           | TrKeepAlive -> tr_r_stay st
+           | _ -> tr_r_fail st)
+        | RpV1 (p0, size, w) ->
+          (match m with
+           | TrData pl -> tr_r_v1 unzl c st p0 size w pl
+           | _ -> tr_r_fail st)
+        | RpMd5 (p0, w) ->
+          (match m with
+           | TrMd5 d -> tr_r_md5 h deq aparse c dest st p0 w d
+           | _ -> tr_r_fail st)
+        | RpExit ->
+          (match m with
+           | TrExit _ -> ((tr_r_phase st RpDone), [])
+           | _ -> tr_r_fail st)
+        | _ -> tr_r_stay st)
+     | TrHash (_, _) ->
+       (match ph with
+        | RpNum ->
+          (match m with
+           | TrNum n ->
+             let (st', outs) =
+               tr_r_next c (N.to_nat n) st.rs_st st.rs_names st.rs_sched
+             in
+             (st', ((TrSuccInt n) :: outs))
+           | _ -> tr_r_fail st)
+        | RpName ->
+          (match m with
+           | TrName p0 -> tr_r_name c dest st p0
+           | _ -> tr_r_fail st)
+        | RpHSize (p0, leaf0, old0) ->
+          (match m with
+           | TrSize n ->
+             ((tr_r_phase st (RpHash (p0, leaf0, old0, n, r_init))), [])
+           | _ -> tr_r_fail st)
+        | RpHash (p0, leaf0, old0, ssize0, r0) ->
+          (match m with
+           | TrHash (step, h0) ->
+             tr_r_hash hx st p0 leaf0 old0 ssize0 r0 step h0
+           | TrHashOver -> tr_r_over st p0 leaf0 old0 ssize0 r0
+           | _ -> tr_r_fail st)
+        | RpSize p0 ->
+          (match m with
+           | TrSize n -> tr_r_size c st p0 n
+           | _ -> tr_r_fail st)
+        | RpComp (p0, size) ->
+          (match m with
+           | TrComp b ->
+             ((tr_r_phase st (RpData (p0, size, b, [],
+                (tr_cur_sched st).sc_steps))), [])
+           | _ -> tr_r_fail st)
+        | RpData (p0, size, cp, acc, steps) ->
+          (match m with
+           | TrData f -> tr_r_frame zdecomp aparse c st p0 size cp acc steps f
+           | TrKeepAlive -> tr_r_stay st
+           | _ -> tr_r_fail st)
+        | RpV1 (p0, size, w) ->
+          (match m with
+           | TrData pl -> tr_r_v1 unzl c st p0 size w pl
+           | _ -> tr_r_fail st)
+        | RpMd5 (p0, w) ->
+          (match m with
+           | TrMd5 d -> tr_r_md5 h deq aparse c dest st p0 w d
+           | _ -> tr_r_fail st)
+        | RpExit ->
+          (match m with
+           | TrExit _ -> ((tr_r_phase st RpDone), [])
+           | _ -> tr_r_fail st)
+        | _ -> tr_r_stay st)
+     | TrHashOver ->
+       (match ph with
+        | RpNum ->
+          (match m with
+           | TrNum n ->
+             let (st', outs) =
+               tr_r_next c (N.to_nat n) st.rs_st st.rs_names st.rs_sched
+             in
+             (st', ((TrSuccInt n) :: outs))
+           | _ -> tr_r_fail st)
+        | RpName ->
+          (match m with
+           | TrName p0 -> tr_r_name c dest st p0
+           | _ -> tr_r_fail st)
+        | RpHSize (p0, leaf0, old0) ->
+          (match m with
+           | TrSize n ->
+             ((tr_r_phase st (RpHash (p0, leaf0, old0, n, r_init))), [])
+           | _ -> tr_r_fail st)
+        | RpHash (p0, leaf0, old0, ssize0, r0) ->
+          (match m with
+           | TrHash (step, h0) ->
+             tr_r_hash hx st p0 leaf0 old0 ssize0 r0 step h0
+           | TrHashOver -> tr_r_over st p0 leaf0 old0 ssize0 r0
+           | _ -> tr_r_fail st)
+        | RpSize p0 ->
+          (match m with
+           | TrSize n -> tr_r_size c st p0 n
+           | _ -> tr_r_fail st)
+        | RpComp (p0, size) ->
+          (match m with
+           | TrComp b ->
+             ((tr_r_phase st (RpData (p0, size, b, [],
+                (tr_cur_sched st).sc_steps))), [])
+           | _ -> tr_r_fail st)
+        | RpData (p0, size, cp, acc, steps) ->
+          (match m with
+           | TrData f -> tr_r_frame zdecomp aparse c st p0 size cp acc steps f
+           | TrKeepAlive -> tr_r_stay st
+           | _ -> tr_r_fail st)
+        | RpV1 (p0, size, w) ->
+          (match m with
+           | TrData pl -> tr_r_v1 unzl c st p0 size w pl
+           | _ -> tr_r_fail st)
+        | RpMd5 (p0, w) ->
+          (match m with
+           | TrMd5 d -> tr_r_md5 h deq aparse c dest st p0 w d
+           | _ -> tr_r_fail st)
+        | RpExit ->
+          (match m with
+           | TrExit _ -> ((tr_r_phase st RpDone), [])
+           | _ -> tr_r_fail st)
+        | _ -> tr_r_stay st)
+     | TrSuccInt _ ->
+       (match ph with
+        | RpNum ->
+          (match m with
+           | TrNum n ->
+             let (st', outs) =
+               tr_r_next c (N.to_nat n) st.rs_st st.rs_names st.rs_sched
+             in
+             (st', ((TrSuccInt n) :: outs))
+           | _ -> tr_r_fail st)
+        | RpName ->
+          (match m with
+           | TrName p0 -> tr_r_name c dest st p0
+           | _ -> tr_r_fail st)
+        | RpHSize (p0, leaf0, old0) ->
+          (match m with
+           | TrSize n ->
+             ((tr_r_phase st (RpHash (p0, leaf0, old0, n, r_init))), [])
+           | _ -> tr_r_fail st)
+        | RpHash (p0, leaf0, old0, ssize0, r0) ->
+          (match m with
+           | TrHash (step, h0) ->
+             tr_r_hash hx st p0 leaf0 old0 ssize0 r0 step h0
+           | TrHashOver -> tr_r_over st p0 leaf0 old0 ssize0 r0
+           | _ -> tr_r_fail st)
+        | RpSize p0 ->
+          (match m with
+           | TrSize n -> tr_r_size c st p0 n
+           | _ -> tr_r_fail st)
+        | RpComp (p0, size) ->
+          (match m with
+           | TrComp b ->
+             ((tr_r_phase st (RpData (p0, size, b, [],
+                (tr_cur_sched st).sc_steps))), [])
+           | _ -> tr_r_fail st)
+        | RpData (p0, size, cp, acc, steps) ->
+          (match m with
+           | TrData f -> tr_r_frame zdecomp aparse c st p0 size cp acc steps f
+           | TrKeepAlive -> tr_r_stay st
+           | _ -> tr_r_fail st)
+        | RpV1 (p0, size, w) ->
+          (match m with
+           | TrData pl -> tr_r_v1 unzl c st p0 size w pl
+           | _ -> tr_r_fail st)
+        | RpMd5 (p0, w) ->
+          (match m with
+           | TrMd5 d -> tr_r_md5 h deq aparse c dest st p0 w d
+           | _ -> tr_r_fail st)
+        | RpExit ->
+          (match m with
+           | TrExit _ -> ((tr_r_phase st RpDone), [])
+           | _ -> tr_r_fail st)
+        | _ -> tr_r_stay st)
+     | TrSuccName _ ->
+       (match ph with
+        | RpNum ->
+          (match m with
+           | TrNum n ->
+             let (st', outs) =
+               tr_r_next c (N.to_nat n) st.rs_st st.rs_names st.rs_sched
+             in
+             (st', ((TrSuccInt n) :: outs))
+           | _ -> tr_r_fail st)
+        | RpName ->
+          (match m with
+           | TrName p0 -> tr_r_name c dest st p0
+           | _ -> tr_r_fail st)
+        | RpHSize (p0, leaf0, old0) ->
+          (match m with
+           | TrSize n ->
+             ((tr_r_phase st (RpHash (p0, leaf0, old0, n, r_init))), [])
+           | _ -> tr_r_fail st)
+        | RpHash (p0, leaf0, old0, ssize0, r0) ->
+          (match m with
+           | TrHash (step, h0) ->
+             tr_r_hash hx st p0 leaf0 old0 ssize0 r0 step h0
+           | TrHashOver -> tr_r_over st p0 leaf0 old0 ssize0 r0
+           | _ -> tr_r_fail st)
+        | RpSize p0 ->
+          (match m with
+           | TrSize n -> tr_r_size c st p0 n
+           | _ -> tr_r_fail st)
+        | RpComp (p0, size) ->
+          (match m with
+           | TrComp b ->
+             ((tr_r_phase st (RpData (p0, size, b, [],
+                (tr_cur_sched st).sc_steps))), [])
+           | _ -> tr_r_fail st)
+        | RpData (p0, size, cp, acc, steps) ->
+          (match m with
+           | TrData f -> tr_r_frame zdecomp aparse c st p0 size cp acc steps f
+           | TrKeepAlive -> tr_r_stay st
+           | _ -> tr_r_fail st)
+        | RpV1 (p0, size, w) ->
+          (match m with
+           | TrData pl -> tr_r_v1 unzl c st p0 size w pl
+           | _ -> tr_r_fail st)
+        | RpMd5 (p0, w) ->
+          (match m with
+           | TrMd5 d -> tr_r_md5 h deq aparse c dest st p0 w d
+           | _ -> tr_r_fail st)
+        | RpExit ->
+          (match m with
+           | TrExit _ -> ((tr_r_phase st RpDone), [])
+           | _ -> tr_r_fail st)
+        | _ -> tr_r_stay st)
+     | TrSuccTarget (_, _) ->
+       (match ph with
+        | RpNum ->
+          (match m with
+           | TrNum n ->
+             let (st', outs) =
+               tr_r_next c (N.to_nat n) st.rs_st st.rs_names st.rs_sched
+             in
+             (st', ((TrSuccInt n) :: outs))
+           | _ -> tr_r_fail st)
+        | RpName ->
+          (match m with
+           | TrName p0 -> tr_r_name c dest st p0
+           | _ -> tr_r_fail st)
+        | RpHSize (p0, leaf0, old0) ->
+          (match m with
+           | TrSize n ->
+             ((tr_r_phase st (RpHash (p0, leaf0, old0, n, r_init))), [])
+           | _ -> tr_r_fail st)
+        | RpHash (p0, leaf0, old0, ssize0, r0) ->
+          (match m with
+           | TrHash (step, h0) ->
+             tr_r_hash hx st p0 leaf0 old0 ssize0 r0 step h0
+           | TrHashOver -> tr_r_over st p0 leaf0 old0 ssize0 r0
+           | _ -> tr_r_fail st)
+        | RpSize p0 ->
+          (match m with
+           | TrSize n -> tr_r_size c st p0 n
+           | _ -> tr_r_fail st)
+        | RpComp (p0, size) ->
+          (match m with
+           | TrComp b ->
+             ((tr_r_phase st (RpData (p0, size, b, [],
+                (tr_cur_sched st).sc_steps))), [])
+           | _ -> tr_r_fail st)
+        | RpData (p0, size, cp, acc, steps) ->
+          (match m with
+           | TrData f -> tr_r_frame zdecomp aparse c st p0 size cp acc steps f
+           | TrKeepAlive -> tr_r_stay st
+           | _ -> tr_r_fail st)
+        | RpV1 (p0, size, w) ->
+          (match m with
+           | TrData pl -> tr_r_v1 unzl c st p0 size w pl
+           | _ -> tr_r_fail st)
+        | RpMd5 (p0, w) ->
+          (match m with
+           | TrMd5 d -> tr_r_md5 h deq aparse c dest st p0 w d
+           | _ -> tr_r_fail st)
+        | RpExit ->
+          (match m with
+           | TrExit _ -> ((tr_r_phase st RpDone), [])
+           | _ -> tr_r_fail st)
+        | _ -> tr_r_stay st)
+     | TrSuccAck (_, _) ->
+       (match ph with
+        | RpNum ->
+          (match m with
+           | TrNum n ->
+             let (st', outs) =
+               tr_r_next c (N.to_nat n) st.rs_st st.rs_names st.rs_sched
+             in
+             (st', ((TrSuccInt n) :: outs))
+           | _ -> tr_r_fail st)
+        | RpName ->
+          (match m with
+           | TrName p0 -> tr_r_name c dest st p0
+           | _ -> tr_r_fail st)
+        | RpHSize (p0, leaf0, old0) ->
+          (match m with
+           | TrSize n ->
+             ((tr_r_phase st (RpHash (p0, leaf0, old0, n, r_init))), [])
+           | _ -> tr_r_fail st)
+        | RpHash (p0, leaf0, old0, ssize0, r0) ->
+          (match m with
+           | TrHash (step, h0) ->
+             tr_r_hash hx st p0 leaf0 old0 ssize0 r0 step h0
+           | TrHashOver -> tr_r_over st p0 leaf0 old0 ssize0 r0
+           | _ -> tr_r_fail st)
+        | RpSize p0 ->
+          (match m with
+           | TrSize n -> tr_r_size c st p0 n
+           | _ -> tr_r_fail st)
+        | RpComp (p0, size) ->
+          (match m with
+           | TrComp b ->
+             ((tr_r_phase st (RpData (p0, size, b, [],
+                (tr_cur_sched st).sc_steps))), [])
+           | _ -> tr_r_fail st)
+        | RpData (p0, size, cp, acc, steps) ->
+          (match m with
+           | TrData f -> tr_r_frame zdecomp aparse c st p0 size cp acc steps f
+           | TrKeepAlive -> tr_r_stay st
+           | _ -> tr_r_fail st)
+        | RpV1 (p0, size, w) ->
+          (match m with
+           | TrData pl -> tr_r_v1 unzl c st p0 size w pl
+           | _ -> tr_r_fail st)
+        | RpMd5 (p0, w) ->
+          (match m with
+           | TrMd5 d -> tr_r_md5 h deq aparse c dest st p0 w d
+           | _ -> tr_r_fail st)
+        | RpExit ->
+          (match m with
+           | TrExit _ -> ((tr_r_phase st RpDone), [])
+           | _ -> tr_r_fail st)
+        | _ -> tr_r_stay st)
+     | TrSuccDigest _ ->
+       (match ph with
+        | RpNum ->
+          (match m with
+           | TrNum n ->
+             let (st', outs) =
+               tr_r_next c (N.to_nat n) st.rs_st st.rs_names st.rs_sched
+             in
+             (st', ((TrSuccInt n) :: outs))
+           | _ -> tr_r_fail st)
+        | RpName ->
+          (match m with
+           | TrName p0 -> tr_r_name c dest st p0
+           | _ -> tr_r_fail st)
+        | RpHSize (p0, leaf0, old0) ->
+          (match m with
+           | TrSize n ->
+             ((tr_r_phase st (RpHash (p0, leaf0, old0, n, r_init))), [])
+           | _ -> tr_r_fail st)
+        | RpHash (p0, leaf0, old0, ssize0, r0) ->
+          (match m with
+           | TrHash (step, h0) ->
+             tr_r_hash hx st p0 leaf0 old0 ssize0 r0 step h0
+           | TrHashOver -> tr_r_over st p0 leaf0 old0 ssize0 r0
+           | _ -> tr_r_fail st)
+        | RpSize p0 ->
+          (match m with
+           | TrSize n -> tr_r_size c st p0 n
+           | _ -> tr_r_fail st)
+        | RpComp (p0, size) ->
+          (match m with
+           | TrComp b ->
+             ((tr_r_phase st (RpData (p0, size, b, [],
+                (tr_cur_sched st).sc_steps))), [])
+           | _ -> tr_r_fail st)
+        | RpData (p0, size, cp, acc, steps) ->
+          (match m with
+           | TrData f -> tr_r_frame zdecomp aparse c st p0 size cp acc steps f
+           | TrKeepAlive -> tr_r_stay st
+           | _ -> tr_r_fail st)
+        | RpV1 (p0, size, w) ->
+          (match m with
+           | TrData pl -> tr_r_v1 unzl c st p0 size w pl
+           | _ -> tr_r_fail st)
+        | RpMd5 (p0, w) ->
+          (match m with
+           | TrMd5 d -> tr_r_md5 h deq aparse c dest st p0 w d
+           | _ -> tr_r_fail st)
+        | RpExit ->
+          (match m with
+           | TrExit _ -> ((tr_r_phase st RpDone), [])
+           | _ -> tr_r_fail st)
+        | _ -> tr_r_stay st)
+     | TrSuccHack (_, _) ->
+       (match ph with
+        | RpNum ->
+          (match m with
+           | TrNum n ->
+             let (st', outs) =
+               tr_r_next c (N.to_nat n) st.rs_st st.rs_names st.rs_sched
+             in
+             (st', ((TrSuccInt n) :: outs))
+           | _ -> tr_r_fail st)
+        | RpName ->
+          (match m with
+           | TrName p0 -> tr_r_name c dest st p0
+           | _ -> tr_r_fail st)
+        | RpHSize (p0, leaf0, old0) ->
+          (match m with
+           | TrSize n ->
+             ((tr_r_phase st (RpHash (p0, leaf0, old0, n, r_init))), [])
+           | _ -> tr_r_fail st)
+        | RpHash (p0, leaf0, old0, ssize0, r0) ->
+          (match m with
+           | TrHash (step, h0) ->
+             tr_r_hash hx st p0 leaf0 old0 ssize0 r0 step h0
+           | TrHashOver -> tr_r_over st p0 leaf0 old0 ssize0 r0
+           | _ -> tr_r_fail st)
+        | RpSize p0 ->
+          (match m with
+           | TrSize n -> tr_r_size c st p0 n
+           | _ -> tr_r_fail st)
+        | RpComp (p0, size) ->
+          (match m with
+           | TrComp b ->
+             ((tr_r_phase st (RpData (p0, size, b, [],
+                (tr_cur_sched st).sc_steps))), [])
+           | _ -> tr_r_fail st)
+        | RpData (p0, size, cp, acc, steps) ->
+          (match m with
+           | TrData f -> tr_r_frame zdecomp aparse c st p0 size cp acc steps f
+           | TrKeepAlive -> tr_r_stay st
+           | _ -> tr_r_fail st)
+        | RpV1 (p0, size, w) ->
+          (match m with
+           | TrData pl -> tr_r_v1 unzl c st p0 size w pl
+           | _ -> tr_r_fail st)
+        | RpMd5 (p0, w) ->
+          (match m with
+           | TrMd5 d -> tr_r_md5 h deq aparse c dest st p0 w d
+           | _ -> tr_r_fail st)
+        | RpExit ->
+          (match m with
+           | TrExit _ -> ((tr_r_phase st RpDone), [])
+           | _ -> tr_r_fail st)
+        | _ -> tr_r_stay st)
+     | TrKeepAlive ->
+       (match ph with
+        | RpNum ->
+          (match m with
+           | TrNum n ->
+             let (st', outs) =
+               tr_r_next c (N.to_nat n) st.rs_st st.rs_names st.rs_sched
+             in
+             (st', ((TrSuccInt n) :: outs))
+           | _ -> tr_r_fail st)
+        | RpName ->
+          (match m with
+           | TrName p0 -> tr_r_name c dest st p0
+           | _ -> tr_r_fail st)
+        | RpHSize (p0, leaf0, old0) ->
+          (match m with
+           | TrSize n ->
+             ((tr_r_phase st (RpHash (p0, leaf0, old0, n, r_init))), [])
+           | _ -> tr_r_fail st)
+        | RpHash (p0, leaf0, old0, ssize0, r0) ->
+          (match m with
+           | TrHash (step, h0) ->
+             tr_r_hash hx st p0 leaf0 old0 ssize0 r0 step h0
+           | TrHashOver -> tr_r_over st p0 leaf0 old0 ssize0 r0
+           | _ -> tr_r_fail st)
+        | RpSize p0 ->
+          (match m with
+           | TrSize n -> tr_r_size c st p0 n
+           | _ -> tr_r_fail st)
+        | RpComp (p0, size) ->
+          (match m with
+           | TrComp b ->
+             ((tr_r_phase st (RpData (p0, size, b, [],
+                (tr_cur_sched st).sc_steps))), [])
+           | _ -> tr_r_fail st)
+        | RpData (p0, size, cp, acc, steps) ->
+          (match m with
+           | TrData f -> tr_r_frame zdecomp aparse c st p0 size cp acc steps f
+           | TrKeepAlive -> tr_r_stay st
+           | _ -> tr_r_fail st)
+        | RpV1 (p0, size, w) ->
+          (match m with
+           | TrData pl -> tr_r_v1 unzl c st p0 size w pl
+           | _ -> tr_r_fail st)
+        | RpMd5 (p0, w) ->
+          (match m with
+           | TrMd5 d -> tr_r_md5 h deq aparse c dest st p0 w d
            | _ -> tr_r_fail st)
         | RpExit ->
           (match m with
@@ -1816,6 +4463,16 @@ let tr_receiver h deq zdecomp unzl c dest st m =
           (match m with
            | TrName p0 -> tr_r_name c dest st p0
            | _ -> tr_r_fail st)
+        | RpHSize (p0, leaf, old) ->
+          (match m with
+           | TrSize n ->
+             ((tr_r_phase st (RpHash (p0, leaf, old, n, r_init))), [])
+           | _ -> tr_r_fail st)
+        | RpHash (p0, leaf, old, ssize, r) ->
+          (match m with
+           | TrHash (step, h0) -> tr_r_hash hx st p0 leaf old ssize r step h0
+           | TrHashOver -> tr_r_over st p0 leaf old ssize r
+           | _ -> tr_r_fail st)
         | RpSize p0 ->
           (match m with
            | TrSize n -> tr_r_size c st p0 n
@@ -1828,7 +4485,7 @@ let tr_receiver h deq zdecomp unzl c dest st m =
            | _ -> tr_r_fail st)
         | RpData (p0, size, cp, acc, steps) ->
           (match m with
-           | TrData f -> tr_r_frame zdecomp c st p0 size cp acc steps f
+           | TrData f -> tr_r_frame zdecomp aparse c st p0 size cp acc steps f
            | TrKeepAlive -> tr_r_stay st
            | _ -> tr_r_fail st)
         | RpV1 (p0, size, w) ->
@@ -1837,7 +4494,7 @@ let tr_receiver h deq zdecomp unzl c dest st m =
            | _ -> tr_r_fail st)
         | RpMd5 (p0, w) ->
           (match m with
-           | TrMd5 d -> tr_r_md5 h deq c dest st p0 w d
+           | TrMd5 d -> tr_r_md5 h deq aparse c dest st p0 w d
            | _ -> tr_r_fail st)
         | RpExit ->
           (match m with
@@ -1858,6 +4515,16 @@ let tr_receiver h deq zdecomp unzl c dest st m =
           (match m with
            | TrName p0 -> tr_r_name c dest st p0
            | _ -> tr_r_fail st)
+        | RpHSize (p0, leaf, old) ->
+          (match m with
+           | TrSize n ->
+             ((tr_r_phase st (RpHash (p0, leaf, old, n, r_init))), [])
+           | _ -> tr_r_fail st)
+        | RpHash (p0, leaf, old, ssize, r) ->
+          (match m with
+           | TrHash (step, h0) -> tr_r_hash hx st p0 leaf old ssize r step h0
+           | TrHashOver -> tr_r_over st p0 leaf old ssize r
+           | _ -> tr_r_fail st)
         | RpSize p0 ->
           (match m with
            | TrSize n -> tr_r_size c st p0 n
@@ -1870,7 +4537,7 @@ let tr_receiver h deq zdecomp unzl c dest st m =
            | _ -> tr_r_fail st)
         | RpData (p0, size, cp, acc, steps) ->
           (match m with
-           | TrData f -> tr_r_frame zdecomp c st p0 size cp acc steps f
+           | TrData f -> tr_r_frame zdecomp aparse c st p0 size cp acc steps f
            | TrKeepAlive -> tr_r_stay st
            | _ -> tr_r_fail st)
         | RpV1 (p0, size, w) ->
@@ -1879,7 +4546,7 @@ let tr_receiver h deq zdecomp unzl c dest st m =
            | _ -> tr_r_fail st)
         | RpMd5 (p0, w) ->
           (match m with
-           | TrMd5 d -> tr_r_md5 h deq c dest st p0 w d
+           | TrMd5 d -> tr_r_md5 h deq aparse c dest st p0 w d
            | _ -> tr_r_fail st)
         | RpExit ->
           (match m with
@@ -1900,6 +4567,16 @@ let tr_receiver h deq zdecomp unzl c dest st m =
           (match m with
            | TrName p0 -> tr_r_name c dest st p0
            | _ -> tr_r_fail st)
+        | RpHSize (p0, leaf, old) ->
+          (match m with
+           | TrSize n ->
+             ((tr_r_phase st (RpHash (p0, leaf, old, n, r_init))), [])
+           | _ -> tr_r_fail st)
+        | RpHash (p0, leaf, old, ssize, r) ->
+          (match m with
+           | TrHash (step, h0) -> tr_r_hash hx st p0 leaf old ssize r step h0
+           | TrHashOver -> tr_r_over st p0 leaf old ssize r
+           | _ -> tr_r_fail st)
         | RpSize p0 ->
           (match m with
            | TrSize n -> tr_r_size c st p0 n
@@ -1912,7 +4589,7 @@ let tr_receiver h deq zdecomp unzl c dest st m =
            | _ -> tr_r_fail st)
         | RpData (p0, size, cp, acc, steps) ->
           (match m with
-           | TrData f -> tr_r_frame zdecomp c st p0 size cp acc steps f
+           | TrData f -> tr_r_frame zdecomp aparse c st p0 size cp acc steps f
            | TrKeepAlive -> tr_r_stay st
            | _ -> tr_r_fail st)
         | RpV1 (p0, size, w) ->
@@ -1921,7 +4598,7 @@ let tr_receiver h deq zdecomp unzl c dest st m =
            | _ -> tr_r_fail st)
         | RpMd5 (p0, w) ->
           (match m with
-           | TrMd5 d -> tr_r_md5 h deq c dest st p0 w d
+           | TrMd5 d -> tr_r_md5 h deq aparse c dest st p0 w d
            | _ -> tr_r_fail st)
         | RpExit ->
           (match m with
@@ -1942,6 +4619,16 @@ let tr_receiver h deq zdecomp unzl c dest st m =
           (match m with
            | TrName p0 -> tr_r_name c dest st p0
            | _ -> tr_r_fail st)
+        | RpHSize (p0, leaf, old) ->
+          (match m with
+           | TrSize n ->
+             ((tr_r_phase st (RpHash (p0, leaf, old, n, r_init))), [])
+           | _ -> tr_r_fail st)
+        | RpHash (p0, leaf, old, ssize, r) ->
+          (match m with
+           | TrHash (step, h0) -> tr_r_hash hx st p0 leaf old ssize r step h0
+           | TrHashOver -> tr_r_over st p0 leaf old ssize r
+           | _ -> tr_r_fail st)
         | RpSize p0 ->
           (match m with
            | TrSize n -> tr_r_size c st p0 n
@@ -1954,7 +4641,7 @@ let tr_receiver h deq zdecomp unzl c dest st m =
            | _ -> tr_r_fail st)
         | RpData (p0, size, cp, acc, steps) ->
           (match m with
-           | TrData f -> tr_r_frame zdecomp c st p0 size cp acc steps f
+           | TrData f -> tr_r_frame zdecomp aparse c st p0 size cp acc steps f
            | TrKeepAlive -> tr_r_stay st
            | _ -> tr_r_fail st)
         | RpV1 (p0, size, w) ->
@@ -1963,7 +4650,7 @@ let tr_receiver h deq zdecomp unzl c dest st m =
            | _ -> tr_r_fail st)
         | RpMd5 (p0, w) ->
           (match m with
-           | TrMd5 d -> tr_r_md5 h deq c dest st p0 w d
+           | TrMd5 d -> tr_r_md5 h deq aparse c dest st p0 w d
            | _ -> tr_r_fail st)
         | RpExit ->
           (match m with
@@ -1984,6 +4671,16 @@ let tr_receiver h deq zdecomp unzl c dest st m =
           (match m with
            | TrName p0 -> tr_r_name c dest st p0
            | _ -> tr_r_fail st)
+        | RpHSize (p0, leaf, old) ->
+          (match m with
+           | TrSize n ->
+             ((tr_r_phase st (RpHash (p0, leaf, old, n, r_init))), [])
+           | _ -> tr_r_fail st)
+        | RpHash (p0, leaf, old, ssize, r) ->
+          (match m with
+           | TrHash (step, h0) -> tr_r_hash hx st p0 leaf old ssize r step h0
+           | TrHashOver -> tr_r_over st p0 leaf old ssize r
+           | _ -> tr_r_fail st)
         | RpSize p0 ->
           (match m with
            | TrSize n -> tr_r_size c st p0 n
@@ -1996,7 +4693,7 @@ let tr_receiver h deq zdecomp unzl c dest st m =
            | _ -> tr_r_fail st)
         | RpData (p0, size, cp, acc, steps) ->
           (match m with
-           | TrData f -> tr_r_frame zdecomp c st p0 size cp acc steps f
+           | TrData f -> tr_r_frame zdecomp aparse c st p0 size cp acc steps f
            | TrKeepAlive -> tr_r_stay st
            | _ -> tr_r_fail st)
         | RpV1 (p0, size, w) ->
@@ -2005,7 +4702,7 @@ let tr_receiver h deq zdecomp unzl c dest st m =
            | _ -> tr_r_fail st)
         | RpMd5 (p0, w) ->
           (match m with
-           | TrMd5 d -> tr_r_md5 h deq c dest st p0 w d
+           | TrMd5 d -> tr_r_md5 h deq aparse c dest st p0 w d
            | _ -> tr_r_fail st)
         | RpExit ->
           (match m with
@@ -2026,6 +4723,16 @@ let tr_receiver h deq zdecomp unzl c dest st m =
           (match m with
            | TrName p0 -> tr_r_name c dest st p0
            | _ -> tr_r_fail st)
+        | RpHSize (p0, leaf, old) ->
+          (match m with
+           | TrSize n ->
+             ((tr_r_phase st (RpHash (p0, leaf, old, n, r_init))), [])
+           | _ -> tr_r_fail st)
+        | RpHash (p0, leaf, old, ssize, r) ->
+          (match m with
+           | TrHash (step, h0) -> tr_r_hash hx st p0 leaf old ssize r step h0
+           | TrHashOver -> tr_r_over st p0 leaf old ssize r
+           | _ -> tr_r_fail st)
         | RpSize p0 ->
           (match m with
            | TrSize n -> tr_r_size c st p0 n
@@ -2038,7 +4745,7 @@ let tr_receiver h deq zdecomp unzl c dest st m =
            | _ -> tr_r_fail st)
         | RpData (p0, size, cp, acc, steps) ->
           (match m with
-           | TrData f -> tr_r_frame zdecomp c st p0 size cp acc steps f
+           | TrData f -> tr_r_frame zdecomp aparse c st p0 size cp acc steps f
            | TrKeepAlive -> tr_r_stay st
            | _ -> tr_r_fail st)
         | RpV1 (p0, size, w) ->
@@ -2047,7 +4754,7 @@ let tr_receiver h deq zdecomp unzl c dest st m =
            | _ -> tr_r_fail st)
         | RpMd5 (p0, w) ->
           (match m with
-           | TrMd5 d -> tr_r_md5 h deq c dest st p0 w d
+           | TrMd5 d -> tr_r_md5 h deq aparse c dest st p0 w d
            | _ -> tr_r_fail st)
         | RpExit ->
           (match m with
@@ -2068,6 +4775,16 @@ let tr_receiver h deq zdecomp unzl c dest st m =
           (match m with
            | TrName p0 -> tr_r_name c dest st p0
            | _ -> tr_r_fail st)
+        | RpHSize (p0, leaf, old) ->
+          (match m with
+           | TrSize n ->
+             ((tr_r_phase st (RpHash (p0, leaf, old, n, r_init))), [])
+           | _ -> tr_r_fail st)
+        | RpHash (p0, leaf, old, ssize, r) ->
+          (match m with
+           | TrHash (step, h0) -> tr_r_hash hx st p0 leaf old ssize r step h0
+           | TrHashOver -> tr_r_over st p0 leaf old ssize r
+           | _ -> tr_r_fail st)
         | RpSize p0 ->
           (match m with
            | TrSize n -> tr_r_size c st p0 n
@@ -2080,7 +4797,7 @@ let tr_receiver h deq zdecomp unzl c dest st m =
            | _ -> tr_r_fail st)
         | RpData (p0, size, cp, acc, steps) ->
           (match m with
-           | TrData f -> tr_r_frame zdecomp c st p0 size cp acc steps f
+           | TrData f -> tr_r_frame zdecomp aparse c st p0 size cp acc steps f
            | TrKeepAlive -> tr_r_stay st
            | _ -> tr_r_fail st)
         | RpV1 (p0, size, w) ->
@@ -2089,7 +4806,111 @@ let tr_receiver h deq zdecomp unzl c dest st m =
            | _ -> tr_r_fail st)
         | RpMd5 (p0, w) ->
           (match m with
-           | TrMd5 d -> tr_r_md5 h deq c dest st p0 w d
+           | TrMd5 d -> tr_r_md5 h deq aparse c dest st p0 w d
+           | _ -> tr_r_fail st)
+        | RpExit ->
+          (match m with
+           | TrExit _ -> ((tr_r_phase st RpDone), [])
+           | _ -> tr_r_fail st)
+        | _ -> tr_r_stay st)
+     | TrHash (_, _) ->
+       (match ph with
+        | RpNum ->
+          (match m with
+           | TrNum n ->
+             let (st', outs) =
+               tr_r_next c (N.to_nat n) st.rs_st st.rs_names st.rs_sched
+             in
+             (st', ((TrSuccInt n) :: outs))
+           | _ -> tr_r_fail st)
+        | RpName ->
+          (match m with
+           | TrName p0 -> tr_r_name c dest st p0
+           | _ -> tr_r_fail st)
+        | RpHSize (p0, leaf, old) ->
+          (match m with
+           | TrSize n ->
+             ((tr_r_phase st (RpHash (p0, leaf, old, n, r_init))), [])
+           | _ -> tr_r_fail st)
+        | RpHash (p0, leaf, old, ssize, r) ->
+          (match m with
+           | TrHash (step, h0) -> tr_r_hash hx st p0 leaf old ssize r step h0
+           | TrHashOver -> tr_r_over st p0 leaf old ssize r
+           | _ -> tr_r_fail st)
+        | RpSize p0 ->
+          (match m with
+           | TrSize n -> tr_r_size c st p0 n
+           | _ -> tr_r_fail st)
+        | RpComp (p0, size) ->
+          (match m with
+           | TrComp b ->
+             ((tr_r_phase st (RpData (p0, size, b, [],
+                (tr_cur_sched st).sc_steps))), [])
+           | _ -> tr_r_fail st)
+        | RpData (p0, size, cp, acc, steps) ->
+          (match m with
+           | TrData f -> tr_r_frame zdecomp aparse c st p0 size cp acc steps f
+           | TrKeepAlive -> tr_r_stay st
+           | _ -> tr_r_fail st)
+        | RpV1 (p0, size, w) ->
+          (match m with
+           | TrData pl -> tr_r_v1 unzl c st p0 size w pl
+           | _ -> tr_r_fail st)
+        | RpMd5 (p0, w) ->
+          (match m with
+           | TrMd5 d -> tr_r_md5 h deq aparse c dest st p0 w d
+           | _ -> tr_r_fail st)
+        | RpExit ->
+          (match m with
+           | TrExit _ -> ((tr_r_phase st RpDone), [])
+           | _ -> tr_r_fail st)
+        | _ -> tr_r_stay st)
+     | TrHashOver ->
+       (match ph with
+        | RpNum ->
+          (match m with
+           | TrNum n ->
+             let (st', outs) =
+               tr_r_next c (N.to_nat n) st.rs_st st.rs_names st.rs_sched
+             in
+             (st', ((TrSuccInt n) :: outs))
+           | _ -> tr_r_fail st)
+        | RpName ->
+          (match m with
+           | TrName p0 -> tr_r_name c dest st p0
+           | _ -> tr_r_fail st)
+        | RpHSize (p0, leaf, old) ->
+          (match m with
+           | TrSize n ->
+             ((tr_r_phase st (RpHash (p0, leaf, old, n, r_init))), [])
+           | _ -> tr_r_fail st)
+        | RpHash (p0, leaf, old, ssize, r) ->
+          (match m with
+           | TrHash (step, h0) -> tr_r_hash hx st p0 leaf old ssize r step h0
+           | TrHashOver -> tr_r_over st p0 leaf old ssize r
+           | _ -> tr_r_fail st)
+        | RpSize p0 ->
+          (match m with
+           | TrSize n -> tr_r_size c st p0 n
+           | _ -> tr_r_fail st)
+        | RpComp (p0, size) ->
+          (match m with
+           | TrComp b ->
+             ((tr_r_phase st (RpData (p0, size, b, [],
+                (tr_cur_sched st).sc_steps))), [])
+           | _ -> tr_r_fail st)
+        | RpData (p0, size, cp, acc, steps) ->
+          (match m with
+           | TrData f -> tr_r_frame zdecomp aparse c st p0 size cp acc steps f
+           | TrKeepAlive -> tr_r_stay st
+           | _ -> tr_r_fail st)
+        | RpV1 (p0, size, w) ->
+          (match m with
+           | TrData pl -> tr_r_v1 unzl c st p0 size w pl
+           | _ -> tr_r_fail st)
+        | RpMd5 (p0, w) ->
+          (match m with
+           | TrMd5 d -> tr_r_md5 h deq aparse c dest st p0 w d
            | _ -> tr_r_fail st)
         | RpExit ->
           (match m with
@@ -2110,6 +4931,16 @@ let tr_receiver h deq zdecomp unzl c dest st m =
           (match m with
            | TrName p0 -> tr_r_name c dest st p0
            | _ -> tr_r_fail st)
+        | RpHSize (p0, leaf, old) ->
+          (match m with
+           | TrSize n ->
+             ((tr_r_phase st (RpHash (p0, leaf, old, n, r_init))), [])
+           | _ -> tr_r_fail st)
+        | RpHash (p0, leaf, old, ssize, r) ->
+          (match m with
+           | TrHash (step, h0) -> tr_r_hash hx st p0 leaf old ssize r step h0
+           | TrHashOver -> tr_r_over st p0 leaf old ssize r
+           | _ -> tr_r_fail st)
         | RpSize p0 ->
           (match m with
            | TrSize n -> tr_r_size c st p0 n
@@ -2122,7 +4953,7 @@ let tr_receiver h deq zdecomp unzl c dest st m =
            | _ -> tr_r_fail st)
         | RpData (p0, size, cp, acc, steps) ->
           (match m with
-           | TrData f -> tr_r_frame zdecomp c st p0 size cp acc steps f
+           | TrData f -> tr_r_frame zdecomp aparse c st p0 size cp acc steps f
            | TrKeepAlive -> tr_r_stay st
            | _ -> tr_r_fail st)
         | RpV1 (p0, size, w) ->
@@ -2131,7 +4962,7 @@ let tr_receiver h deq zdecomp unzl c dest st m =
            | _ -> tr_r_fail st)
         | RpMd5 (p0, w) ->
           (match m with
-           | TrMd5 d -> tr_r_md5 h deq c dest st p0 w d
+           | TrMd5 d -> tr_r_md5 h deq aparse c dest st p0 w d
            | _ -> tr_r_fail st)
         | RpExit ->
           (match m with
@@ -2152,6 +4983,16 @@ let tr_receiver h deq zdecomp unzl c dest st m =
           (match m with
            | TrName p0 -> tr_r_name c dest st p0
            | _ -> tr_r_fail st)
+        | RpHSize (p0, leaf, old) ->
+          (match m with
+           | TrSize n ->
+             ((tr_r_phase st (RpHash (p0, leaf, old, n, r_init))), [])
+           | _ -> tr_r_fail st)
+        | RpHash (p0, leaf, old, ssize, r) ->
+          (match m with
+           | TrHash (step, h0) -> tr_r_hash hx st p0 leaf old ssize r step h0
+           | TrHashOver -> tr_r_over st p0 leaf old ssize r
+           | _ -> tr_r_fail st)
         | RpSize p0 ->
           (match m with
            | TrSize n -> tr_r_size c st p0 n
@@ -2164,7 +5005,7 @@ let tr_receiver h deq zdecomp unzl c dest st m =
            | _ -> tr_r_fail st)
         | RpData (p0, size, cp, acc, steps) ->
           (match m with
-           | TrData f -> tr_r_frame zdecomp c st p0 size cp acc steps f
+           | TrData f -> tr_r_frame zdecomp aparse c st p0 size cp acc steps f
            | TrKeepAlive -> tr_r_stay st
            | _ -> tr_r_fail st)
         | RpV1 (p0, size, w) ->
@@ -2173,7 +5014,7 @@ let tr_receiver h deq zdecomp unzl c dest st m =
            | _ -> tr_r_fail st)
         | RpMd5 (p0, w) ->
           (match m with
-           | TrMd5 d -> tr_r_md5 h deq c dest st p0 w d
+           | TrMd5 d -> tr_r_md5 h deq aparse c dest st p0 w d
            | _ -> tr_r_fail st)
         | RpExit ->
           (match m with
@@ -2194,6 +5035,16 @@ let tr_receiver h deq zdecomp unzl c dest st m =
           (match m with
            | TrName p0 -> tr_r_name c dest st p0
            | _ -> tr_r_fail st)
+        | RpHSize (p0, leaf, old) ->
+          (match m with
+           | TrSize n ->
+             ((tr_r_phase st (RpHash (p0, leaf, old, n, r_init))), [])
+           | _ -> tr_r_fail st)
+        | RpHash (p0, leaf, old, ssize, r) ->
+          (match m with
+           | TrHash (step, h0) -> tr_r_hash hx st p0 leaf old ssize r step h0
+           | TrHashOver -> tr_r_over st p0 leaf old ssize r
+           | _ -> tr_r_fail st)
         | RpSize p0 ->
           (match m with
            | TrSize n -> tr_r_size c st p0 n
@@ -2206,7 +5057,7 @@ let tr_receiver h deq zdecomp unzl c dest st m =
            | _ -> tr_r_fail st)
         | RpData (p0, size, cp, acc, steps) ->
           (match m with
-           | TrData f -> tr_r_frame zdecomp c st p0 size cp acc steps f
+           | TrData f -> tr_r_frame zdecomp aparse c st p0 size cp acc steps f
            | TrKeepAlive -> tr_r_stay st
            | _ -> tr_r_fail st)
         | RpV1 (p0, size, w) ->
@@ -2215,7 +5066,7 @@ let tr_receiver h deq zdecomp unzl c dest st m =
            | _ -> tr_r_fail st)
         | RpMd5 (p0, w) ->
           (match m with
-           | TrMd5 d -> tr_r_md5 h deq c dest st p0 w d
+           | TrMd5 d -> tr_r_md5 h deq aparse c dest st p0 w d
            | _ -> tr_r_fail st)
         | RpExit ->
           (match m with
@@ -2236,6 +5087,16 @@ let tr_receiver h deq zdecomp unzl c dest st m =
           (match m with
            | TrName p0 -> tr_r_name c dest st p0
            | _ -> tr_r_fail st)
+        | RpHSize (p0, leaf, old) ->
+          (match m with
+           | TrSize n ->
+             ((tr_r_phase st (RpHash (p0, leaf, old, n, r_init))), [])
+           | _ -> tr_r_fail st)
+        | RpHash (p0, leaf, old, ssize, r) ->
+          (match m with
+           | TrHash (step, h0) -> tr_r_hash hx st p0 leaf old ssize r step h0
+           | TrHashOver -> tr_r_over st p0 leaf old ssize r
+           | _ -> tr_r_fail st)
         | RpSize p0 ->
           (match m with
            | TrSize n -> tr_r_size c st p0 n
@@ -2248,7 +5109,8 @@ let tr_receiver h deq zdecomp unzl c dest st m =
            | _ -> tr_r_fail st)
         | RpData (p0, size, cp, acc, steps) ->
           (match m with
-           | TrData f -> tr_r_frame zdecomp c st p0 size cp acc steps f
+           | TrData f ->
+             tr_r_frame zdecomp aparse c st p0 size cp acc steps f
            | TrKeepAlive -> tr_r_stay st
            | _ -> tr_r_fail st)
         | RpV1 (p0, size, w) ->
@@ -2257,7 +5119,7 @@ let tr_receiver h deq zdecomp unzl c dest st m =
            | _ -> tr_r_fail st)
         | RpMd5 (p0, w) ->
           (match m with
-           | TrMd5 d -> tr_r_md5 h deq c dest st p0 w d
+           | TrMd5 d -> tr_r_md5 h deq aparse c dest st p0 w d
            | _ -> tr_r_fail st)
         | RpExit ->
           (match m with
@@ -2278,6 +5140,16 @@ let tr_receiver h deq zdecomp unzl c dest st m =
           (match m with
            | TrName p0 -> tr_r_name c dest st p0
            | _ -> tr_r_fail st)
+        | RpHSize (p0, leaf, old) ->
+          (match m with
+           | TrSize n ->
+             ((tr_r_phase st (RpHash (p0, leaf, old, n, r_init))), [])
+           | _ -> tr_r_fail st)
+        | RpHash (p0, leaf, old, ssize, r) ->
+          (match m with
+           | TrHash (step, h0) -> tr_r_hash hx st p0 leaf old ssize r step h0
+           | TrHashOver -> tr_r_over st p0 leaf old ssize r
+           | _ -> tr_r_fail st)
         | RpSize p0 ->
           (match m with
            | TrSize n -> tr_r_size c st p0 n
@@ -2290,7 +5162,8 @@ let tr_receiver h deq zdecomp unzl c dest st m =
            | _ -> tr_r_fail st)
         | RpData (p0, size, cp, acc, steps) ->
           (match m with
-           | TrData f -> tr_r_frame zdecomp c st p0 size cp acc steps f
+           | TrData f ->
+             tr_r_frame zdecomp aparse c st p0 size cp acc steps f
            | TrKeepAlive -> tr_r_stay st
            | _ -> tr_r_fail st)
         | RpV1 (p0, size, w) ->
@@ -2299,7 +5172,60 @@ let tr_receiver h deq zdecomp unzl c dest st m =
            | _ -> tr_r_fail st)
         | RpMd5 (p0, w) ->
           (match m with
-           | TrMd5 d -> tr_r_md5 h deq c dest st p0 w d
+           | TrMd5 d -> tr_r_md5 h deq aparse c dest st p0 w d
+           | _ -> tr_r_fail st)
+        | RpExit ->
+          (match m with
+           | TrExit _ -> ((tr_r_phase st RpDone), [])
+           | _ -> tr_r_fail st)
+        | _ -> tr_r_stay st)
+     | TrSuccHack (_, _) ->
+       (match ph with
+        | RpNum ->
+          (match m with
+           | TrNum n ->
+             let (st', outs) =
+               tr_r_next c (N.to_nat n) st.rs_st st.rs_names st.rs_sched
+             in
+             (st', ((TrSuccInt n) :: outs))
+           | _ -> tr_r_fail st)
+        | RpName ->
+          (match m with
+           | TrName p0 -> tr_r_name c dest st p0
+           | _ -> tr_r_fail st)
+        | RpHSize (p0, leaf, old) ->
+          (match m with
+           | TrSize n ->
+             ((tr_r_phase st (RpHash (p0, leaf, old, n, r_init))), [])
+           | _ -> tr_r_fail st)
+        | RpHash (p0, leaf, old, ssize, r) ->
+          (match m with
+           | TrHash (step, h0) -> tr_r_hash hx st p0 leaf old ssize r step h0
+           | TrHashOver -> tr_r_over st p0 leaf old ssize r
+           | _ -> tr_r_fail st)
+        | RpSize p0 ->
+          (match m with
+           | TrSize n -> tr_r_size c st p0 n
+           | _ -> tr_r_fail st)
+        | RpComp (p0, size) ->
+          (match m with
+           | TrComp b ->
+             ((tr_r_phase st (RpData (p0, size, b, [],
+                (tr_cur_sched st).sc_steps))), [])
+           | _ -> tr_r_fail st)
+        | RpData (p0, size, cp, acc, steps) ->
+          (match m with
+           | TrData f ->
+             tr_r_frame zdecomp aparse c st p0 size cp acc steps f
+           | TrKeepAlive -> tr_r_stay st
+           | _ -> tr_r_fail st)
+        | RpV1 (p0, size, w) ->
+          (match m with
+           | TrData pl -> tr_r_v1 unzl c st p0 size w pl
+           | _ -> tr_r_fail st)
+        | RpMd5 (p0, w) ->
+          (match m with
+           | TrMd5 d -> tr_r_md5 h deq aparse c dest st p0 w d
            | _ -> tr_r_fail st)
         | RpExit ->
           (match m with
@@ -2320,6 +5246,16 @@ let tr_receiver h deq zdecomp unzl c dest st m =
           (match m with
            | TrName p0 -> tr_r_name c dest st p0
            | _ -> tr_r_fail st)
+        | RpHSize (p0, leaf, old) ->
+          (match m with
+           | TrSize n ->
+             ((tr_r_phase st (RpHash (p0, leaf, old, n, r_init))), [])
+           | _ -> tr_r_fail st)
+        | RpHash (p0, leaf, old, ssize, r) ->
+          (match m with
+           | TrHash (step, h0) -> tr_r_hash hx st p0 leaf old ssize r step h0
+           | TrHashOver -> tr_r_over st p0 leaf old ssize r
+           | _ -> tr_r_fail st)
         | RpSize p0 ->
           (match m with
            | TrSize n -> tr_r_size c st p0 n
@@ -2332,7 +5268,8 @@ let tr_receiver h deq zdecomp unzl c dest st m =
            | _ -> tr_r_fail st)
         | RpData (p0, size, cp, acc, steps) ->
           (match m with
-           | TrData f -> tr_r_frame zdecomp c st p0 size cp acc steps f
+           | TrData f ->
+             tr_r_frame zdecomp aparse c st p0 size cp acc steps f
            | TrKeepAlive -> tr_r_stay st
            | _ -> tr_r_fail st)
         | RpV1 (p0, size, w) ->
@@ -2341,7 +5278,7 @@ let tr_receiver h deq zdecomp unzl c dest st m =
            | _ -> tr_r_fail st)
         | RpMd5 (p0, w) ->
           (match m with
-           | TrMd5 d -> tr_r_md5 h deq c dest st p0 w d
+           | TrMd5 d -> tr_r_md5 h deq aparse c dest st p0 w d
            | _ -> tr_r_fail st)
         | RpExit ->
           (match m with
@@ -2366,6 +5303,16 @@ let tr_receiver h deq zdecomp unzl c dest st m =
           (match m with
            | TrName p0 -> tr_r_name c dest st p0
            | _ -> tr_r_fail st)
+        | RpHSize (p0, leaf, old) ->
+          (match m with
+           | TrSize n ->
+             ((tr_r_phase st (RpHash (p0, leaf, old, n, r_init))), [])
+           | _ -> tr_r_fail st)
+        | RpHash (p0, leaf, old, ssize, r) ->
+          (match m with
+           | TrHash (step, h0) -> tr_r_hash hx st p0 leaf old ssize r step h0
+           | TrHashOver -> tr_r_over st p0 leaf old ssize r
+           | _ -> tr_r_fail st)
         | RpSize p0 ->
           (match m with
            | TrSize n -> tr_r_size c st p0 n
@@ -2378,7 +5325,8 @@ let tr_receiver h deq zdecomp unzl c dest st m =
            | _ -> tr_r_fail st)
         | RpData (p0, size0, cp, acc, steps) ->
           (match m with
-           | TrData f -> tr_r_frame zdecomp c st p0 size0 cp acc steps f
+           | TrData f ->
+             tr_r_frame zdecomp aparse c st p0 size0 cp acc steps f
            | TrKeepAlive -> tr_r_stay st
            | _ -> tr_r_fail st)
         | RpV1 (p0, size0, w) ->
@@ -2387,7 +5335,7 @@ let tr_receiver h deq zdecomp unzl c dest st m =
            | _ -> tr_r_fail st)
         | RpMd5 (p0, w) ->
           (match m with
-           | TrMd5 d -> tr_r_md5 h deq c dest st p0 w d
+           | TrMd5 d -> tr_r_md5 h deq aparse c dest st p0 w d
            | _ -> tr_r_fail st)
         | RpExit ->
           (match m with
@@ -2408,6 +5356,16 @@ let tr_receiver h deq zdecomp unzl c dest st m =
           (match m with
            | TrName p0 -> tr_r_name c dest st p0
            | _ -> tr_r_fail st)
+        | RpHSize (p0, leaf, old) ->
+          (match m with
+           | TrSize n ->
+             ((tr_r_phase st (RpHash (p0, leaf, old, n, r_init))), [])
+           | _ -> tr_r_fail st)
+        | RpHash (p0, leaf, old, ssize, r) ->
+          (match m with
+           | TrHash (step, h0) -> tr_r_hash hx st p0 leaf old ssize r step h0
+           | TrHashOver -> tr_r_over st p0 leaf old ssize r
+           | _ -> tr_r_fail st)
         | RpSize p0 ->
           (match m with
            | TrSize n -> tr_r_size c st p0 n
@@ -2420,7 +5378,8 @@ let tr_receiver h deq zdecomp unzl c dest st m =
            | _ -> tr_r_fail st)
         | RpData (p0, size0, cp, acc, steps) ->
           (match m with
-           | TrData f -> tr_r_frame zdecomp c st p0 size0 cp acc steps f
+           | TrData f ->
+             tr_r_frame zdecomp aparse c st p0 size0 cp acc steps f
            | TrKeepAlive -> tr_r_stay st
            | _ -> tr_r_fail st)
         | RpV1 (p0, size0, w) ->
@@ -2429,7 +5388,7 @@ let tr_receiver h deq zdecomp unzl c dest st m =
            | _ -> tr_r_fail st)
         | RpMd5 (p0, w) ->
           (match m with
-           | TrMd5 d -> tr_r_md5 h deq c dest st p0 w d
+           | TrMd5 d -> tr_r_md5 h deq aparse c dest st p0 w d
            | _ -> tr_r_fail st)
         | RpExit ->
           (match m with
@@ -2450,6 +5409,16 @@ let tr_receiver h deq zdecomp unzl c dest st m =
           (match m with
            | TrName p0 -> tr_r_name c dest st p0
            | _ -> tr_r_fail st)
+        | RpHSize (p0, leaf, old) ->
+          (match m with
+           | TrSize n ->
+             ((tr_r_phase st (RpHash (p0, leaf, old, n, r_init))), [])
+           | _ -> tr_r_fail st)
+        | RpHash (p0, leaf, old, ssize, r) ->
+          (match m with
+           | TrHash (step, h0) -> tr_r_hash hx st p0 leaf old ssize r step h0
+           | TrHashOver -> tr_r_over st p0 leaf old ssize r
+           | _ -> tr_r_fail st)
         | RpSize p0 ->
           (match m with
            | TrSize n -> tr_r_size c st p0 n
@@ -2462,7 +5431,8 @@ let tr_receiver h deq zdecomp unzl c dest st m =
            | _ -> tr_r_fail st)
         | RpData (p0, size0, cp, acc, steps) ->
           (match m with
-           | TrData f -> tr_r_frame zdecomp c st p0 size0 cp acc steps f
+           | TrData f ->
+             tr_r_frame zdecomp aparse c st p0 size0 cp acc steps f
            | TrKeepAlive -> tr_r_stay st
            | _ -> tr_r_fail st)
         | RpV1 (p0, size0, w) ->
@@ -2471,7 +5441,7 @@ let tr_receiver h deq zdecomp unzl c dest st m =
            | _ -> tr_r_fail st)
         | RpMd5 (p0, w) ->
           (match m with
-           | TrMd5 d -> tr_r_md5 h deq c dest st p0 w d
+           | TrMd5 d -> tr_r_md5 h deq aparse c dest st p0 w d
            | _ -> tr_r_fail st)
         | RpExit ->
           (match m with
@@ -2492,6 +5462,16 @@ let tr_receiver h deq zdecomp unzl c dest st m =
           (match m with
            | TrName p0 -> tr_r_name c dest st p0
            | _ -> tr_r_fail st)
+        | RpHSize (p0, leaf, old) ->
+          (match m with
+           | TrSize n ->
+             ((tr_r_phase st (RpHash (p0, leaf, old, n, r_init))), [])
+           | _ -> tr_r_fail st)
+        | RpHash (p0, leaf, old, ssize, r) ->
+          (match m with
+           | TrHash (step, h0) -> tr_r_hash hx st p0 leaf old ssize r step h0
+           | TrHashOver -> tr_r_over st p0 leaf old ssize r
+           | _ -> tr_r_fail st)
         | RpSize p0 ->
           (match m with
            | TrSize n -> tr_r_size c st p0 n
@@ -2504,7 +5484,8 @@ let tr_receiver h deq zdecomp unzl c dest st m =
            | _ -> tr_r_fail st)
         | RpData (p0, size0, cp, acc, steps) ->
           (match m with
-           | TrData f -> tr_r_frame zdecomp c st p0 size0 cp acc steps f
+           | TrData f ->
+             tr_r_frame zdecomp aparse c st p0 size0 cp acc steps f
            | TrKeepAlive -> tr_r_stay st
            | _ -> tr_r_fail st)
         | RpV1 (p0, size0, w) ->
@@ -2513,7 +5494,7 @@ let tr_receiver h deq zdecomp unzl c dest st m =
            | _ -> tr_r_fail st)
         | RpMd5 (p0, w) ->
           (match m with
-           | TrMd5 d -> tr_r_md5 h deq c dest st p0 w d
+           | TrMd5 d -> tr_r_md5 h deq aparse c dest st p0 w d
            | _ -> tr_r_fail st)
         | RpExit ->
           (match m with
@@ -2534,6 +5515,16 @@ let tr_receiver h deq zdecomp unzl c dest st m =
           (match m with
            | TrName p0 -> tr_r_name c dest st p0
            | _ -> tr_r_fail st)
+        | RpHSize (p0, leaf, old) ->
+          (match m with
+           | TrSize n ->
+             ((tr_r_phase st (RpHash (p0, leaf, old, n, r_init))), [])
+           | _ -> tr_r_fail st)
+        | RpHash (p0, leaf, old, ssize, r) ->
+          (match m with
+           | TrHash (step, h0) -> tr_r_hash hx st p0 leaf old ssize r step h0
+           | TrHashOver -> tr_r_over st p0 leaf old ssize r
+           | _ -> tr_r_fail st)
         | RpSize p0 ->
           (match m with
            | TrSize n -> tr_r_size c st p0 n
@@ -2546,7 +5537,8 @@ let tr_receiver h deq zdecomp unzl c dest st m =
            | _ -> tr_r_fail st)
         | RpData (p0, size0, cp, acc, steps) ->
           (match m with
-           | TrData f -> tr_r_frame zdecomp c st p0 size0 cp acc steps f
+           | TrData f ->
+             tr_r_frame zdecomp aparse c st p0 size0 cp acc steps f
            | TrKeepAlive -> tr_r_stay st
            | _ -> tr_r_fail st)
         | RpV1 (p0, size0, w) ->
@@ -2555,7 +5547,7 @@ let tr_receiver h deq zdecomp unzl c dest st m =
            | _ -> tr_r_fail st)
         | RpMd5 (p0, w) ->
           (match m with
-           | TrMd5 d -> tr_r_md5 h deq c dest st p0 w d
+           | TrMd5 d -> tr_r_md5 h deq aparse c dest st p0 w d
            | _ -> tr_r_fail st)
         | RpExit ->
           (match m with
@@ -2576,6 +5568,16 @@ let tr_receiver h deq zdecomp unzl c dest st m =
           (match m with
            | TrName p0 -> tr_r_name c dest st p0
            | _ -> tr_r_fail st)
+        | RpHSize (p0, leaf, old) ->
+          (match m with
+           | TrSize n ->
+             ((tr_r_phase st (RpHash (p0, leaf, old, n, r_init))), [])
+           | _ -> tr_r_fail st)
+        | RpHash (p0, leaf, old, ssize, r) ->
+          (match m with
+           | TrHash (step, h0) -> tr_r_hash hx st p0 leaf old ssize r step h0
+           | TrHashOver -> tr_r_over st p0 leaf old ssize r
+           | _ -> tr_r_fail st)
         | RpSize p0 ->
           (match m with
            | TrSize n -> tr_r_size c st p0 n
@@ -2588,7 +5590,8 @@ let tr_receiver h deq zdecomp unzl c dest st m =
            | _ -> tr_r_fail st)
         | RpData (p0, size0, cp, acc, steps) ->
           (match m with
-           | TrData f -> tr_r_frame zdecomp c st p0 size0 cp acc steps f
+           | TrData f ->
+             tr_r_frame zdecomp aparse c st p0 size0 cp acc steps f
            | TrKeepAlive -> tr_r_stay st
            | _ -> tr_r_fail st)
         | RpV1 (p0, size0, w) ->
@@ -2597,7 +5600,7 @@ let tr_receiver h deq zdecomp unzl c dest st m =
            | _ -> tr_r_fail st)
         | RpMd5 (p0, w) ->
           (match m with
-           | TrMd5 d -> tr_r_md5 h deq c dest st p0 w d
+           | TrMd5 d -> tr_r_md5 h deq aparse c dest st p0 w d
            | _ -> tr_r_fail st)
         | RpExit ->
           (match m with
@@ -2618,6 +5621,16 @@ let tr_receiver h deq zdecomp unzl c dest st m =
           (match m with
            | TrName p0 -> tr_r_name c dest st p0
            | _ -> tr_r_fail st)
+        | RpHSize (p0, leaf, old) ->
+          (match m with
+           | TrSize n ->
+             ((tr_r_phase st (RpHash (p0, leaf, old, n, r_init))), [])
+           | _ -> tr_r_fail st)
+        | RpHash (p0, leaf, old, ssize, r) ->
+          (match m with
+           | TrHash (step, h0) -> tr_r_hash hx st p0 leaf old ssize r step h0
+           | TrHashOver -> tr_r_over st p0 leaf old ssize r
+           | _ -> tr_r_fail st)
         | RpSize p0 ->
           (match m with
            | TrSize n -> tr_r_size c st p0 n
@@ -2630,7 +5643,8 @@ let tr_receiver h deq zdecomp unzl c dest st m =
            | _ -> tr_r_fail st)
         | RpData (p0, size0, cp, acc, steps) ->
           (match m with
-           | TrData f -> tr_r_frame zdecomp c st p0 size0 cp acc steps f
+           | TrData f ->
+             tr_r_frame zdecomp aparse c st p0 size0 cp acc steps f
            | TrKeepAlive -> tr_r_stay st
            | _ -> tr_r_fail st)
         | RpV1 (p0, size0, w) ->
@@ -2639,7 +5653,113 @@ let tr_receiver h deq zdecomp unzl c dest st m =
            | _ -> tr_r_fail st)
         | RpMd5 (p0, w) ->
           (match m with
-           | TrMd5 d -> tr_r_md5 h deq c dest st p0 w d
+           | TrMd5 d -> tr_r_md5 h deq aparse c dest st p0 w d
+           | _ -> tr_r_fail st)
+        | RpExit ->
+          (match m with
+           | TrExit _ -> ((tr_r_phase st RpDone), [])
+           | _ -> tr_r_fail st)
+        | _ -> tr_r_stay st)
+     | TrHash (_, _) ->
+       (match ph with
+        | RpNum ->
+          (match m with
+           | TrNum n ->
+             let (st', outs) =
+               tr_r_next c (N.to_nat n) st.rs_st st.rs_names st.rs_sched
+             in
+             (st', ((TrSuccInt n) :: outs))
+           | _ -> tr_r_fail st)
+        | RpName ->
+          (match m with
+           | TrName p0 -> tr_r_name c dest st p0
+           | _ -> tr_r_fail st)
+        | RpHSize (p0, leaf, old) ->
+          (match m with
+           | TrSize n ->
+             ((tr_r_phase st (RpHash (p0, leaf, old, n, r_init))), [])
+           | _ -> tr_r_fail st)
+        | RpHash (p0, leaf, old, ssize, r) ->
+          (match m with
+           | TrHash (step, h0) -> tr_r_hash hx st p0 leaf old ssize r step h0
+           | TrHashOver -> tr_r_over st p0 leaf old ssize r
+           | _ -> tr_r_fail st)
+        | RpSize p0 ->
+          (match m with
+           | TrSize n -> tr_r_size c st p0 n
+           | _ -> tr_r_fail st)
+        | RpComp (p0, size0) ->
+          (match m with
+           | TrComp b ->
+             ((tr_r_phase st (RpData (p0, size0, b, [],
+                (tr_cur_sched st).sc_steps))), [])
+           | _ -> tr_r_fail st)
+        | RpData (p0, size0, cp, acc, steps) ->
+          (match m with
+           | TrData f ->
+             tr_r_frame zdecomp aparse c st p0 size0 cp acc steps f
+           | TrKeepAlive -> tr_r_stay st
+           | _ -> tr_r_fail st)
+        | RpV1 (p0, size0, w) ->
+          (match m with
+           | TrData pl -> tr_r_v1 unzl c st p0 size0 w pl
+           | _ -> tr_r_fail st)
+        | RpMd5 (p0, w) ->
+          (match m with
+           | TrMd5 d -> tr_r_md5 h deq aparse c dest st p0 w d
+           | _ -> tr_r_fail st)
+        | RpExit ->
+          (match m with
+           | TrExit _ -> ((tr_r_phase st RpDone), [])
+           | _ -> tr_r_fail st)
+        | _ -> tr_r_stay st)
+     | TrHashOver ->
+       (match ph with
+        | RpNum ->
+          (match m with
+           | TrNum n ->
+             let (st', outs) =
+               tr_r_next c (N.to_nat n) st.rs_st st.rs_names st.rs_sched
+             in
+             (st', ((TrSuccInt n) :: outs))
+           | _ -> tr_r_fail st)
+        | RpName ->
+          (match m with
+           | TrName p0 -> tr_r_name c dest st p0
+           | _ -> tr_r_fail st)
+        | RpHSize (p0, leaf, old) ->
+          (match m with
+           | TrSize n ->
+             ((tr_r_phase st (RpHash (p0, leaf, old, n, r_init))), [])
+           | _ -> tr_r_fail st)
+        | RpHash (p0, leaf, old, ssize, r) ->
+          (match m with
+           | TrHash (step, h0) -> tr_r_hash hx st p0 leaf old ssize r step h0
+           | TrHashOver -> tr_r_over st p0 leaf old ssize r
+           | _ -> tr_r_fail st)
+        | RpSize p0 ->
+          (match m with
+           | TrSize n -> tr_r_size c st p0 n
+           | _ -> tr_r_fail st)
+        | RpComp (p0, size0) ->
+          (match m with
+           | TrComp b ->
+             ((tr_r_phase st (RpData (p0, size0, b, [],
+                (tr_cur_sched st).sc_steps))), [])
+           | _ -> tr_r_fail st)
+        | RpData (p0, size0, cp, acc, steps) ->
+          (match m with
+           | TrData f ->
+             tr_r_frame zdecomp aparse c st p0 size0 cp acc steps f
+           | TrKeepAlive -> tr_r_stay st
+           | _ -> tr_r_fail st)
+        | RpV1 (p0, size0, w) ->
+          (match m with
+           | TrData pl -> tr_r_v1 unzl c st p0 size0 w pl
+           | _ -> tr_r_fail st)
+        | RpMd5 (p0, w) ->
+          (match m with
+           | TrMd5 d -> tr_r_md5 h deq aparse c dest st p0 w d
            | _ -> tr_r_fail st)
         | RpExit ->
           (match m with
@@ -2660,6 +5780,16 @@ let tr_receiver h deq zdecomp unzl c dest st m =
           (match m with
            | TrName p0 -> tr_r_name c dest st p0
            | _ -> tr_r_fail st)
+        | RpHSize (p0, leaf, old) ->
+          (match m with
+           | TrSize n ->
+             ((tr_r_phase st (RpHash (p0, leaf, old, n, r_init))), [])
+           | _ -> tr_r_fail st)
+        | RpHash (p0, leaf, old, ssize, r) ->
+          (match m with
+           | TrHash (step, h0) -> tr_r_hash hx st p0 leaf old ssize r step h0
+           | TrHashOver -> tr_r_over st p0 leaf old ssize r
+           | _ -> tr_r_fail st)
         | RpSize p0 ->
           (match m with
            | TrSize n -> tr_r_size c st p0 n
@@ -2672,7 +5802,8 @@ let tr_receiver h deq zdecomp unzl c dest st m =
            | _ -> tr_r_fail st)
         | RpData (p0, size0, cp, acc, steps) ->
           (match m with
-           | TrData f -> tr_r_frame zdecomp c st p0 size0 cp acc steps f
+           | TrData f ->
+             tr_r_frame zdecomp aparse c st p0 size0 cp acc steps f
            | TrKeepAlive -> tr_r_stay st
            | _ -> tr_r_fail st)
         | RpV1 (p0, size0, w) ->
@@ -2681,7 +5812,7 @@ let tr_receiver h deq zdecomp unzl c dest st m =
            | _ -> tr_r_fail st)
         | RpMd5 (p0, w) ->
           (match m with
-           | TrMd5 d -> tr_r_md5 h deq c dest st p0 w d
+           | TrMd5 d -> tr_r_md5 h deq aparse c dest st p0 w d
            | _ -> tr_r_fail st)
         | RpExit ->
           (match m with
@@ -2702,6 +5833,16 @@ let tr_receiver h deq zdecomp unzl c dest st m =
           (match m with
            | TrName p0 -> tr_r_name c dest st p0
            | _ -> tr_r_fail st)
+        | RpHSize (p0, leaf, old) ->
+          (match m with
+           | TrSize n ->
+             ((tr_r_phase st (RpHash (p0, leaf, old, n, r_init))), [])
+           | _ -> tr_r_fail st)
+        | RpHash (p0, leaf, old, ssize, r) ->
+          (match m with
+           | TrHash (step, h0) -> tr_r_hash hx st p0 leaf old ssize r step h0
+           | TrHashOver -> tr_r_over st p0 leaf old ssize r
+           | _ -> tr_r_fail st)
         | RpSize p0 ->
           (match m with
            | TrSize n -> tr_r_size c st p0 n
@@ -2714,7 +5855,8 @@ let tr_receiver h deq zdecomp unzl c dest st m =
            | _ -> tr_r_fail st)
         | RpData (p0, size0, cp, acc, steps) ->
           (match m with
-           | TrData f -> tr_r_frame zdecomp c st p0 size0 cp acc steps f
+           | TrData f ->
+             tr_r_frame zdecomp aparse c st p0 size0 cp acc steps f
            | TrKeepAlive -> tr_r_stay st
            | _ -> tr_r_fail st)
         | RpV1 (p0, size0, w) ->
@@ -2723,7 +5865,7 @@ let tr_receiver h deq zdecomp unzl c dest st m =
            | _ -> tr_r_fail st)
         | RpMd5 (p0, w) ->
           (match m with
-           | TrMd5 d -> tr_r_md5 h deq c dest st p0 w d
+           | TrMd5 d -> tr_r_md5 h deq aparse c dest st p0 w d
            | _ -> tr_r_fail st)
         | RpExit ->
           (match m with
@@ -2744,6 +5886,16 @@ let tr_receiver h deq zdecomp unzl c dest st m =
           (match m with
            | TrName p0 -> tr_r_name c dest st p0
            | _ -> tr_r_fail st)
+        | RpHSize (p0, leaf, old) ->
+          (match m with
+           | TrSize n ->
+             ((tr_r_phase st (RpHash (p0, leaf, old, n, r_init))), [])
+           | _ -> tr_r_fail st)
+        | RpHash (p0, leaf, old, ssize, r) ->
+          (match m with
+           | TrHash (step, h0) -> tr_r_hash hx st p0 leaf old ssize r step h0
+           | TrHashOver -> tr_r_over st p0 leaf old ssize r
+           | _ -> tr_r_fail st)
         | RpSize p0 ->
           (match m with
            | TrSize n -> tr_r_size c st p0 n
@@ -2756,7 +5908,8 @@ let tr_receiver h deq zdecomp unzl c dest st m =
            | _ -> tr_r_fail st)
         | RpData (p0, size0, cp, acc, steps) ->
           (match m with
-           | TrData f -> tr_r_frame zdecomp c st p0 size0 cp acc steps f
+           | TrData f ->
+             tr_r_frame zdecomp aparse c st p0 size0 cp acc steps f
            | TrKeepAlive -> tr_r_stay st
            | _ -> tr_r_fail st)
         | RpV1 (p0, size0, w) ->
@@ -2765,7 +5918,7 @@ let tr_receiver h deq zdecomp unzl c dest st m =
            | _ -> tr_r_fail st)
         | RpMd5 (p0, w) ->
           (match m with
-           | TrMd5 d -> tr_r_md5 h deq c dest st p0 w d
+           | TrMd5 d -> tr_r_md5 h deq aparse c dest st p0 w d
            | _ -> tr_r_fail st)
         | RpExit ->
           (match m with
@@ -2786,6 +5939,16 @@ let tr_receiver h deq zdecomp unzl c dest st m =
           (match m with
            | TrName p0 -> tr_r_name c dest st p0
            | _ -> tr_r_fail st)
+        | RpHSize (p0, leaf, old) ->
+          (match m with
+           | TrSize n ->
+             ((tr_r_phase st (RpHash (p0, leaf, old, n, r_init))), [])
+           | _ -> tr_r_fail st)
+        | RpHash (p0, leaf, old, ssize, r) ->
+          (match m with
+           | TrHash (step, h0) -> tr_r_hash hx st p0 leaf old ssize r step h0
+           | TrHashOver -> tr_r_over st p0 leaf old ssize r
+           | _ -> tr_r_fail st)
         | RpSize p0 ->
           (match m with
            | TrSize n -> tr_r_size c st p0 n
@@ -2798,7 +5961,8 @@ let tr_receiver h deq zdecomp unzl c dest st m =
            | _ -> tr_r_fail st)
         | RpData (p0, size0, cp, acc, steps) ->
           (match m with
-           | TrData f -> tr_r_frame zdecomp c st p0 size0 cp acc steps f
+           | TrData f ->
+             tr_r_frame zdecomp aparse c st p0 size0 cp acc steps f
            | TrKeepAlive -> tr_r_stay st
            | _ -> tr_r_fail st)
         | RpV1 (p0, size0, w) ->
@@ -2807,7 +5971,7 @@ let tr_receiver h deq zdecomp unzl c dest st m =
            | _ -> tr_r_fail st)
         | RpMd5 (p0, w) ->
           (match m with
-           | TrMd5 d -> tr_r_md5 h deq c dest st p0 w d
+           | TrMd5 d -> tr_r_md5 h deq aparse c dest st p0 w d
            | _ -> tr_r_fail st)
         | RpExit ->
           (match m with
@@ -2828,6 +5992,16 @@ let tr_receiver h deq zdecomp unzl c dest st m =
           (match m with
            | TrName p0 -> tr_r_name c dest st p0
            | _ -> tr_r_fail st)
+        | RpHSize (p0, leaf, old) ->
+          (match m with
+           | TrSize n ->
+             ((tr_r_phase st (RpHash (p0, leaf, old, n, r_init))), [])
+           | _ -> tr_r_fail st)
+        | RpHash (p0, leaf, old, ssize, r) ->
+          (match m with
+           | TrHash (step, h0) -> tr_r_hash hx st p0 leaf old ssize r step h0
+           | TrHashOver -> tr_r_over st p0 leaf old ssize r
+           | _ -> tr_r_fail st)
         | RpSize p0 ->
           (match m with
            | TrSize n -> tr_r_size c st p0 n
@@ -2840,7 +6014,8 @@ let tr_receiver h deq zdecomp unzl c dest st m =
            | _ -> tr_r_fail st)
         | RpData (p0, size0, cp, acc, steps) ->
           (match m with
-           | TrData f -> tr_r_frame zdecomp c st p0 size0 cp acc steps f
+           | TrData f ->
+             tr_r_frame zdecomp aparse c st p0 size0 cp acc steps f
            | TrKeepAlive -> tr_r_stay st
            | _ -> tr_r_fail st)
         | RpV1 (p0, size0, w) ->
@@ -2849,7 +6024,60 @@ let tr_receiver h deq zdecomp unzl c dest st m =
            | _ -> tr_r_fail st)
         | RpMd5 (p0, w) ->
           (match m with
-           | TrMd5 d -> tr_r_md5 h deq c dest st p0 w d
+           | TrMd5 d -> tr_r_md5 h deq aparse c dest st p0 w d
+           | _ -> tr_r_fail st)
+        | RpExit ->
+          (match m with
+           | TrExit _ -> ((tr_r_phase st RpDone), [])
+           | _ -> tr_r_fail st)
+        | _ -> tr_r_stay st)
+     | TrSuccHack (_, _) ->
+       (match ph with
+        | RpNum ->
+          (match m with
+           | TrNum n ->
+             let (st', outs) =
+               tr_r_next c (N.to_nat n) st.rs_st st.rs_names st.rs_sched
+             in
+             (st', ((TrSuccInt n) :: outs))
+           | _ -> tr_r_fail st)
+        | RpName ->
+          (match m with
+           | TrName p0 -> tr_r_name c dest st p0
+           | _ -> tr_r_fail st)
+        | RpHSize (p0, leaf, old) ->
+          (match m with
+           | TrSize n ->
+             ((tr_r_phase st (RpHash (p0, leaf, old, n, r_init))), [])
+           | _ -> tr_r_fail st)
+        | RpHash (p0, leaf, old, ssize, r) ->
+          (match m with
+           | TrHash (step, h0) -> tr_r_hash hx st p0 leaf old ssize r step h0
+           | TrHashOver -> tr_r_over st p0 leaf old ssize r
+           | _ -> tr_r_fail st)
+        | RpSize p0 ->
+          (match m with
+           | TrSize n -> tr_r_size c st p0 n
+           | _ -> tr_r_fail st)
+        | RpComp (p0, size0) ->
+          (match m with
+           | TrComp b ->
+             ((tr_r_phase st (RpData (p0, size0, b, [],
+                (tr_cur_sched st).sc_steps))), [])
+           | _ -> tr_r_fail st)
+        | RpData (p0, size0, cp, acc, steps) ->
+          (match m with
+           | TrData f ->
+             tr_r_frame zdecomp aparse c st p0 size0 cp acc steps f
+           | TrKeepAlive -> tr_r_stay st
+           | _ -> tr_r_fail st)
+        | RpV1 (p0, size0, w) ->
+          (match m with
+           | TrData pl -> tr_r_v1 unzl c st p0 size0 w pl
+           | _ -> tr_r_fail st)
+        | RpMd5 (p0, w) ->
+          (match m with
+           | TrMd5 d -> tr_r_md5 h deq aparse c dest st p0 w d
            | _ -> tr_r_fail st)
         | RpExit ->
           (match m with
@@ -2870,6 +6098,16 @@ let tr_receiver h deq zdecomp unzl c dest st m =
           (match m with
            | TrName p0 -> tr_r_name c dest st p0
            | _ -> tr_r_fail st)
+        | RpHSize (p0, leaf, old) ->
+          (match m with
+           | TrSize n ->
+             ((tr_r_phase st (RpHash (p0, leaf, old, n, r_init))), [])
+           | _ -> tr_r_fail st)
+        | RpHash (p0, leaf, old, ssize, r) ->
+          (match m with
+           | TrHash (step, h0) -> tr_r_hash hx st p0 leaf old ssize r step h0
+           | TrHashOver -> tr_r_over st p0 leaf old ssize r
+           | _ -> tr_r_fail st)
         | RpSize p0 ->
           (match m with
            | TrSize n -> tr_r_size c st p0 n
@@ -2882,7 +6120,8 @@ let tr_receiver h deq zdecomp unzl c dest st m =
            | _ -> tr_r_fail st)
         | RpData (p0, size0, cp, acc, steps) ->
           (match m with
-           | TrData f -> tr_r_frame zdecomp c st p0 size0 cp acc steps f
+           | TrData f ->
+             tr_r_frame zdecomp aparse c st p0 size0 cp acc steps f
            | TrKeepAlive -> tr_r_stay st
            | _ -> tr_r_fail st)
         | RpV1 (p0, size0, w) ->
@@ -2891,7 +6130,7 @@ let tr_receiver h deq zdecomp unzl c dest st m =
            | _ -> tr_r_fail st)
         | RpMd5 (p0, w) ->
           (match m with
-           | TrMd5 d -> tr_r_md5 h deq c dest st p0 w d
+           | TrMd5 d -> tr_r_md5 h deq aparse c dest st p0 w d
            | _ -> tr_r_fail st)
         | RpExit ->
           (match m with
@@ -2916,6 +6155,16 @@ let tr_receiver h deq zdecomp unzl c dest st m =
           (match m with
            | TrName p0 -> tr_r_name c dest st p0
            | _ -> tr_r_fail st)
+        | RpHSize (p0, leaf, old) ->
+          (match m with
+           | TrSize n ->
+             ((tr_r_phase st (RpHash (p0, leaf, old, n, r_init))), [])
+           | _ -> tr_r_fail st)
+        | RpHash (p0, leaf, old, ssize, r) ->
+          (match m with
+           | TrHash (step, h0) -> tr_r_hash hx st p0 leaf old ssize r step h0
+           | TrHashOver -> tr_r_over st p0 leaf old ssize r
+           | _ -> tr_r_fail st)
         | RpSize p0 ->
           (match m with
            | TrSize n -> tr_r_size c st p0 n
@@ -2928,7 +6177,8 @@ let tr_receiver h deq zdecomp unzl c dest st m =
            | _ -> tr_r_fail st)
         | RpData (p0, size0, cp, acc0, steps0) ->
           (match m with
-           | TrData f -> tr_r_frame zdecomp c st p0 size0 cp acc0 steps0 f
+           | TrData f ->
+             tr_r_frame zdecomp aparse c st p0 size0 cp acc0 steps0 f
            | TrKeepAlive -> tr_r_stay st
            | _ -> tr_r_fail st)
         | RpV1 (p0, size0, w) ->
@@ -2937,7 +6187,7 @@ let tr_receiver h deq zdecomp unzl c dest st m =
            | _ -> tr_r_fail st)
         | RpMd5 (p0, w) ->
           (match m with
-           | TrMd5 d -> tr_r_md5 h deq c dest st p0 w d
+           | TrMd5 d -> tr_r_md5 h deq aparse c dest st p0 w d
            | _ -> tr_r_fail st)
         | RpExit ->
           (match m with
@@ -2958,6 +6208,16 @@ let tr_receiver h deq zdecomp unzl c dest st m =
           (match m with
            | TrName p0 -> tr_r_name c dest st p0
            | _ -> tr_r_fail st)
+        | RpHSize (p0, leaf, old) ->
+          (match m with
+           | TrSize n ->
+             ((tr_r_phase st (RpHash (p0, leaf, old, n, r_init))), [])
+           | _ -> tr_r_fail st)
+        | RpHash (p0, leaf, old, ssize, r) ->
+          (match m with
+           | TrHash (step, h0) -> tr_r_hash hx st p0 leaf old ssize r step h0
+           | TrHashOver -> tr_r_over st p0 leaf old ssize r
+           | _ -> tr_r_fail st)
         | RpSize p0 ->
           (match m with
            | TrSize n -> tr_r_size c st p0 n
@@ -2970,7 +6230,8 @@ let tr_receiver h deq zdecomp unzl c dest st m =
            | _ -> tr_r_fail st)
         | RpData (p0, size0, cp, acc0, steps0) ->
           (match m with
-           | TrData f -> tr_r_frame zdecomp c st p0 size0 cp acc0 steps0 f
+           | TrData f ->
+             tr_r_frame zdecomp aparse c st p0 size0 cp acc0 steps0 f
            | TrKeepAlive -> tr_r_stay st
            | _ -> tr_r_fail st)
         | RpV1 (p0, size0, w) ->
@@ -2979,7 +6240,7 @@ let tr_receiver h deq zdecomp unzl c dest st m =
            | _ -> tr_r_fail st)
         | RpMd5 (p0, w) ->
           (match m with
-           | TrMd5 d -> tr_r_md5 h deq c dest st p0 w d
+           | TrMd5 d -> tr_r_md5 h deq aparse c dest st p0 w d
            | _ -> tr_r_fail st)
         | RpExit ->
           (match m with
@@ -3000,6 +6261,16 @@ let tr_receiver h deq zdecomp unzl c dest st m =
           (match m with
            | TrName p0 -> tr_r_name c dest st p0
            | _ -> tr_r_fail st)
+        | RpHSize (p0, leaf, old) ->
+          (match m with
+           | TrSize n ->
+             ((tr_r_phase st (RpHash (p0, leaf, old, n, r_init))), [])
+           | _ -> tr_r_fail st)
+        | RpHash (p0, leaf, old, ssize, r) ->
+          (match m with
+           | TrHash (step, h0) -> tr_r_hash hx st p0 leaf old ssize r step h0
+           | TrHashOver -> tr_r_over st p0 leaf old ssize r
+           | _ -> tr_r_fail st)
         | RpSize p0 ->
           (match m with
            | TrSize n -> tr_r_size c st p0 n
@@ -3012,7 +6283,8 @@ let tr_receiver h deq zdecomp unzl c dest st m =
            | _ -> tr_r_fail st)
         | RpData (p0, size0, cp, acc0, steps0) ->
           (match m with
-           | TrData f -> tr_r_frame zdecomp c st p0 size0 cp acc0 steps0 f
+           | TrData f ->
+             tr_r_frame zdecomp aparse c st p0 size0 cp acc0 steps0 f
            | TrKeepAlive -> tr_r_stay st
            | _ -> tr_r_fail st)
         | RpV1 (p0, size0, w) ->
@@ -3021,7 +6293,7 @@ let tr_receiver h deq zdecomp unzl c dest st m =
            | _ -> tr_r_fail st)
         | RpMd5 (p0, w) ->
           (match m with
-           | TrMd5 d -> tr_r_md5 h deq c dest st p0 w d
+           | TrMd5 d -> tr_r_md5 h deq aparse c dest st p0 w d
            | _ -> tr_r_fail st)
         | RpExit ->
           (match m with
@@ -3042,6 +6314,16 @@ let tr_receiver h deq zdecomp unzl c dest st m =
           (match m with
            | TrName p0 -> tr_r_name c dest st p0
            | _ -> tr_r_fail st)
+        | RpHSize (p0, leaf, old) ->
+          (match m with
+           | TrSize n ->
+             ((tr_r_phase st (RpHash (p0, leaf, old, n, r_init))), [])
+           | _ -> tr_r_fail st)
+        | RpHash (p0, leaf, old, ssize, r) ->
+          (match m with
+           | TrHash (step, h0) -> tr_r_hash hx st p0 leaf old ssize r step h0
+           | TrHashOver -> tr_r_over st p0 leaf old ssize r
+           | _ -> tr_r_fail st)
         | RpSize p0 ->
           (match m with
            | TrSize n -> tr_r_size c st p0 n
@@ -3054,7 +6336,8 @@ let tr_receiver h deq zdecomp unzl c dest st m =
            | _ -> tr_r_fail st)
         | RpData (p0, size0, cp, acc0, steps0) ->
           (match m with
-           | TrData f -> tr_r_frame zdecomp c st p0 size0 cp acc0 steps0 f
+           | TrData f ->
+             tr_r_frame zdecomp aparse c st p0 size0 cp acc0 steps0 f
            | TrKeepAlive -> tr_r_stay st
            | _ -> tr_r_fail st)
         | RpV1 (p0, size0, w) ->
@@ -3063,7 +6346,7 @@ let tr_receiver h deq zdecomp unzl c dest st m =
            | _ -> tr_r_fail st)
         | RpMd5 (p0, w) ->
           (match m with
-           | TrMd5 d -> tr_r_md5 h deq c dest st p0 w d
+           | TrMd5 d -> tr_r_md5 h deq aparse c dest st p0 w d
            | _ -> tr_r_fail st)
         | RpExit ->
           (match m with
@@ -3084,6 +6367,16 @@ let tr_receiver h deq zdecomp unzl c dest st m =
           (match m with
            | TrName p0 -> tr_r_name c dest st p0
            | _ -> tr_r_fail st)
+        | RpHSize (p0, leaf, old) ->
+          (match m with
+           | TrSize n ->
+             ((tr_r_phase st (RpHash (p0, leaf, old, n, r_init))), [])
+           | _ -> tr_r_fail st)
+        | RpHash (p0, leaf, old, ssize, r) ->
+          (match m with
+           | TrHash (step, h0) -> tr_r_hash hx st p0 leaf old ssize r step h0
+           | TrHashOver -> tr_r_over st p0 leaf old ssize r
+           | _ -> tr_r_fail st)
         | RpSize p0 ->
           (match m with
            | TrSize n -> tr_r_size c st p0 n
@@ -3096,7 +6389,8 @@ let tr_receiver h deq zdecomp unzl c dest st m =
            | _ -> tr_r_fail st)
         | RpData (p0, size0, cp, acc0, steps0) ->
           (match m with
-           | TrData f -> tr_r_frame zdecomp c st p0 size0 cp acc0 steps0 f
+           | TrData f ->
+             tr_r_frame zdecomp aparse c st p0 size0 cp acc0 steps0 f
            | TrKeepAlive -> tr_r_stay st
            | _ -> tr_r_fail st)
         | RpV1 (p0, size0, w) ->
@@ -3105,7 +6399,7 @@ let tr_receiver h deq zdecomp unzl c dest st m =
            | _ -> tr_r_fail st)
         | RpMd5 (p0, w) ->
           (match m with
-           | TrMd5 d -> tr_r_md5 h deq c dest st p0 w d
+           | TrMd5 d -> tr_r_md5 h deq aparse c dest st p0 w d
            | _ -> tr_r_fail st)
         | RpExit ->
           (match m with
@@ -3126,6 +6420,16 @@ let tr_receiver h deq zdecomp unzl c dest st m =
           (match m with
            | TrName p0 -> tr_r_name c dest st p0
            | _ -> tr_r_fail st)
+        | RpHSize (p0, leaf, old) ->
+          (match m with
+           | TrSize n ->
+             ((tr_r_phase st (RpHash (p0, leaf, old, n, r_init))), [])
+           | _ -> tr_r_fail st)
+        | RpHash (p0, leaf, old, ssize, r) ->
+          (match m with
+           | TrHash (step, h0) -> tr_r_hash hx st p0 leaf old ssize r step h0
+           | TrHashOver -> tr_r_over st p0 leaf old ssize r
+           | _ -> tr_r_fail st)
         | RpSize p0 ->
           (match m with
            | TrSize n -> tr_r_size c st p0 n
@@ -3138,7 +6442,8 @@ let tr_receiver h deq zdecomp unzl c dest st m =
            | _ -> tr_r_fail st)
         | RpData (p0, size0, cp, acc0, steps0) ->
           (match m with
-           | TrData f -> tr_r_frame zdecomp c st p0 size0 cp acc0 steps0 f
+           | TrData f ->
+             tr_r_frame zdecomp aparse c st p0 size0 cp acc0 steps0 f
            | TrKeepAlive -> tr_r_stay st
            | _ -> tr_r_fail st)
         | RpV1 (p0, size0, w) ->
@@ -3147,7 +6452,7 @@ let tr_receiver h deq zdecomp unzl c dest st m =
            | _ -> tr_r_fail st)
         | RpMd5 (p0, w) ->
           (match m with
-           | TrMd5 d -> tr_r_md5 h deq c dest st p0 w d
+           | TrMd5 d -> tr_r_md5 h deq aparse c dest st p0 w d
            | _ -> tr_r_fail st)
         | RpExit ->
           (match m with
@@ -3168,6 +6473,16 @@ let tr_receiver h deq zdecomp unzl c dest st m =
           (match m with
            | TrName p0 -> tr_r_name c dest st p0
            | _ -> tr_r_fail st)
+        | RpHSize (p0, leaf, old) ->
+          (match m with
+           | TrSize n ->
+             ((tr_r_phase st (RpHash (p0, leaf, old, n, r_init))), [])
+           | _ -> tr_r_fail st)
+        | RpHash (p0, leaf, old, ssize, r) ->
+          (match m with
+           | TrHash (step, h0) -> tr_r_hash hx st p0 leaf old ssize r step h0
+           | TrHashOver -> tr_r_over st p0 leaf old ssize r
+           | _ -> tr_r_fail st)
         | RpSize p0 ->
           (match m with
            | TrSize n -> tr_r_size c st p0 n
@@ -3180,7 +6495,8 @@ let tr_receiver h deq zdecomp unzl c dest st m =
            | _ -> tr_r_fail st)
         | RpData (p0, size0, cp, acc0, steps0) ->
           (match m with
-           | TrData f -> tr_r_frame zdecomp c st p0 size0 cp acc0 steps0 f
+           | TrData f ->
+             tr_r_frame zdecomp aparse c st p0 size0 cp acc0 steps0 f
            | TrKeepAlive -> tr_r_stay st
            | _ -> tr_r_fail st)
         | RpV1 (p0, size0, w) ->
@@ -3189,7 +6505,113 @@ let tr_receiver h deq zdecomp unzl c dest st m =
            | _ -> tr_r_fail st)
         | RpMd5 (p0, w) ->
           (match m with
-           | TrMd5 d -> tr_r_md5 h deq c dest st p0 w d
+           | TrMd5 d -> tr_r_md5 h deq aparse c dest st p0 w d
+           | _ -> tr_r_fail st)
+        | RpExit ->
+          (match m with
+           | TrExit _ -> ((tr_r_phase st RpDone), [])
+           | _ -> tr_r_fail st)
+        | _ -> tr_r_stay st)
+     | TrHash (_, _) ->
+       (match ph with
+        | RpNum ->
+          (match m with
+           | TrNum n ->
+             let (st', outs) =
+               tr_r_next c (N.to_nat n) st.rs_st st.rs_names st.rs_sched
+             in
+             (st', ((TrSuccInt n) :: outs))
+           | _ -> tr_r_fail st)
+        | RpName ->
+          (match m with
+           | TrName p0 -> tr_r_name c dest st p0
+           | _ -> tr_r_fail st)
+        | RpHSize (p0, leaf, old) ->
+          (match m with
+           | TrSize n ->
+             ((tr_r_phase st (RpHash (p0, leaf, old, n, r_init))), [])
+           | _ -> tr_r_fail st)
+        | RpHash (p0, leaf, old, ssize, r) ->
+          (match m with
+           | TrHash (step, h0) -> tr_r_hash hx st p0 leaf old ssize r step h0
+           | TrHashOver -> tr_r_over st p0 leaf old ssize r
+           | _ -> tr_r_fail st)
+        | RpSize p0 ->
+          (match m with
+           | TrSize n -> tr_r_size c st p0 n
+           | _ -> tr_r_fail st)
+        | RpComp (p0, size0) ->
+          (match m with
+           | TrComp b ->
+             ((tr_r_phase st (RpData (p0, size0, b, [],
+                (tr_cur_sched st).sc_steps))), [])
+           | _ -> tr_r_fail st)
+        | RpData (p0, size0, cp, acc0, steps0) ->
+          (match m with
+           | TrData f ->
+             tr_r_frame zdecomp aparse c st p0 size0 cp acc0 steps0 f
+           | TrKeepAlive -> tr_r_stay st
+           | _ -> tr_r_fail st)
+        | RpV1 (p0, size0, w) ->
+          (match m with
+           | TrData pl -> tr_r_v1 unzl c st p0 size0 w pl
+           | _ -> tr_r_fail st)
+        | RpMd5 (p0, w) ->
+          (match m with
+           | TrMd5 d -> tr_r_md5 h deq aparse c dest st p0 w d
+           | _ -> tr_r_fail st)
+        | RpExit ->
+          (match m with
+           | TrExit _ -> ((tr_r_phase st RpDone), [])
+           | _ -> tr_r_fail st)
+        | _ -> tr_r_stay st)
+     | TrHashOver ->
+       (match ph with
+        | RpNum ->
+          (match m with
+           | TrNum n ->
+             let (st', outs) =
+               tr_r_next c (N.to_nat n) st.rs_st st.rs_names st.rs_sched
+             in
+             (st', ((TrSuccInt n) :: outs))
+           | _ -> tr_r_fail st)
+        | RpName ->
+          (match m with
+           | TrName p0 -> tr_r_name c dest st p0
+           | _ -> tr_r_fail st)
+        | RpHSize (p0, leaf, old) ->
+          (match m with
+           | TrSize n ->
+             ((tr_r_phase st (RpHash (p0, leaf, old, n, r_init))), [])
+           | _ -> tr_r_fail st)
+        | RpHash (p0, leaf, old, ssize, r) ->
+          (match m with
+           | TrHash (step, h0) -> tr_r_hash hx st p0 leaf old ssize r step h0
+           | TrHashOver -> tr_r_over st p0 leaf old ssize r
+           | _ -> tr_r_fail st)
+        | RpSize p0 ->
+          (match m with
+           | TrSize n -> tr_r_size c st p0 n
+           | _ -> tr_r_fail st)
+        | RpComp (p0, size0) ->
+          (match m with
+           | TrComp b ->
+             ((tr_r_phase st (RpData (p0, size0, b, [],
+                (tr_cur_sched st).sc_steps))), [])
+           | _ -> tr_r_fail st)
+        | RpData (p0, size0, cp, acc0, steps0) ->
+          (match m with
+           | TrData f ->
+             tr_r_frame zdecomp aparse c st p0 size0 cp acc0 steps0 f
+           | TrKeepAlive -> tr_r_stay st
+           | _ -> tr_r_fail st)
+        | RpV1 (p0, size0, w) ->
+          (match m with
+           | TrData pl -> tr_r_v1 unzl c st p0 size0 w pl
+           | _ -> tr_r_fail st)
+        | RpMd5 (p0, w) ->
+          (match m with
+           | TrMd5 d -> tr_r_md5 h deq aparse c dest st p0 w d
            | _ -> tr_r_fail st)
         | RpExit ->
           (match m with
@@ -3210,6 +6632,16 @@ let tr_receiver h deq zdecomp unzl c dest st m =
           (match m with
            | TrName p0 -> tr_r_name c dest st p0
            | _ -> tr_r_fail st)
+        | RpHSize (p0, leaf, old) ->
+          (match m with
+           | TrSize n ->
+             ((tr_r_phase st (RpHash (p0, leaf, old, n, r_init))), [])
+           | _ -> tr_r_fail st)
+        | RpHash (p0, leaf, old, ssize, r) ->
+          (match m with
+           | TrHash (step, h0) -> tr_r_hash hx st p0 leaf old ssize r step h0
+           | TrHashOver -> tr_r_over st p0 leaf old ssize r
+           | _ -> tr_r_fail st)
         | RpSize p0 ->
           (match m with
            | TrSize n -> tr_r_size c st p0 n
@@ -3222,7 +6654,8 @@ let tr_receiver h deq zdecomp unzl c dest st m =
            | _ -> tr_r_fail st)
         | RpData (p0, size0, cp, acc0, steps0) ->
           (match m with
-           | TrData f -> tr_r_frame zdecomp c st p0 size0 cp acc0 steps0 f
+           | TrData f ->
+             tr_r_frame zdecomp aparse c st p0 size0 cp acc0 steps0 f
            | TrKeepAlive -> tr_r_stay st
            | _ -> tr_r_fail st)
         | RpV1 (p0, size0, w) ->
@@ -3231,7 +6664,7 @@ let tr_receiver h deq zdecomp unzl c dest st m =
            | _ -> tr_r_fail st)
         | RpMd5 (p0, w) ->
           (match m with
-           | TrMd5 d -> tr_r_md5 h deq c dest st p0 w d
+           | TrMd5 d -> tr_r_md5 h deq aparse c dest st p0 w d
            | _ -> tr_r_fail st)
         | RpExit ->
           (match m with
@@ -3252,6 +6685,16 @@ let tr_receiver h deq zdecomp unzl c dest st m =
           (match m with
            | TrName p0 -> tr_r_name c dest st p0
            | _ -> tr_r_fail st)
+        | RpHSize (p0, leaf, old) ->
+          (match m with
+           | TrSize n ->
+             ((tr_r_phase st (RpHash (p0, leaf, old, n, r_init))), [])
+           | _ -> tr_r_fail st)
+        | RpHash (p0, leaf, old, ssize, r) ->
+          (match m with
+           | TrHash (step, h0) -> tr_r_hash hx st p0 leaf old ssize r step h0
+           | TrHashOver -> tr_r_over st p0 leaf old ssize r
+           | _ -> tr_r_fail st)
         | RpSize p0 ->
           (match m with
            | TrSize n -> tr_r_size c st p0 n
@@ -3264,7 +6707,8 @@ let tr_receiver h deq zdecomp unzl c dest st m =
            | _ -> tr_r_fail st)
         | RpData (p0, size0, cp, acc0, steps0) ->
           (match m with
-           | TrData f -> tr_r_frame zdecomp c st p0 size0 cp acc0 steps0 f
+           | TrData f ->
+             tr_r_frame zdecomp aparse c st p0 size0 cp acc0 steps0 f
            | TrKeepAlive -> tr_r_stay st
            | _ -> tr_r_fail st)
         | RpV1 (p0, size0, w) ->
@@ -3273,7 +6717,7 @@ let tr_receiver h deq zdecomp unzl c dest st m =
            | _ -> tr_r_fail st)
         | RpMd5 (p0, w) ->
           (match m with
-           | TrMd5 d -> tr_r_md5 h deq c dest st p0 w d
+           | TrMd5 d -> tr_r_md5 h deq aparse c dest st p0 w d
            | _ -> tr_r_fail st)
         | RpExit ->
           (match m with
@@ -3294,6 +6738,16 @@ let tr_receiver h deq zdecomp unzl c dest st m =
           (match m with
            | TrName p0 -> tr_r_name c dest st p0
            | _ -> tr_r_fail st)
+        | RpHSize (p0, leaf, old) ->
+          (match m with
+           | TrSize n ->
+             ((tr_r_phase st (RpHash (p0, leaf, old, n, r_init))), [])
+           | _ -> tr_r_fail st)
+        | RpHash (p0, leaf, old, ssize, r) ->
+          (match m with
+           | TrHash (step, h0) -> tr_r_hash hx st p0 leaf old ssize r step h0
+           | TrHashOver -> tr_r_over st p0 leaf old ssize r
+           | _ -> tr_r_fail st)
         | RpSize p0 ->
           (match m with
            | TrSize n -> tr_r_size c st p0 n
@@ -3306,7 +6760,8 @@ let tr_receiver h deq zdecomp unzl c dest st m =
            | _ -> tr_r_fail st)
         | RpData (p0, size0, cp, acc0, steps0) ->
           (match m with
-           | TrData f -> tr_r_frame zdecomp c st p0 size0 cp acc0 steps0 f
+           | TrData f ->
+             tr_r_frame zdecomp aparse c st p0 size0 cp acc0 steps0 f
            | TrKeepAlive -> tr_r_stay st
            | _ -> tr_r_fail st)
         | RpV1 (p0, size0, w) ->
@@ -3315,7 +6770,7 @@ let tr_receiver h deq zdecomp unzl c dest st m =
            | _ -> tr_r_fail st)
         | RpMd5 (p0, w) ->
           (match m with
-           | TrMd5 d -> tr_r_md5 h deq c dest st p0 w d
+           | TrMd5 d -> tr_r_md5 h deq aparse c dest st p0 w d
            | _ -> tr_r_fail st)
         | RpExit ->
           (match m with
@@ -3336,6 +6791,16 @@ let tr_receiver h deq zdecomp unzl c dest st m =
           (match m with
            | TrName p0 -> tr_r_name c dest st p0
            | _ -> tr_r_fail st)
+        | RpHSize (p0, leaf, old) ->
+          (match m with
+           | TrSize n ->
+             ((tr_r_phase st (RpHash (p0, leaf, old, n, r_init))), [])
+           | _ -> tr_r_fail st)
+        | RpHash (p0, leaf, old, ssize, r) ->
+          (match m with
+           | TrHash (step, h0) -> tr_r_hash hx st p0 leaf old ssize r step h0
+           | TrHashOver -> tr_r_over st p0 leaf old ssize r
+           | _ -> tr_r_fail st)
         | RpSize p0 ->
           (match m with
            | TrSize n -> tr_r_size c st p0 n
@@ -3348,7 +6813,8 @@ let tr_receiver h deq zdecomp unzl c dest st m =
            | _ -> tr_r_fail st)
         | RpData (p0, size0, cp, acc0, steps0) ->
           (match m with
-           | TrData f -> tr_r_frame zdecomp c st p0 size0 cp acc0 steps0 f
+           | TrData f ->
+             tr_r_frame zdecomp aparse c st p0 size0 cp acc0 steps0 f
            | TrKeepAlive -> tr_r_stay st
            | _ -> tr_r_fail st)
         | RpV1 (p0, size0, w) ->
@@ -3357,7 +6823,7 @@ let tr_receiver h deq zdecomp unzl c dest st m =
            | _ -> tr_r_fail st)
         | RpMd5 (p0, w) ->
           (match m with
-           | TrMd5 d -> tr_r_md5 h deq c dest st p0 w d
+           | TrMd5 d -> tr_r_md5 h deq aparse c dest st p0 w d
            | _ -> tr_r_fail st)
         | RpExit ->
           (match m with
@@ -3378,6 +6844,16 @@ let tr_receiver h deq zdecomp unzl c dest st m =
           (match m with
            | TrName p0 -> tr_r_name c dest st p0
            | _ -> tr_r_fail st)
+        | RpHSize (p0, leaf, old) ->
+          (match m with
+           | TrSize n ->
+             ((tr_r_phase st (RpHash (p0, leaf, old, n, r_init))), [])
+           | _ -> tr_r_fail st)
+        | RpHash (p0, leaf, old, ssize, r) ->
+          (match m with
+           | TrHash (step, h0) -> tr_r_hash hx st p0 leaf old ssize r step h0
+           | TrHashOver -> tr_r_over st p0 leaf old ssize r
+           | _ -> tr_r_fail st)
         | RpSize p0 ->
           (match m with
            | TrSize n -> tr_r_size c st p0 n
@@ -3390,7 +6866,8 @@ let tr_receiver h deq zdecomp unzl c dest st m =
            | _ -> tr_r_fail st)
         | RpData (p0, size0, cp, acc0, steps0) ->
           (match m with
-           | TrData f -> tr_r_frame zdecomp c st p0 size0 cp acc0 steps0 f
+           | TrData f ->
+             tr_r_frame zdecomp aparse c st p0 size0 cp acc0 steps0 f
            | TrKeepAlive -> tr_r_stay st
            | _ -> tr_r_fail st)
         | RpV1 (p0, size0, w) ->
@@ -3399,7 +6876,60 @@ let tr_receiver h deq zdecomp unzl c dest st m =
            | _ -> tr_r_fail st)
         | RpMd5 (p0, w) ->
           (match m with
-           | TrMd5 d -> tr_r_md5 h deq c dest st p0 w d
+           | TrMd5 d -> tr_r_md5 h deq aparse c dest st p0 w d
+           | _ -> tr_r_fail st)
+        | RpExit ->
+          (match m with
+           | TrExit _ -> ((tr_r_phase st RpDone), [])
+           | _ -> tr_r_fail st)
+        | _ -> tr_r_stay st)
+     | TrSuccHack (_, _) ->
+       (match ph with
+        | RpNum ->
+          (match m with
+           | TrNum n ->
+             let (st', outs) =
+               tr_r_next c (N.to_nat n) st.rs_st st.rs_names st.rs_sched
+             in
+             (st', ((TrSuccInt n) :: outs))
+           | _ -> tr_r_fail st)
+        | RpName ->
+          (match m with
+           | TrName p0 -> tr_r_name c dest st p0
+           | _ -> tr_r_fail st)
+        | RpHSize (p0, leaf, old) ->
+          (match m with
+           | TrSize n ->
+             ((tr_r_phase st (RpHash (p0, leaf, old, n, r_init))), [])
+           | _ -> tr_r_fail st)
+        | RpHash (p0, leaf, old, ssize, r) ->
+          (match m with
+           | TrHash (step, h0) -> tr_r_hash hx st p0 leaf old ssize r step h0
+           | TrHashOver -> tr_r_over st p0 leaf old ssize r
+           | _ -> tr_r_fail st)
+        | RpSize p0 ->
+          (match m with
+           | TrSize n -> tr_r_size c st p0 n
+           | _ -> tr_r_fail st)
+        | RpComp (p0, size0) ->
+          (match m with
+           | TrComp b ->
+             ((tr_r_phase st (RpData (p0, size0, b, [],
+                (tr_cur_sched st).sc_steps))), [])
+           | _ -> tr_r_fail st)
+        | RpData (p0, size0, cp, acc0, steps0) ->
+          (match m with
+           | TrData f ->
+             tr_r_frame zdecomp aparse c st p0 size0 cp acc0 steps0 f
+           | TrKeepAlive -> tr_r_stay st
+           | _ -> tr_r_fail st)
+        | RpV1 (p0, size0, w) ->
+          (match m with
+           | TrData pl -> tr_r_v1 unzl c st p0 size0 w pl
+           | _ -> tr_r_fail st)
+        | RpMd5 (p0, w) ->
+          (match m with
+           | TrMd5 d -> tr_r_md5 h deq aparse c dest st p0 w d
            | _ -> tr_r_fail st)
         | RpExit ->
           (match m with
@@ -3420,6 +6950,16 @@ let tr_receiver h deq zdecomp unzl c dest st m =
           (match m with
            | TrName p0 -> tr_r_name c dest st p0
            | _ -> tr_r_fail st)
+        | RpHSize (p0, leaf, old) ->
+          (match m with
+           | TrSize n ->
+             ((tr_r_phase st (RpHash (p0, leaf, old, n, r_init))), [])
+           | _ -> tr_r_fail st)
+        | RpHash (p0, leaf, old, ssize, r) ->
+          (match m with
+           | TrHash (step, h0) -> tr_r_hash hx st p0 leaf old ssize r step h0
+           | TrHashOver -> tr_r_over st p0 leaf old ssize r
+           | _ -> tr_r_fail st)
         | RpSize p0 ->
           (match m with
            | TrSize n -> tr_r_size c st p0 n
@@ -3432,7 +6972,8 @@ let tr_receiver h deq zdecomp unzl c dest st m =
            | _ -> tr_r_fail st)
         | RpData (p0, size0, cp, acc0, steps0) ->
           (match m with
-           | TrData f -> tr_r_frame zdecomp c st p0 size0 cp acc0 steps0 f
+           | TrData f ->
+             tr_r_frame zdecomp aparse c st p0 size0 cp acc0 steps0 f
            | TrKeepAlive -> tr_r_stay st
            | _ -> tr_r_fail st)
         | RpV1 (p0, size0, w) ->
@@ -3441,7 +6982,7 @@ let tr_receiver h deq zdecomp unzl c dest st m =
            | _ -> tr_r_fail st)
         | RpMd5 (p0, w) ->
           (match m with
-           | TrMd5 d -> tr_r_md5 h deq c dest st p0 w d
+           | TrMd5 d -> tr_r_md5 h deq aparse c dest st p0 w d
            | _ -> tr_r_fail st)
         | RpExit ->
           (match m with
@@ -3466,6 +7007,16 @@ let tr_receiver h deq zdecomp unzl c dest st m =
           (match m with
            | TrName p0 -> tr_r_name c dest st p0
            | _ -> tr_r_fail st)
+        | RpHSize (p0, leaf, old) ->
+          (match m with
+           | TrSize n ->
+             ((tr_r_phase st (RpHash (p0, leaf, old, n, r_init))), [])
+           | _ -> tr_r_fail st)
+        | RpHash (p0, leaf, old, ssize, r) ->
+          (match m with
+           | TrHash (step, h0) -> tr_r_hash hx st p0 leaf old ssize r step h0
+           | TrHashOver -> tr_r_over st p0 leaf old ssize r
+           | _ -> tr_r_fail st)
         | RpSize p0 ->
           (match m with
            | TrSize n -> tr_r_size c st p0 n
@@ -3478,7 +7029,8 @@ let tr_receiver h deq zdecomp unzl c dest st m =
            | _ -> tr_r_fail st)
         | RpData (p0, size0, cp, acc, steps) ->
           (match m with
-           | TrData f -> tr_r_frame zdecomp c st p0 size0 cp acc steps f
+           | TrData f ->
+             tr_r_frame zdecomp aparse c st p0 size0 cp acc steps f
            | TrKeepAlive -> tr_r_stay st
            | _ -> tr_r_fail st)
         | RpV1 (p0, size0, w0) ->
@@ -3487,7 +7039,7 @@ let tr_receiver h deq zdecomp unzl c dest st m =
            | _ -> tr_r_fail st)
         | RpMd5 (p0, w0) ->
           (match m with
-           | TrMd5 d -> tr_r_md5 h deq c dest st p0 w0 d
+           | TrMd5 d -> tr_r_md5 h deq aparse c dest st p0 w0 d
            | _ -> tr_r_fail st)
         | RpExit ->
           (match m with
@@ -3508,6 +7060,16 @@ let tr_receiver h deq zdecomp unzl c dest st m =
           (match m with
            | TrName p0 -> tr_r_name c dest st p0
            | _ -> tr_r_fail st)
+        | RpHSize (p0, leaf, old) ->
+          (match m with
+           | TrSize n ->
+             ((tr_r_phase st (RpHash (p0, leaf, old, n, r_init))), [])
+           | _ -> tr_r_fail st)
+        | RpHash (p0, leaf, old, ssize, r) ->
+          (match m with
+           | TrHash (step, h0) -> tr_r_hash hx st p0 leaf old ssize r step h0
+           | TrHashOver -> tr_r_over st p0 leaf old ssize r
+           | _ -> tr_r_fail st)
         | RpSize p0 ->
           (match m with
            | TrSize n -> tr_r_size c st p0 n
@@ -3520,7 +7082,8 @@ let tr_receiver h deq zdecomp unzl c dest st m =
            | _ -> tr_r_fail st)
         | RpData (p0, size0, cp, acc, steps) ->
           (match m with
-           | TrData f -> tr_r_frame zdecomp c st p0 size0 cp acc steps f
+           | TrData f ->
+             tr_r_frame zdecomp aparse c st p0 size0 cp acc steps f
            | TrKeepAlive -> tr_r_stay st
            | _ -> tr_r_fail st)
         | RpV1 (p0, size0, w0) ->
@@ -3529,7 +7092,7 @@ let tr_receiver h deq zdecomp unzl c dest st m =
            | _ -> tr_r_fail st)
         | RpMd5 (p0, w0) ->
           (match m with
-           | TrMd5 d -> tr_r_md5 h deq c dest st p0 w0 d
+           | TrMd5 d -> tr_r_md5 h deq aparse c dest st p0 w0 d
            | _ -> tr_r_fail st)
         | RpExit ->
           (match m with
@@ -3550,6 +7113,16 @@ let tr_receiver h deq zdecomp unzl c dest st m =
           (match m with
            | TrName p0 -> tr_r_name c dest st p0
            | _ -> tr_r_fail st)
+        | RpHSize (p0, leaf, old) ->
+          (match m with
+           | TrSize n ->
+             ((tr_r_phase st (RpHash (p0, leaf, old, n, r_init))), [])
+           | _ -> tr_r_fail st)
+        | RpHash (p0, leaf, old, ssize, r) ->
+          (match m with
+           | TrHash (step, h0) -> tr_r_hash hx st p0 leaf old ssize r step h0
+           | TrHashOver -> tr_r_over st p0 leaf old ssize r
+           | _ -> tr_r_fail st)
         | RpSize p0 ->
           (match m with
            | TrSize n -> tr_r_size c st p0 n
@@ -3562,7 +7135,8 @@ let tr_receiver h deq zdecomp unzl c dest st m =
            | _ -> tr_r_fail st)
         | RpData (p0, size0, cp, acc, steps) ->
           (match m with
-           | TrData f -> tr_r_frame zdecomp c st p0 size0 cp acc steps f
+           | TrData f ->
+             tr_r_frame zdecomp aparse c st p0 size0 cp acc steps f
            | TrKeepAlive -> tr_r_stay st
            | _ -> tr_r_fail st)
         | RpV1 (p0, size0, w0) ->
@@ -3571,7 +7145,7 @@ let tr_receiver h deq zdecomp unzl c dest st m =
            | _ -> tr_r_fail st)
         | RpMd5 (p0, w0) ->
           (match m with
-           | TrMd5 d -> tr_r_md5 h deq c dest st p0 w0 d
+           | TrMd5 d -> tr_r_md5 h deq aparse c dest st p0 w0 d
            | _ -> tr_r_fail st)
         | RpExit ->
           (match m with
@@ -3592,6 +7166,16 @@ let tr_receiver h deq zdecomp unzl c dest st m =
           (match m with
            | TrName p0 -> tr_r_name c dest st p0
            | _ -> tr_r_fail st)
+        | RpHSize (p0, leaf, old) ->
+          (match m with
+           | TrSize n ->
+             ((tr_r_phase st (RpHash (p0, leaf, old, n, r_init))), [])
+           | _ -> tr_r_fail st)
+        | RpHash (p0, leaf, old, ssize, r) ->
+          (match m with
+           | TrHash (step, h0) -> tr_r_hash hx st p0 leaf old ssize r step h0
+           | TrHashOver -> tr_r_over st p0 leaf old ssize r
+           | _ -> tr_r_fail st)
         | RpSize p0 ->
           (match m with
            | TrSize n -> tr_r_size c st p0 n
@@ -3604,7 +7188,8 @@ let tr_receiver h deq zdecomp unzl c dest st m =
            | _ -> tr_r_fail st)
         | RpData (p0, size0, cp, acc, steps) ->
           (match m with
-           | TrData f -> tr_r_frame zdecomp c st p0 size0 cp acc steps f
+           | TrData f ->
+             tr_r_frame zdecomp aparse c st p0 size0 cp acc steps f
            | TrKeepAlive -> tr_r_stay st
            | _ -> tr_r_fail st)
         | RpV1 (p0, size0, w0) ->
@@ -3613,7 +7198,7 @@ let tr_receiver h deq zdecomp unzl c dest st m =
            | _ -> tr_r_fail st)
         | RpMd5 (p0, w0) ->
           (match m with
-           | TrMd5 d -> tr_r_md5 h deq c dest st p0 w0 d
+           | TrMd5 d -> tr_r_md5 h deq aparse c dest st p0 w0 d
            | _ -> tr_r_fail st)
         | RpExit ->
           (match m with
@@ -3634,6 +7219,16 @@ let tr_receiver h deq zdecomp unzl c dest st m =
           (match m with
            | TrName p0 -> tr_r_name c dest st p0
            | _ -> tr_r_fail st)
+        | RpHSize (p0, leaf, old) ->
+          (match m with
+           | TrSize n ->
+             ((tr_r_phase st (RpHash (p0, leaf, old, n, r_init))), [])
+           | _ -> tr_r_fail st)
+        | RpHash (p0, leaf, old, ssize, r) ->
+          (match m with
+           | TrHash (step, h0) -> tr_r_hash hx st p0 leaf old ssize r step h0
+           | TrHashOver -> tr_r_over st p0 leaf old ssize r
+           | _ -> tr_r_fail st)
         | RpSize p0 ->
           (match m with
            | TrSize n -> tr_r_size c st p0 n
@@ -3646,7 +7241,8 @@ let tr_receiver h deq zdecomp unzl c dest st m =
            | _ -> tr_r_fail st)
         | RpData (p0, size0, cp, acc, steps) ->
           (match m with
-           | TrData f -> tr_r_frame zdecomp c st p0 size0 cp acc steps f
+           | TrData f ->
+             tr_r_frame zdecomp aparse c st p0 size0 cp acc steps f
            | TrKeepAlive -> tr_r_stay st
            | _ -> tr_r_fail st)
         | RpV1 (p0, size0, w0) ->
@@ -3655,7 +7251,7 @@ let tr_receiver h deq zdecomp unzl c dest st m =
            | _ -> tr_r_fail st)
         | RpMd5 (p0, w0) ->
           (match m with
-           | TrMd5 d -> tr_r_md5 h deq c dest st p0 w0 d
+           | TrMd5 d -> tr_r_md5 h deq aparse c dest st p0 w0 d
            | _ -> tr_r_fail st)
         | RpExit ->
           (match m with
@@ -3676,6 +7272,16 @@ let tr_receiver h deq zdecomp unzl c dest st m =
           (match m with
            | TrName p0 -> tr_r_name c dest st p0
            | _ -> tr_r_fail st)
+        | RpHSize (p0, leaf, old) ->
+          (match m with
+           | TrSize n ->
+             ((tr_r_phase st (RpHash (p0, leaf, old, n, r_init))), [])
+           | _ -> tr_r_fail st)
+        | RpHash (p0, leaf, old, ssize, r) ->
+          (match m with
+           | TrHash (step, h0) -> tr_r_hash hx st p0 leaf old ssize r step h0
+           | TrHashOver -> tr_r_over st p0 leaf old ssize r
+           | _ -> tr_r_fail st)
         | RpSize p0 ->
           (match m with
            | TrSize n -> tr_r_size c st p0 n
@@ -3688,7 +7294,8 @@ let tr_receiver h deq zdecomp unzl c dest st m =
            | _ -> tr_r_fail st)
         | RpData (p0, size0, cp, acc, steps) ->
           (match m with
-           | TrData f -> tr_r_frame zdecomp c st p0 size0 cp acc steps f
+           | TrData f ->
+             tr_r_frame zdecomp aparse c st p0 size0 cp acc steps f
            | TrKeepAlive -> tr_r_stay st
            | _ -> tr_r_fail st)
         | RpV1 (p0, size0, w0) ->
@@ -3697,7 +7304,7 @@ let tr_receiver h deq zdecomp unzl c dest st m =
            | _ -> tr_r_fail st)
         | RpMd5 (p0, w0) ->
           (match m with
-           | TrMd5 d -> tr_r_md5 h deq c dest st p0 w0 d
+           | TrMd5 d -> tr_r_md5 h deq aparse c dest st p0 w0 d
            | _ -> tr_r_fail st)
         | RpExit ->
           (match m with
@@ -3718,6 +7325,16 @@ let tr_receiver h deq zdecomp unzl c dest st m =
           (match m with
            | TrName p0 -> tr_r_name c dest st p0
            | _ -> tr_r_fail st)
+        | RpHSize (p0, leaf, old) ->
+          (match m with
+           | TrSize n ->
+             ((tr_r_phase st (RpHash (p0, leaf, old, n, r_init))), [])
+           | _ -> tr_r_fail st)
+        | RpHash (p0, leaf, old, ssize, r) ->
+          (match m with
+           | TrHash (step, h0) -> tr_r_hash hx st p0 leaf old ssize r step h0
+           | TrHashOver -> tr_r_over st p0 leaf old ssize r
+           | _ -> tr_r_fail st)
         | RpSize p0 ->
           (match m with
            | TrSize n -> tr_r_size c st p0 n
@@ -3730,7 +7347,8 @@ let tr_receiver h deq zdecomp unzl c dest st m =
            | _ -> tr_r_fail st)
         | RpData (p0, size0, cp, acc, steps) ->
           (match m with
-           | TrData f -> tr_r_frame zdecomp c st p0 size0 cp acc steps f
+           | TrData f ->
+             tr_r_frame zdecomp aparse c st p0 size0 cp acc steps f
            | TrKeepAlive -> tr_r_stay st
            | _ -> tr_r_fail st)
         | RpV1 (p0, size0, w0) ->
@@ -3739,7 +7357,113 @@ let tr_receiver h deq zdecomp unzl c dest st m =
            | _ -> tr_r_fail st)
         | RpMd5 (p0, w0) ->
           (match m with
-           | TrMd5 d -> tr_r_md5 h deq c dest st p0 w0 d
+           | TrMd5 d -> tr_r_md5 h deq aparse c dest st p0 w0 d
+           | _ -> tr_r_fail st)
+        | RpExit ->
+          (match m with
+           | TrExit _ -> ((tr_r_phase st RpDone), [])
+           | _ -> tr_r_fail st)
+        | _ -> tr_r_stay st)
+     | TrHash (_, _) ->
+       (match ph with
+        | RpNum ->
+          (match m with
+           | TrNum n ->
+             let (st', outs) =
+               tr_r_next c (N.to_nat n) st.rs_st st.rs_names st.rs_sched
+             in
+             (st', ((TrSuccInt n) :: outs))
+           | _ -> tr_r_fail st)
+        | RpName ->
+          (match m with
+           | TrName p0 -> tr_r_name c dest st p0
+           | _ -> tr_r_fail st)
+        | RpHSize (p0, leaf, old) ->
+          (match m with
+           | TrSize n ->
+             ((tr_r_phase st (RpHash (p0, leaf, old, n, r_init))), [])
+           | _ -> tr_r_fail st)
+        | RpHash (p0, leaf, old, ssize, r) ->
+          (match m with
+           | TrHash (step, h0) -> tr_r_hash hx st p0 leaf old ssize r step h0
+           | TrHashOver -> tr_r_over st p0 leaf old ssize r
+           | _ -> tr_r_fail st)
+        | RpSize p0 ->
+          (match m with
+           | TrSize n -> tr_r_size c st p0 n
+           | _ -> tr_r_fail st)
+        | RpComp (p0, size0) ->
+          (match m with
+           | TrComp b ->
+             ((tr_r_phase st (RpData (p0, size0, b, [],
+                (tr_cur_sched st).sc_steps))), [])
+           | _ -> tr_r_fail st)
+        | RpData (p0, size0, cp, acc, steps) ->
+          (match m with
+           | TrData f ->
+             tr_r_frame zdecomp aparse c st p0 size0 cp acc steps f
+           | TrKeepAlive -> tr_r_stay st
+           | _ -> tr_r_fail st)
+        | RpV1 (p0, size0, w0) ->
+          (match m with
+           | TrData pl -> tr_r_v1 unzl c st p0 size0 w0 pl
+           | _ -> tr_r_fail st)
+        | RpMd5 (p0, w0) ->
+          (match m with
+           | TrMd5 d -> tr_r_md5 h deq aparse c dest st p0 w0 d
+           | _ -> tr_r_fail st)
+        | RpExit ->
+          (match m with
+           | TrExit _ -> ((tr_r_phase st RpDone), [])
+           | _ -> tr_r_fail st)
+        | _ -> tr_r_stay st)
+     | TrHashOver ->
+       (match ph with
+        | RpNum ->
+          (match m with
+           | TrNum n ->
+             let (st', outs) =
+               tr_r_next c (N.to_nat n) st.rs_st st.rs_names st.rs_sched
+             in
+             (st', ((TrSuccInt n) :: outs))
+           | _ -> tr_r_fail st)
+        | RpName ->
+          (match m with
+           | TrName p0 -> tr_r_name c dest st p0
+           | _ -> tr_r_fail st)
+        | RpHSize (p0, leaf, old) ->
+          (match m with
+           | TrSize n ->
+             ((tr_r_phase st (RpHash (p0, leaf, old, n, r_init))), [])
+           | _ -> tr_r_fail st)
+        | RpHash (p0, leaf, old, ssize, r) ->
+          (match m with
+           | TrHash (step, h0) -> tr_r_hash hx st p0 leaf old ssize r step h0
+           | TrHashOver -> tr_r_over st p0 leaf old ssize r
+           | _ -> tr_r_fail st)
+        | RpSize p0 ->
+          (match m with
+           | TrSize n -> tr_r_size c st p0 n
+           | _ -> tr_r_fail st)
+        | RpComp (p0, size0) ->
+          (match m with
+           | TrComp b ->
+             ((tr_r_phase st (RpData (p0, size0, b, [],
+                (tr_cur_sched st).sc_steps))), [])
+           | _ -> tr_r_fail st)
+        | RpData (p0, size0, cp, acc, steps) ->
+          (match m with
+           | TrData f ->
+             tr_r_frame zdecomp aparse c st p0 size0 cp acc steps f
+           | TrKeepAlive -> tr_r_stay st
+           | _ -> tr_r_fail st)
+        | RpV1 (p0, size0, w0) ->
+          (match m with
+           | TrData pl -> tr_r_v1 unzl c st p0 size0 w0 pl
+           | _ -> tr_r_fail st)
+        | RpMd5 (p0, w0) ->
+          (match m with
+           | TrMd5 d -> tr_r_md5 h deq aparse c dest st p0 w0 d
            | _ -> tr_r_fail st)
         | RpExit ->
           (match m with
@@ -3760,6 +7484,16 @@ let tr_receiver h deq zdecomp unzl c dest st m =
           (match m with
            | TrName p0 -> tr_r_name c dest st p0
            | _ -> tr_r_fail st)
+        | RpHSize (p0, leaf, old) ->
+          (match m with
+           | TrSize n ->
+             ((tr_r_phase st (RpHash (p0, leaf, old, n, r_init))), [])
+           | _ -> tr_r_fail st)
+        | RpHash (p0, leaf, old, ssize, r) ->
+          (match m with
+           | TrHash (step, h0) -> tr_r_hash hx st p0 leaf old ssize r step h0
+           | TrHashOver -> tr_r_over st p0 leaf old ssize r
+           | _ -> tr_r_fail st)
         | RpSize p0 ->
           (match m with
            | TrSize n -> tr_r_size c st p0 n
@@ -3772,7 +7506,8 @@ let tr_receiver h deq zdecomp unzl c dest st m =
            | _ -> tr_r_fail st)
         | RpData (p0, size0, cp, acc, steps) ->
           (match m with
-           | TrData f -> tr_r_frame zdecomp c st p0 size0 cp acc steps f
+           | TrData f ->
+             tr_r_frame zdecomp aparse c st p0 size0 cp acc steps f
            | TrKeepAlive -> tr_r_stay st
            | _ -> tr_r_fail st)
         | RpV1 (p0, size0, w0) ->
@@ -3781,7 +7516,7 @@ let tr_receiver h deq zdecomp unzl c dest st m =
            | _ -> tr_r_fail st)
         | RpMd5 (p0, w0) ->
           (match m with
-           | TrMd5 d -> tr_r_md5 h deq c dest st p0 w0 d
+           | TrMd5 d -> tr_r_md5 h deq aparse c dest st p0 w0 d
            | _ -> tr_r_fail st)
         | RpExit ->
           (match m with
@@ -3802,6 +7537,16 @@ let tr_receiver h deq zdecomp unzl c dest st m =
           (match m with
            | TrName p0 -> tr_r_name c dest st p0
            | _ -> tr_r_fail st)
+        | RpHSize (p0, leaf, old) ->
+          (match m with
+           | TrSize n ->
+             ((tr_r_phase st (RpHash (p0, leaf, old, n, r_init))), [])
+           | _ -> tr_r_fail st)
+        | RpHash (p0, leaf, old, ssize, r) ->
+          (match m with
+           | TrHash (step, h0) -> tr_r_hash hx st p0 leaf old ssize r step h0
+           | TrHashOver -> tr_r_over st p0 leaf old ssize r
+           | _ -> tr_r_fail st)
         | RpSize p0 ->
           (match m with
            | TrSize n -> tr_r_size c st p0 n
@@ -3814,7 +7559,8 @@ let tr_receiver h deq zdecomp unzl c dest st m =
            | _ -> tr_r_fail st)
         | RpData (p0, size0, cp, acc, steps) ->
           (match m with
-           | TrData f -> tr_r_frame zdecomp c st p0 size0 cp acc steps f
+           | TrData f ->
+             tr_r_frame zdecomp aparse c st p0 size0 cp acc steps f
            | TrKeepAlive -> tr_r_stay st
            | _ -> tr_r_fail st)
         | RpV1 (p0, size0, w0) ->
@@ -3823,7 +7569,7 @@ let tr_receiver h deq zdecomp unzl c dest st m =
            | _ -> tr_r_fail st)
         | RpMd5 (p0, w0) ->
           (match m with
-           | TrMd5 d -> tr_r_md5 h deq c dest st p0 w0 d
+           | TrMd5 d -> tr_r_md5 h deq aparse c dest st p0 w0 d
            | _ -> tr_r_fail st)
         | RpExit ->
           (match m with
@@ -3844,6 +7590,16 @@ let tr_receiver h deq zdecomp unzl c dest st m =
           (match m with
            | TrName p0 -> tr_r_name c dest st p0
            | _ -> tr_r_fail st)
+        | RpHSize (p0, leaf, old) ->
+          (match m with
+           | TrSize n ->
+             ((tr_r_phase st (RpHash (p0, leaf, old, n, r_init))), [])
+           | _ -> tr_r_fail st)
+        | RpHash (p0, leaf, old, ssize, r) ->
+          (match m with
+           | TrHash (step, h0) -> tr_r_hash hx st p0 leaf old ssize r step h0
+           | TrHashOver -> tr_r_over st p0 leaf old ssize r
+           | _ -> tr_r_fail st)
         | RpSize p0 ->
           (match m with
            | TrSize n -> tr_r_size c st p0 n
@@ -3856,7 +7612,8 @@ let tr_receiver h deq zdecomp unzl c dest st m =
            | _ -> tr_r_fail st)
         | RpData (p0, size0, cp, acc, steps) ->
           (match m with
-           | TrData f -> tr_r_frame zdecomp c st p0 size0 cp acc steps f
+           | TrData f ->
+             tr_r_frame zdecomp aparse c st p0 size0 cp acc steps f
            | TrKeepAlive -> tr_r_stay st
            | _ -> tr_r_fail st)
         | RpV1 (p0, size0, w0) ->
@@ -3865,7 +7622,7 @@ let tr_receiver h deq zdecomp unzl c dest st m =
            | _ -> tr_r_fail st)
         | RpMd5 (p0, w0) ->
           (match m with
-           | TrMd5 d -> tr_r_md5 h deq c dest st p0 w0 d
+           | TrMd5 d -> tr_r_md5 h deq aparse c dest st p0 w0 d
            | _ -> tr_r_fail st)
         | RpExit ->
           (match m with
@@ -3886,6 +7643,16 @@ let tr_receiver h deq zdecomp unzl c dest st m =
           (match m with
            | TrName p0 -> tr_r_name c dest st p0
            | _ -> tr_r_fail st)
+        | RpHSize (p0, leaf, old) ->
+          (match m with
+           | TrSize n ->
+             ((tr_r_phase st (RpHash (p0, leaf, old, n, r_init))), [])
+           | _ -> tr_r_fail st)
+        | RpHash (p0, leaf, old, ssize, r) ->
+          (match m with
+           | TrHash (step, h0) -> tr_r_hash hx st p0 leaf old ssize r step h0
+           | TrHashOver -> tr_r_over st p0 leaf old ssize r
+           | _ -> tr_r_fail st)
         | RpSize p0 ->
           (match m with
            | TrSize n -> tr_r_size c st p0 n
@@ -3898,7 +7665,8 @@ let tr_receiver h deq zdecomp unzl c dest st m =
            | _ -> tr_r_fail st)
         | RpData (p0, size0, cp, acc, steps) ->
           (match m with
-           | TrData f -> tr_r_frame zdecomp c st p0 size0 cp acc steps f
+           | TrData f ->
+             tr_r_frame zdecomp aparse c st p0 size0 cp acc steps f
            | TrKeepAlive -> tr_r_stay st
            | _ -> tr_r_fail st)
         | RpV1 (p0, size0, w0) ->
@@ -3907,7 +7675,7 @@ let tr_receiver h deq zdecomp unzl c dest st m =
            | _ -> tr_r_fail st)
         | RpMd5 (p0, w0) ->
           (match m with
-           | TrMd5 d -> tr_r_md5 h deq c dest st p0 w0 d
+           | TrMd5 d -> tr_r_md5 h deq aparse c dest st p0 w0 d
            | _ -> tr_r_fail st)
         | RpExit ->
           (match m with
@@ -3928,6 +7696,16 @@ let tr_receiver h deq zdecomp unzl c dest st m =
           (match m with
            | TrName p0 -> tr_r_name c dest st p0
            | _ -> tr_r_fail st)
+        | RpHSize (p0, leaf, old) ->
+          (match m with
+           | TrSize n ->
+             ((tr_r_phase st (RpHash (p0, leaf, old, n, r_init))), [])
+           | _ -> tr_r_fail st)
+        | RpHash (p0, leaf, old, ssize, r) ->
+          (match m with
+           | TrHash (step, h0) -> tr_r_hash hx st p0 leaf old ssize r step h0
+           | TrHashOver -> tr_r_over st p0 leaf old ssize r
+           | _ -> tr_r_fail st)
         | RpSize p0 ->
           (match m with
            | TrSize n -> tr_r_size c st p0 n
@@ -3940,7 +7718,8 @@ let tr_receiver h deq zdecomp unzl c dest st m =
            | _ -> tr_r_fail st)
         | RpData (p0, size0, cp, acc, steps) ->
           (match m with
-           | TrData f -> tr_r_frame zdecomp c st p0 size0 cp acc steps f
+           | TrData f ->
+             tr_r_frame zdecomp aparse c st p0 size0 cp acc steps f
            | TrKeepAlive -> tr_r_stay st
            | _ -> tr_r_fail st)
         | RpV1 (p0, size0, w0) ->
@@ -3949,7 +7728,60 @@ let tr_receiver h deq zdecomp unzl c dest st m =
            | _ -> tr_r_fail st)
         | RpMd5 (p0, w0) ->
           (match m with
-           | TrMd5 d -> tr_r_md5 h deq c dest st p0 w0 d
+           | TrMd5 d -> tr_r_md5 h deq aparse c dest st p0 w0 d
+           | _ -> tr_r_fail st)
+        | RpExit ->
+          (match m with
+           | TrExit _ -> ((tr_r_phase st RpDone), [])
+           | _ -> tr_r_fail st)
+        | _ -> tr_r_stay st)
+     | TrSuccHack (_, _) ->
+       (match ph with
+        | RpNum ->
+          (match m with
+           | TrNum n ->
+             let (st', outs) =
+               tr_r_next c (N.to_nat n) st.rs_st st.rs_names st.rs_sched
+             in
+             (st', ((TrSuccInt n) :: outs))
+           | _ -> tr_r_fail st)
+        | RpName ->
+          (match m with
+           | TrName p0 -> tr_r_name c dest st p0
+           | _ -> tr_r_fail st)
+        | RpHSize (p0, leaf, old) ->
+          (match m with
+           | TrSize n ->
+             ((tr_r_phase st (RpHash (p0, leaf, old, n, r_init))), [])
+           | _ -> tr_r_fail st)
+        | RpHash (p0, leaf, old, ssize, r) ->
+          (match m with
+           | TrHash (step, h0) -> tr_r_hash hx st p0 leaf old ssize r step h0
+           | TrHashOver -> tr_r_over st p0 leaf old ssize r
+           | _ -> tr_r_fail st)
+        | RpSize p0 ->
+          (match m with
+           | TrSize n -> tr_r_size c st p0 n
+           | _ -> tr_r_fail st)
+        | RpComp (p0, size0) ->
+          (match m with
+           | TrComp b ->
+             ((tr_r_phase st (RpData (p0, size0, b, [],
+                (tr_cur_sched st).sc_steps))), [])
+           | _ -> tr_r_fail st)
+        | RpData (p0, size0, cp, acc, steps) ->
+          (match m with
+           | TrData f ->
+             tr_r_frame zdecomp aparse c st p0 size0 cp acc steps f
+           | TrKeepAlive -> tr_r_stay st
+           | _ -> tr_r_fail st)
+        | RpV1 (p0, size0, w0) ->
+          (match m with
+           | TrData pl -> tr_r_v1 unzl c st p0 size0 w0 pl
+           | _ -> tr_r_fail st)
+        | RpMd5 (p0, w0) ->
+          (match m with
+           | TrMd5 d -> tr_r_md5 h deq aparse c dest st p0 w0 d
            | _ -> tr_r_fail st)
         | RpExit ->
           (match m with
@@ -3970,6 +7802,16 @@ let tr_receiver h deq zdecomp unzl c dest st m =
           (match m with
            | TrName p0 -> tr_r_name c dest st p0
            | _ -> tr_r_fail st)
+        | RpHSize (p0, leaf, old) ->
+          (match m with
+           | TrSize n ->
+             ((tr_r_phase st (RpHash (p0, leaf, old, n, r_init))), [])
+           | _ -> tr_r_fail st)
+        | RpHash (p0, leaf, old, ssize, r) ->
+          (match m with
+           | TrHash (step, h0) -> tr_r_hash hx st p0 leaf old ssize r step h0
+           | TrHashOver -> tr_r_over st p0 leaf old ssize r
+           | _ -> tr_r_fail st)
         | RpSize p0 ->
           (match m with
            | TrSize n -> tr_r_size c st p0 n
@@ -3982,7 +7824,8 @@ let tr_receiver h deq zdecomp unzl c dest st m =
            | _ -> tr_r_fail st)
         | RpData (p0, size0, cp, acc, steps) ->
           (match m with
-           | TrData f -> tr_r_frame zdecomp c st p0 size0 cp acc steps f
+           | TrData f ->
+             tr_r_frame zdecomp aparse c st p0 size0 cp acc steps f
            | TrKeepAlive -> tr_r_stay st
            | _ -> tr_r_fail st)
         | RpV1 (p0, size0, w0) ->
@@ -3991,7 +7834,7 @@ let tr_receiver h deq zdecomp unzl c dest st m =
            | _ -> tr_r_fail st)
         | RpMd5 (p0, w0) ->
           (match m with
-           | TrMd5 d -> tr_r_md5 h deq c dest st p0 w0 d
+           | TrMd5 d -> tr_r_md5 h deq aparse c dest st p0 w0 d
            | _ -> tr_r_fail st)
         | RpExit ->
           (match m with
@@ -4016,6 +7859,16 @@ let tr_receiver h deq zdecomp unzl c dest st m =
           (match m with
            | TrName p0 -> tr_r_name c dest st p0
            | _ -> tr_r_fail st)
+        | RpHSize (p0, leaf, old) ->
+          (match m with
+           | TrSize n ->
+             ((tr_r_phase st (RpHash (p0, leaf, old, n, r_init))), [])
+           | _ -> tr_r_fail st)
+        | RpHash (p0, leaf, old, ssize, r) ->
+          (match m with
+           | TrHash (step, h0) -> tr_r_hash hx st p0 leaf old ssize r step h0
+           | TrHashOver -> tr_r_over st p0 leaf old ssize r
+           | _ -> tr_r_fail st)
         | RpSize p0 ->
           (match m with
            | TrSize n -> tr_r_size c st p0 n
@@ -4028,7 +7881,8 @@ let tr_receiver h deq zdecomp unzl c dest st m =
            | _ -> tr_r_fail st)
         | RpData (p0, size, cp, acc, steps) ->
           (match m with
-           | TrData f -> tr_r_frame zdecomp c st p0 size cp acc steps f
+           | TrData f ->
+             tr_r_frame zdecomp aparse c st p0 size cp acc steps f
            | TrKeepAlive -> tr_r_stay st
            | _ -> tr_r_fail st)
         | RpV1 (p0, size, w0) ->
@@ -4037,7 +7891,7 @@ let tr_receiver h deq zdecomp unzl c dest st m =
            | _ -> tr_r_fail st)
         | RpMd5 (p0, w0) ->
           (match m with
-           | TrMd5 d -> tr_r_md5 h deq c dest st p0 w0 d
+           | TrMd5 d -> tr_r_md5 h deq aparse c dest st p0 w0 d
            | _ -> tr_r_fail st)
         | RpExit ->
           (match m with
@@ -4058,6 +7912,16 @@ let tr_receiver h deq zdecomp unzl c dest st m =
           (match m with
            | TrName p0 -> tr_r_name c dest st p0
            | _ -> tr_r_fail st)
+        | RpHSize (p0, leaf, old) ->
+          (match m with
+           | TrSize n ->
+             ((tr_r_phase st (RpHash (p0, leaf, old, n, r_init))), [])
+           | _ -> tr_r_fail st)
+        | RpHash (p0, leaf, old, ssize, r) ->
+          (match m with
+           | TrHash (step, h0) -> tr_r_hash hx st p0 leaf old ssize r step h0
+           | TrHashOver -> tr_r_over st p0 leaf old ssize r
+           | _ -> tr_r_fail st)
         | RpSize p0 ->
           (match m with
            | TrSize n -> tr_r_size c st p0 n
@@ -4070,7 +7934,8 @@ let tr_receiver h deq zdecomp unzl c dest st m =
            | _ -> tr_r_fail st)
         | RpData (p0, size, cp, acc, steps) ->
           (match m with
-           | TrData f -> tr_r_frame zdecomp c st p0 size cp acc steps f
+           | TrData f ->
+             tr_r_frame zdecomp aparse c st p0 size cp acc steps f
            | TrKeepAlive -> tr_r_stay st
            | _ -> tr_r_fail st)
         | RpV1 (p0, size, w0) ->
@@ -4079,7 +7944,7 @@ let tr_receiver h deq zdecomp unzl c dest st m =
            | _ -> tr_r_fail st)
         | RpMd5 (p0, w0) ->
           (match m with
-           | TrMd5 d -> tr_r_md5 h deq c dest st p0 w0 d
+           | TrMd5 d -> tr_r_md5 h deq aparse c dest st p0 w0 d
            | _ -> tr_r_fail st)
         | RpExit ->
           (match m with
@@ -4100,6 +7965,16 @@ let tr_receiver h deq zdecomp unzl c dest st m =
           (match m with
            | TrName p0 -> tr_r_name c dest st p0
            | _ -> tr_r_fail st)
+        | RpHSize (p0, leaf, old) ->
+          (match m with
+           | TrSize n ->
+             ((tr_r_phase st (RpHash (p0, leaf, old, n, r_init))), [])
+           | _ -> tr_r_fail st)
+        | RpHash (p0, leaf, old, ssize, r) ->
+          (match m with
+           | TrHash (step, h0) -> tr_r_hash hx st p0 leaf old ssize r step h0
+           | TrHashOver -> tr_r_over st p0 leaf old ssize r
+           | _ -> tr_r_fail st)
         | RpSize p0 ->
           (match m with
            | TrSize n -> tr_r_size c st p0 n
@@ -4112,7 +7987,8 @@ let tr_receiver h deq zdecomp unzl c dest st m =
            | _ -> tr_r_fail st)
         | RpData (p0, size, cp, acc, steps) ->
           (match m with
-           | TrData f -> tr_r_frame zdecomp c st p0 size cp acc steps f
+           | TrData f ->
+             tr_r_frame zdecomp aparse c st p0 size cp acc steps f
            | TrKeepAlive -> tr_r_stay st
            | _ -> tr_r_fail st)
         | RpV1 (p0, size, w0) ->
@@ -4121,7 +7997,7 @@ let tr_receiver h deq zdecomp unzl c dest st m =
            | _ -> tr_r_fail st)
         | RpMd5 (p0, w0) ->
           (match m with
-           | TrMd5 d -> tr_r_md5 h deq c dest st p0 w0 d
+           | TrMd5 d -> tr_r_md5 h deq aparse c dest st p0 w0 d
            | _ -> tr_r_fail st)
         | RpExit ->
           (match m with
@@ -4142,6 +8018,16 @@ let tr_receiver h deq zdecomp unzl c dest st m =
           (match m with
            | TrName p0 -> tr_r_name c dest st p0
            | _ -> tr_r_fail st)
+        | RpHSize (p0, leaf, old) ->
+          (match m with
+           | TrSize n ->
+             ((tr_r_phase st (RpHash (p0, leaf, old, n, r_init))), [])
+           | _ -> tr_r_fail st)
+        | RpHash (p0, leaf, old, ssize, r) ->
+          (match m with
+           | TrHash (step, h0) -> tr_r_hash hx st p0 leaf old ssize r step h0
+           | TrHashOver -> tr_r_over st p0 leaf old ssize r
+           | _ -> tr_r_fail st)
         | RpSize p0 ->
           (match m with
            | TrSize n -> tr_r_size c st p0 n
@@ -4154,7 +8040,8 @@ let tr_receiver h deq zdecomp unzl c dest st m =
            | _ -> tr_r_fail st)
         | RpData (p0, size, cp, acc, steps) ->
           (match m with
-           | TrData f -> tr_r_frame zdecomp c st p0 size cp acc steps f
+           | TrData f ->
+             tr_r_frame zdecomp aparse c st p0 size cp acc steps f
            | TrKeepAlive -> tr_r_stay st
            | _ -> tr_r_fail st)
         | RpV1 (p0, size, w0) ->
@@ -4163,7 +8050,7 @@ let tr_receiver h deq zdecomp unzl c dest st m =
            | _ -> tr_r_fail st)
         | RpMd5 (p0, w0) ->
           (match m with
-           | TrMd5 d -> tr_r_md5 h deq c dest st p0 w0 d
+           | TrMd5 d -> tr_r_md5 h deq aparse c dest st p0 w0 d
            | _ -> tr_r_fail st)
         | RpExit ->
           (match m with
@@ -4184,6 +8071,16 @@ let tr_receiver h deq zdecomp unzl c dest st m =
           (match m with
            | TrName p0 -> tr_r_name c dest st p0
            | _ -> tr_r_fail st)
+        | RpHSize (p0, leaf, old) ->
+          (match m with
+           | TrSize n ->
+             ((tr_r_phase st (RpHash (p0, leaf, old, n, r_init))), [])
+           | _ -> tr_r_fail st)
+        | RpHash (p0, leaf, old, ssize, r) ->
+          (match m with
+           | TrHash (step, h0) -> tr_r_hash hx st p0 leaf old ssize r step h0
+           | TrHashOver -> tr_r_over st p0 leaf old ssize r
+           | _ -> tr_r_fail st)
         | RpSize p0 ->
           (match m with
            | TrSize n -> tr_r_size c st p0 n
@@ -4196,7 +8093,8 @@ let tr_receiver h deq zdecomp unzl c dest st m =
            | _ -> tr_r_fail st)
         | RpData (p0, size, cp, acc, steps) ->
           (match m with
-           | TrData f -> tr_r_frame zdecomp c st p0 size cp acc steps f
+           | TrData f ->
+             tr_r_frame zdecomp aparse c st p0 size cp acc steps f
            | TrKeepAlive -> tr_r_stay st
            | _ -> tr_r_fail st)
         | RpV1 (p0, size, w0) ->
@@ -4205,7 +8103,7 @@ let tr_receiver h deq zdecomp unzl c dest st m =
            | _ -> tr_r_fail st)
         | RpMd5 (p0, w0) ->
           (match m with
-           | TrMd5 d -> tr_r_md5 h deq c dest st p0 w0 d
+           | TrMd5 d -> tr_r_md5 h deq aparse c dest st p0 w0 d
            | _ -> tr_r_fail st)
         | RpExit ->
           (match m with
@@ -4226,6 +8124,16 @@ let tr_receiver h deq zdecomp unzl c dest st m =
           (match m with
            | TrName p0 -> tr_r_name c dest st p0
            | _ -> tr_r_fail st)
+        | RpHSize (p0, leaf, old) ->
+          (match m with
+           | TrSize n ->
+             ((tr_r_phase st (RpHash (p0, leaf, old, n, r_init))), [])
+           | _ -> tr_r_fail st)
+        | RpHash (p0, leaf, old, ssize, r) ->
+          (match m with
+           | TrHash (step, h0) -> tr_r_hash hx st p0 leaf old ssize r step h0
+           | TrHashOver -> tr_r_over st p0 leaf old ssize r
+           | _ -> tr_r_fail st)
         | RpSize p0 ->
           (match m with
            | TrSize n -> tr_r_size c st p0 n
@@ -4238,7 +8146,8 @@ let tr_receiver h deq zdecomp unzl c dest st m =
            | _ -> tr_r_fail st)
         | RpData (p0, size, cp, acc, steps) ->
           (match m with
-           | TrData f -> tr_r_frame zdecomp c st p0 size cp acc steps f
+           | TrData f ->
+             tr_r_frame zdecomp aparse c st p0 size cp acc steps f
            | TrKeepAlive -> tr_r_stay st
            | _ -> tr_r_fail st)
         | RpV1 (p0, size, w0) ->
@@ -4247,7 +8156,7 @@ let tr_receiver h deq zdecomp unzl c dest st m =
            | _ -> tr_r_fail st)
         | RpMd5 (p0, w0) ->
           (match m with
-           | TrMd5 d -> tr_r_md5 h deq c dest st p0 w0 d
+           | TrMd5 d -> tr_r_md5 h deq aparse c dest st p0 w0 d
            | _ -> tr_r_fail st)
         | RpExit ->
           (match m with
@@ -4268,6 +8177,16 @@ let tr_receiver h deq zdecomp unzl c dest st m =
           (match m with
            | TrName p0 -> tr_r_name c dest st p0
            | _ -> tr_r_fail st)
+        | RpHSize (p0, leaf, old) ->
+          (match m with
+           | TrSize n ->
+             ((tr_r_phase st (RpHash (p0, leaf, old, n, r_init))), [])
+           | _ -> tr_r_fail st)
+        | RpHash (p0, leaf, old, ssize, r) ->
+          (match m with
+           | TrHash (step, h0) -> tr_r_hash hx st p0 leaf old ssize r step h0
+           | TrHashOver -> tr_r_over st p0 leaf old ssize r
+           | _ -> tr_r_fail st)
         | RpSize p0 ->
           (match m with
            | TrSize n -> tr_r_size c st p0 n
@@ -4280,7 +8199,8 @@ let tr_receiver h deq zdecomp unzl c dest st m =
            | _ -> tr_r_fail st)
         | RpData (p0, size, cp, acc, steps) ->
           (match m with
-           | TrData f -> tr_r_frame zdecomp c st p0 size cp acc steps f
+           | TrData f ->
+             tr_r_frame zdecomp aparse c st p0 size cp acc steps f
            | TrKeepAlive -> tr_r_stay st
            | _ -> tr_r_fail st)
         | RpV1 (p0, size, w0) ->
@@ -4289,7 +8209,113 @@ let tr_receiver h deq zdecomp unzl c dest st m =
            | _ -> tr_r_fail st)
         | RpMd5 (p0, w0) ->
           (match m with
-           | TrMd5 d -> tr_r_md5 h deq c dest st p0 w0 d
+           | TrMd5 d -> tr_r_md5 h deq aparse c dest st p0 w0 d
+           | _ -> tr_r_fail st)
+        | RpExit ->
+          (match m with
+           | TrExit _ -> ((tr_r_phase st RpDone), [])
+           | _ -> tr_r_fail st)
+        | _ -> tr_r_stay st)
+     | TrHash (_, _) ->
+       (match ph with
+        | RpNum ->
+          (match m with
+           | TrNum n ->
+             let (st', outs) =
+               tr_r_next c (N.to_nat n) st.rs_st st.rs_names st.rs_sched
+             in
+             (st', ((TrSuccInt n) :: outs))
+           | _ -> tr_r_fail st)
+        | RpName ->
+          (match m with
+           | TrName p0 -> tr_r_name c dest st p0
+           | _ -> tr_r_fail st)
+        | RpHSize (p0, leaf, old) ->
+          (match m with
+           | TrSize n ->
+             ((tr_r_phase st (RpHash (p0, leaf, old, n, r_init))), [])
+           | _ -> tr_r_fail st)
+        | RpHash (p0, leaf, old, ssize, r) ->
+          (match m with
+           | TrHash (step, h0) -> tr_r_hash hx st p0 leaf old ssize r step h0
+           | TrHashOver -> tr_r_over st p0 leaf old ssize r
+           | _ -> tr_r_fail st)
+        | RpSize p0 ->
+          (match m with
+           | TrSize n -> tr_r_size c st p0 n
+           | _ -> tr_r_fail st)
+        | RpComp (p0, size) ->
+          (match m with
+           | TrComp b ->
+             ((tr_r_phase st (RpData (p0, size, b, [],
+                (tr_cur_sched st).sc_steps))), [])
+           | _ -> tr_r_fail st)
+        | RpData (p0, size, cp, acc, steps) ->
+          (match m with
+           | TrData f ->
+             tr_r_frame zdecomp aparse c st p0 size cp acc steps f
+           | TrKeepAlive -> tr_r_stay st
+           | _ -> tr_r_fail st)
+        | RpV1 (p0, size, w0) ->
+          (match m with
+           | TrData pl -> tr_r_v1 unzl c st p0 size w0 pl
+           | _ -> tr_r_fail st)
+        | RpMd5 (p0, w0) ->
+          (match m with
+           | TrMd5 d -> tr_r_md5 h deq aparse c dest st p0 w0 d
+           | _ -> tr_r_fail st)
+        | RpExit ->
+          (match m with
+           | TrExit _ -> ((tr_r_phase st RpDone), [])
+           | _ -> tr_r_fail st)
+        | _ -> tr_r_stay st)
+     | TrHashOver ->
+       (match ph with
+        | RpNum ->
+          (match m with
+           | TrNum n ->
+             let (st', outs) =
+               tr_r_next c (N.to_nat n) st.rs_st st.rs_names st.rs_sched
+             in
+             (st', ((TrSuccInt n) :: outs))
+           | _ -> tr_r_fail st)
+        | RpName ->
+          (match m with
+           | TrName p0 -> tr_r_name c dest st p0
+           | _ -> tr_r_fail st)
+        | RpHSize (p0, leaf, old) ->
+          (match m with
+           | TrSize n ->
+             ((tr_r_phase st (RpHash (p0, leaf, old, n, r_init))), [])
+           | _ -> tr_r_fail st)
+        | RpHash (p0, leaf, old, ssize, r) ->
+          (match m with
+           | TrHash (step, h0) -> tr_r_hash hx st p0 leaf old ssize r step h0
+           | TrHashOver -> tr_r_over st p0 leaf old ssize r
+           | _ -> tr_r_fail st)
+        | RpSize p0 ->
+          (match m with
+           | TrSize n -> tr_r_size c st p0 n
+           | _ -> tr_r_fail st)
+        | RpComp (p0, size) ->
+          (match m with
+           | TrComp b ->
+             ((tr_r_phase st (RpData (p0, size, b, [],
+                (tr_cur_sched st).sc_steps))), [])
+           | _ -> tr_r_fail st)
+        | RpData (p0, size, cp, acc, steps) ->
+          (match m with
+           | TrData f ->
+             tr_r_frame zdecomp aparse c st p0 size cp acc steps f
+           | TrKeepAlive -> tr_r_stay st
+           | _ -> tr_r_fail st)
+        | RpV1 (p0, size, w0) ->
+          (match m with
+           | TrData pl -> tr_r_v1 unzl c st p0 size w0 pl
+           | _ -> tr_r_fail st)
+        | RpMd5 (p0, w0) ->
+          (match m with
+           | TrMd5 d -> tr_r_md5 h deq aparse c dest st p0 w0 d
            | _ -> tr_r_fail st)
         | RpExit ->
           (match m with
@@ -4310,6 +8336,16 @@ let tr_receiver h deq zdecomp unzl c dest st m =
           (match m with
            | TrName p0 -> tr_r_name c dest st p0
            | _ -> tr_r_fail st)
+        | RpHSize (p0, leaf, old) ->
+          (match m with
+           | TrSize n ->
+             ((tr_r_phase st (RpHash (p0, leaf, old, n, r_init))), [])
+           | _ -> tr_r_fail st)
+        | RpHash (p0, leaf, old, ssize, r) ->
+          (match m with
+           | TrHash (step, h0) -> tr_r_hash hx st p0 leaf old ssize r step h0
+           | TrHashOver -> tr_r_over st p0 leaf old ssize r
+           | _ -> tr_r_fail st)
         | RpSize p0 ->
           (match m with
            | TrSize n -> tr_r_size c st p0 n
@@ -4322,7 +8358,8 @@ let tr_receiver h deq zdecomp unzl c dest st m =
            | _ -> tr_r_fail st)
         | RpData (p0, size, cp, acc, steps) ->
           (match m with
-           | TrData f -> tr_r_frame zdecomp c st p0 size cp acc steps f
+           | TrData f ->
+             tr_r_frame zdecomp aparse c st p0 size cp acc steps f
            | TrKeepAlive -> tr_r_stay st
            | _ -> tr_r_fail st)
         | RpV1 (p0, size, w0) ->
@@ -4331,7 +8368,7 @@ let tr_receiver h deq zdecomp unzl c dest st m =
            | _ -> tr_r_fail st)
         | RpMd5 (p0, w0) ->
           (match m with
-           | TrMd5 d -> tr_r_md5 h deq c dest st p0 w0 d
+           | TrMd5 d -> tr_r_md5 h deq aparse c dest st p0 w0 d
            | _ -> tr_r_fail st)
         | RpExit ->
           (match m with
@@ -4352,6 +8389,16 @@ let tr_receiver h deq zdecomp unzl c dest st m =
           (match m with
            | TrName p0 -> tr_r_name c dest st p0
            | _ -> tr_r_fail st)
+        | RpHSize (p0, leaf, old) ->
+          (match m with
+           | TrSize n ->
+             ((tr_r_phase st (RpHash (p0, leaf, old, n, r_init))), [])
+           | _ -> tr_r_fail st)
+        | RpHash (p0, leaf, old, ssize, r) ->
+          (match m with
+           | TrHash (step, h0) -> tr_r_hash hx st p0 leaf old ssize r step h0
+           | TrHashOver -> tr_r_over st p0 leaf old ssize r
+           | _ -> tr_r_fail st)
         | RpSize p0 ->
           (match m with
            | TrSize n -> tr_r_size c st p0 n
@@ -4364,7 +8411,8 @@ let tr_receiver h deq zdecomp unzl c dest st m =
            | _ -> tr_r_fail st)
         | RpData (p0, size, cp, acc, steps) ->
           (match m with
-           | TrData f -> tr_r_frame zdecomp c st p0 size cp acc steps f
+           | TrData f ->
+             tr_r_frame zdecomp aparse c st p0 size cp acc steps f
            | TrKeepAlive -> tr_r_stay st
            | _ -> tr_r_fail st)
         | RpV1 (p0, size, w0) ->
@@ -4373,7 +8421,7 @@ let tr_receiver h deq zdecomp unzl c dest st m =
            | _ -> tr_r_fail st)
         | RpMd5 (p0, w0) ->
           (match m with
-           | TrMd5 d -> tr_r_md5 h deq c dest st p0 w0 d
+           | TrMd5 d -> tr_r_md5 h deq aparse c dest st p0 w0 d
            | _ -> tr_r_fail st)
         | RpExit ->
           (match m with
@@ -4394,6 +8442,16 @@ let tr_receiver h deq zdecomp unzl c dest st m =
           (match m with
            | TrName p0 -> tr_r_name c dest st p0
            | _ -> tr_r_fail st)
+        | RpHSize (p0, leaf, old) ->
+          (match m with
+           | TrSize n ->
+             ((tr_r_phase st (RpHash (p0, leaf, old, n, r_init))), [])
+           | _ -> tr_r_fail st)
+        | RpHash (p0, leaf, old, ssize, r) ->
+          (match m with
+           | TrHash (step, h0) -> tr_r_hash hx st p0 leaf old ssize r step h0
+           | TrHashOver -> tr_r_over st p0 leaf old ssize r
+           | _ -> tr_r_fail st)
         | RpSize p0 ->
           (match m with
            | TrSize n -> tr_r_size c st p0 n
@@ -4406,7 +8464,8 @@ let tr_receiver h deq zdecomp unzl c dest st m =
            | _ -> tr_r_fail st)
         | RpData (p0, size, cp, acc, steps) ->
           (match m with
-           | TrData f -> tr_r_frame zdecomp c st p0 size cp acc steps f
+           | TrData f ->
+             tr_r_frame zdecomp aparse c st p0 size cp acc steps f
            | TrKeepAlive -> tr_r_stay st
            | _ -> tr_r_fail st)
         | RpV1 (p0, size, w0) ->
@@ -4415,7 +8474,7 @@ let tr_receiver h deq zdecomp unzl c dest st m =
            | _ -> tr_r_fail st)
         | RpMd5 (p0, w0) ->
           (match m with
-           | TrMd5 d -> tr_r_md5 h deq c dest st p0 w0 d
+           | TrMd5 d -> tr_r_md5 h deq aparse c dest st p0 w0 d
            | _ -> tr_r_fail st)
         | RpExit ->
           (match m with
@@ -4436,6 +8495,16 @@ let tr_receiver h deq zdecomp unzl c dest st m =
           (match m with
            | TrName p0 -> tr_r_name c dest st p0
            | _ -> tr_r_fail st)
+        | RpHSize (p0, leaf, old) ->
+          (match m with
+           | TrSize n ->
+             ((tr_r_phase st (RpHash (p0, leaf, old, n, r_init))), [])
+           | _ -> tr_r_fail st)
+        | RpHash (p0, leaf, old, ssize, r) ->
+          (match m with
+           | TrHash (step, h0) -> tr_r_hash hx st p0 leaf old ssize r step h0
+           | TrHashOver -> tr_r_over st p0 leaf old ssize r
+           | _ -> tr_r_fail st)
         | RpSize p0 ->
           (match m with
            | TrSize n -> tr_r_size c st p0 n
@@ -4448,7 +8517,8 @@ let tr_receiver h deq zdecomp unzl c dest st m =
            | _ -> tr_r_fail st)
         | RpData (p0, size, cp, acc, steps) ->
           (match m with
-           | TrData f -> tr_r_frame zdecomp c st p0 size cp acc steps f
+           | TrData f ->
+             tr_r_frame zdecomp aparse c st p0 size cp acc steps f
            | TrKeepAlive -> tr_r_stay st
            | _ -> tr_r_fail st)
         | RpV1 (p0, size, w0) ->
@@ -4457,7 +8527,7 @@ let tr_receiver h deq zdecomp unzl c dest st m =
            | _ -> tr_r_fail st)
         | RpMd5 (p0, w0) ->
           (match m with
-           | TrMd5 d -> tr_r_md5 h deq c dest st p0 w0 d
+           | TrMd5 d -> tr_r_md5 h deq aparse c dest st p0 w0 d
            | _ -> tr_r_fail st)
         | RpExit ->
           (match m with
@@ -4478,6 +8548,16 @@ let tr_receiver h deq zdecomp unzl c dest st m =
           (match m with
            | TrName p0 -> tr_r_name c dest st p0
            | _ -> tr_r_fail st)
+        | RpHSize (p0, leaf, old) ->
+          (match m with
+           | TrSize n ->
+             ((tr_r_phase st (RpHash (p0, leaf, old, n, r_init))), [])
+           | _ -> tr_r_fail st)
+        | RpHash (p0, leaf, old, ssize, r) ->
+          (match m with
+           | TrHash (step, h0) -> tr_r_hash hx st p0 leaf old ssize r step h0
+           | TrHashOver -> tr_r_over st p0 leaf old ssize r
+           | _ -> tr_r_fail st)
         | RpSize p0 ->
           (match m with
            | TrSize n -> tr_r_size c st p0 n
@@ -4490,7 +8570,8 @@ let tr_receiver h deq zdecomp unzl c dest st m =
            | _ -> tr_r_fail st)
         | RpData (p0, size, cp, acc, steps) ->
           (match m with
-           | TrData f -> tr_r_frame zdecomp c st p0 size cp acc steps f
+           | TrData f ->
+             tr_r_frame zdecomp aparse c st p0 size cp acc steps f
            | TrKeepAlive -> tr_r_stay st
            | _ -> tr_r_fail st)
         | RpV1 (p0, size, w0) ->
@@ -4499,7 +8580,60 @@ let tr_receiver h deq zdecomp unzl c dest st m =
            | _ -> tr_r_fail st)
         | RpMd5 (p0, w0) ->
           (match m with
-           | TrMd5 d -> tr_r_md5 h deq c dest st p0 w0 d
+           | TrMd5 d -> tr_r_md5 h deq aparse c dest st p0 w0 d
+           | _ -> tr_r_fail st)
+        | RpExit ->
+          (match m with
+           | TrExit _ -> ((tr_r_phase st RpDone), [])
+           | _ -> tr_r_fail st)
+        | _ -> tr_r_stay st)
+     | TrSuccHack (_, _) ->
+       (match ph with
+        | RpNum ->
+          (match m with
+           | TrNum n ->
+             let (st', outs) =
+               tr_r_next c (N.to_nat n) st.rs_st st.rs_names st.rs_sched
+             in
+             (st', ((TrSuccInt n) :: outs))
+           | _ -> tr_r_fail st)
+        | RpName ->
+          (match m with
+           | TrName p0 -> tr_r_name c dest st p0
+           | _ -> tr_r_fail st)
+        | RpHSize (p0, leaf, old) ->
+          (match m with
+           | TrSize n ->
+             ((tr_r_phase st (RpHash (p0, leaf, old, n, r_init))), [])
+           | _ -> tr_r_fail st)
+        | RpHash (p0, leaf, old, ssize, r) ->
+          (match m with
+           | TrHash (step, h0) -> tr_r_hash hx st p0 leaf old ssize r step h0
+           | TrHashOver -> tr_r_over st p0 leaf old ssize r
+           | _ -> tr_r_fail st)
+        | RpSize p0 ->
+          (match m with
+           | TrSize n -> tr_r_size c st p0 n
+           | _ -> tr_r_fail st)
+        | RpComp (p0, size) ->
+          (match m with
+           | TrComp b ->
+             ((tr_r_phase st (RpData (p0, size, b, [],
+                (tr_cur_sched st).sc_steps))), [])
+           | _ -> tr_r_fail st)
+        | RpData (p0, size, cp, acc, steps) ->
+          (match m with
+           | TrData f ->
+             tr_r_frame zdecomp aparse c st p0 size cp acc steps f
+           | TrKeepAlive -> tr_r_stay st
+           | _ -> tr_r_fail st)
+        | RpV1 (p0, size, w0) ->
+          (match m with
+           | TrData pl -> tr_r_v1 unzl c st p0 size w0 pl
+           | _ -> tr_r_fail st)
+        | RpMd5 (p0, w0) ->
+          (match m with
+           | TrMd5 d -> tr_r_md5 h deq aparse c dest st p0 w0 d
            | _ -> tr_r_fail st)
         | RpExit ->
           (match m with
@@ -4520,6 +8654,16 @@ let tr_receiver h deq zdecomp unzl c dest st m =
           (match m with
            | TrName p0 -> tr_r_name c dest st p0
            | _ -> tr_r_fail st)
+        | RpHSize (p0, leaf, old) ->
+          (match m with
+           | TrSize n ->
+             ((tr_r_phase st (RpHash (p0, leaf, old, n, r_init))), [])
+           | _ -> tr_r_fail st)
+        | RpHash (p0, leaf, old, ssize, r) ->
+          (match m with
+           | TrHash (step, h0) -> tr_r_hash hx st p0 leaf old ssize r step h0
+           | TrHashOver -> tr_r_over st p0 leaf old ssize r
+           | _ -> tr_r_fail st)
         | RpSize p0 ->
           (match m with
            | TrSize n -> tr_r_size c st p0 n
@@ -4532,7 +8676,8 @@ let tr_receiver h deq zdecomp unzl c dest st m =
            | _ -> tr_r_fail st)
         | RpData (p0, size, cp, acc, steps) ->
           (match m with
-           | TrData f -> tr_r_frame zdecomp c st p0 size cp acc steps f
+           | TrData f ->
+             tr_r_frame zdecomp aparse c st p0 size cp acc steps f
            | TrKeepAlive -> tr_r_stay st
            | _ -> tr_r_fail st)
         | RpV1 (p0, size, w0) ->
@@ -4541,7 +8686,7 @@ let tr_receiver h deq zdecomp unzl c dest st m =
            | _ -> tr_r_fail st)
         | RpMd5 (p0, w0) ->
           (match m with
-           | TrMd5 d -> tr_r_md5 h deq c dest st p0 w0 d
+           | TrMd5 d -> tr_r_md5 h deq aparse c dest st p0 w0 d
            | _ -> tr_r_fail st)
         | RpExit ->
           (match m with
@@ -4566,6 +8711,16 @@ let tr_receiver h deq zdecomp unzl c dest st m =
           (match m with
            | TrName p -> tr_r_name c dest st p
            | _ -> tr_r_fail st)
+        | RpHSize (p, leaf, old) ->
+          (match m with
+           | TrSize n ->
+             ((tr_r_phase st (RpHash (p, leaf, old, n, r_init))), [])
+           | _ -> tr_r_fail st)
+        | RpHash (p, leaf, old, ssize, r) ->
+          (match m with
+           | TrHash (step, h0) -> tr_r_hash hx st p leaf old ssize r step h0
+           | TrHashOver -> tr_r_over st p leaf old ssize r
+           | _ -> tr_r_fail st)
         | RpSize p ->
           (match m with
            | TrSize n -> tr_r_size c st p n
@@ -4578,7 +8733,7 @@ let tr_receiver h deq zdecomp unzl c dest st m =
            | _ -> tr_r_fail st)
         | RpData (p, size, cp, acc, steps) ->
           (match m with
-           | TrData f -> tr_r_frame zdecomp c st p size cp acc steps f
+           | TrData f -> tr_r_frame zdecomp aparse c st p size cp acc steps f
            | TrKeepAlive -> tr_r_stay st
            | _ -> tr_r_fail st)
         | RpV1 (p, size, w) ->
@@ -4587,7 +8742,7 @@ let tr_receiver h deq zdecomp unzl c dest st m =
            | _ -> tr_r_fail st)
         | RpMd5 (p, w) ->
           (match m with
-           | TrMd5 d -> tr_r_md5 h deq c dest st p w d
+           | TrMd5 d -> tr_r_md5 h deq aparse c dest st p w d
            | _ -> tr_r_fail st)
         | RpExit ->
           (match m with
@@ -4608,6 +8763,16 @@ let tr_receiver h deq zdecomp unzl c dest st m =
           (match m with
            | TrName p -> tr_r_name c dest st p
            | _ -> tr_r_fail st)
+        | RpHSize (p, leaf, old) ->
+          (match m with
+           | TrSize n ->
+             ((tr_r_phase st (RpHash (p, leaf, old, n, r_init))), [])
+           | _ -> tr_r_fail st)
+        | RpHash (p, leaf, old, ssize, r) ->
+          (match m with
+           | TrHash (step, h0) -> tr_r_hash hx st p leaf old ssize r step h0
+           | TrHashOver -> tr_r_over st p leaf old ssize r
+           | _ -> tr_r_fail st)
         | RpSize p ->
           (match m with
            | TrSize n -> tr_r_size c st p n
@@ -4620,7 +8785,7 @@ let tr_receiver h deq zdecomp unzl c dest st m =
            | _ -> tr_r_fail st)
         | RpData (p, size, cp, acc, steps) ->
           (match m with
-           | TrData f -> tr_r_frame zdecomp c st p size cp acc steps f
+           | TrData f -> tr_r_frame zdecomp aparse c st p size cp acc steps f
            | TrKeepAlive -> tr_r_stay st
            | _ -> tr_r_fail st)
         | RpV1 (p, size, w) ->
@@ -4629,7 +8794,7 @@ let tr_receiver h deq zdecomp unzl c dest st m =
            | _ -> tr_r_fail st)
         | RpMd5 (p, w) ->
           (match m with
-           | TrMd5 d -> tr_r_md5 h deq c dest st p w d
+           | TrMd5 d -> tr_r_md5 h deq aparse c dest st p w d
            | _ -> tr_r_fail st)
         | RpExit ->
           (match m with
@@ -4650,6 +8815,16 @@ let tr_receiver h deq zdecomp unzl c dest st m =
           (match m with
            | TrName p -> tr_r_name c dest st p
            | _ -> tr_r_fail st)
+        | RpHSize (p, leaf, old) ->
+          (match m with
+           | TrSize n ->
+             ((tr_r_phase st (RpHash (p, leaf, old, n, r_init))), [])
+           | _ -> tr_r_fail st)
+        | RpHash (p, leaf, old, ssize, r) ->
+          (match m with
+           | TrHash (step, h0) -> tr_r_hash hx st p leaf old ssize r step h0
+           | TrHashOver -> tr_r_over st p leaf old ssize r
+           | _ -> tr_r_fail st)
         | RpSize p ->
           (match m with
            | TrSize n -> tr_r_size c st p n
@@ -4662,7 +8837,7 @@ let tr_receiver h deq zdecomp unzl c dest st m =
            | _ -> tr_r_fail st)
         | RpData (p, size, cp, acc, steps) ->
           (match m with
-           | TrData f -> tr_r_frame zdecomp c st p size cp acc steps f
+           | TrData f -> tr_r_frame zdecomp aparse c st p size cp acc steps f
            | TrKeepAlive -> tr_r_stay st
            | _ -> tr_r_fail st)
         | RpV1 (p, size, w) ->
@@ -4671,7 +8846,7 @@ let tr_receiver h deq zdecomp unzl c dest st m =
            | _ -> tr_r_fail st)
         | RpMd5 (p, w) ->
           (match m with
-           | TrMd5 d -> tr_r_md5 h deq c dest st p w d
+           | TrMd5 d -> tr_r_md5 h deq aparse c dest st p w d
            | _ -> tr_r_fail st)
         | RpExit ->
           (match m with
@@ -4692,6 +8867,16 @@ let tr_receiver h deq zdecomp unzl c dest st m =
           (match m with
            | TrName p -> tr_r_name c dest st p
            | _ -> tr_r_fail st)
+        | RpHSize (p, leaf, old) ->
+          (match m with
+           | TrSize n ->
+             ((tr_r_phase st (RpHash (p, leaf, old, n, r_init))), [])
+           | _ -> tr_r_fail st)
+        | RpHash (p, leaf, old, ssize, r) ->
+          (match m with
+           | TrHash (step, h0) -> tr_r_hash hx st p leaf old ssize r step h0
+           | TrHashOver -> tr_r_over st p leaf old ssize r
+           | _ -> tr_r_fail st)
         | RpSize p ->
           (match m with
            | TrSize n -> tr_r_size c st p n
@@ -4704,7 +8889,7 @@ let tr_receiver h deq zdecomp unzl c dest st m =
            | _ -> tr_r_fail st)
         | RpData (p, size, cp, acc, steps) ->
           (match m with
-           | TrData f -> tr_r_frame zdecomp c st p size cp acc steps f
+           | TrData f -> tr_r_frame zdecomp aparse c st p size cp acc steps f
            | TrKeepAlive -> tr_r_stay st
            | _ -> tr_r_fail st)
         | RpV1 (p, size, w) ->
@@ -4713,7 +8898,7 @@ let tr_receiver h deq zdecomp unzl c dest st m =
            | _ -> tr_r_fail st)
         | RpMd5 (p, w) ->
           (match m with
-           | TrMd5 d -> tr_r_md5 h deq c dest st p w d
+           | TrMd5 d -> tr_r_md5 h deq aparse c dest st p w d
            | _ -> tr_r_fail st)
         | RpExit ->
           (match m with
@@ -4734,6 +8919,16 @@ let tr_receiver h deq zdecomp unzl c dest st m =
           (match m with
            | TrName p -> tr_r_name c dest st p
            | _ -> tr_r_fail st)
+        | RpHSize (p, leaf, old) ->
+          (match m with
+           | TrSize n ->
+             ((tr_r_phase st (RpHash (p, leaf, old, n, r_init))), [])
+           | _ -> tr_r_fail st)
+        | RpHash (p, leaf, old, ssize, r) ->
+          (match m with
+           | TrHash (step, h0) -> tr_r_hash hx st p leaf old ssize r step h0
+           | TrHashOver -> tr_r_over st p leaf old ssize r
+           | _ -> tr_r_fail st)
         | RpSize p ->
           (match m with
            | TrSize n -> tr_r_size c st p n
@@ -4746,7 +8941,7 @@ let tr_receiver h deq zdecomp unzl c dest st m =
            | _ -> tr_r_fail st)
         | RpData (p, size, cp, acc, steps) ->
           (match m with
-           | TrData f -> tr_r_frame zdecomp c st p size cp acc steps f
+           | TrData f -> tr_r_frame zdecomp aparse c st p size cp acc steps f
            | TrKeepAlive -> tr_r_stay st
            | _ -> tr_r_fail st)
         | RpV1 (p, size, w) ->
@@ -4755,7 +8950,7 @@ let tr_receiver h deq zdecomp unzl c dest st m =
            | _ -> tr_r_fail st)
         | RpMd5 (p, w) ->
           (match m with
-           | TrMd5 d -> tr_r_md5 h deq c dest st p w d
+           | TrMd5 d -> tr_r_md5 h deq aparse c dest st p w d
            | _ -> tr_r_fail st)
         | RpExit ->
           (match m with
@@ -4776,6 +8971,16 @@ let tr_receiver h deq zdecomp unzl c dest st m =
           (match m with
            | TrName p -> tr_r_name c dest st p
            | _ -> tr_r_fail st)
+        | RpHSize (p, leaf, old) ->
+          (match m with
+           | TrSize n ->
+             ((tr_r_phase st (RpHash (p, leaf, old, n, r_init))), [])
+           | _ -> tr_r_fail st)
+        | RpHash (p, leaf, old, ssize, r) ->
+          (match m with
+           | TrHash (step, h0) -> tr_r_hash hx st p leaf old ssize r step h0
+           | TrHashOver -> tr_r_over st p leaf old ssize r
+           | _ -> tr_r_fail st)
         | RpSize p ->
           (match m with
            | TrSize n -> tr_r_size c st p n
@@ -4788,7 +8993,7 @@ let tr_receiver h deq zdecomp unzl c dest st m =
            | _ -> tr_r_fail st)
         | RpData (p, size, cp, acc, steps) ->
           (match m with
-           | TrData f -> tr_r_frame zdecomp c st p size cp acc steps f
+           | TrData f -> tr_r_frame zdecomp aparse c st p size cp acc steps f
            | TrKeepAlive -> tr_r_stay st
            | _ -> tr_r_fail st)
         | RpV1 (p, size, w) ->
@@ -4797,7 +9002,7 @@ let tr_receiver h deq zdecomp unzl c dest st m =
            | _ -> tr_r_fail st)
         | RpMd5 (p, w) ->
           (match m with
-           | TrMd5 d -> tr_r_md5 h deq c dest st p w d
+           | TrMd5 d -> tr_r_md5 h deq aparse c dest st p w d
            | _ -> tr_r_fail st)
         | RpExit ->
           (match m with
@@ -4818,6 +9023,16 @@ let tr_receiver h deq zdecomp unzl c dest st m =
           (match m with
            | TrName p -> tr_r_name c dest st p
            | _ -> tr_r_fail st)
+        | RpHSize (p, leaf, old) ->
+          (match m with
+           | TrSize n ->
+             ((tr_r_phase st (RpHash (p, leaf, old, n, r_init))), [])
+           | _ -> tr_r_fail st)
+        | RpHash (p, leaf, old, ssize, r) ->
+          (match m with
+           | TrHash (step, h0) -> tr_r_hash hx st p leaf old ssize r step h0
+           | TrHashOver -> tr_r_over st p leaf old ssize r
+           | _ -> tr_r_fail st)
         | RpSize p ->
           (match m with
            | TrSize n -> tr_r_size c st p n
@@ -4830,7 +9045,7 @@ let tr_receiver h deq zdecomp unzl c dest st m =
            | _ -> tr_r_fail st)
         | RpData (p, size, cp, acc, steps) ->
           (match m with
-           | TrData f -> tr_r_frame zdecomp c st p size cp acc steps f
+           | TrData f -> tr_r_frame zdecomp aparse c st p size cp acc steps f
            | TrKeepAlive -> tr_r_stay st
            | _ -> tr_r_fail st)
         | RpV1 (p, size, w) ->
@@ -4839,7 +9054,111 @@ let tr_receiver h deq zdecomp unzl c dest st m =
            | _ -> tr_r_fail st)
         | RpMd5 (p, w) ->
           (match m with
-           | TrMd5 d -> tr_r_md5 h deq c dest st p w d
+           | TrMd5 d -> tr_r_md5 h deq aparse c dest st p w d
+           | _ -> tr_r_fail st)
+        | RpExit ->
+          (match m with
+           | TrExit _ -> ((tr_r_phase st RpDone), [])
+           | _ -> tr_r_fail st)
+        | _ -> tr_r_stay st)
+     | TrHash (_, _) ->
+       (match ph with
+        | RpNum ->
+          (match m with
+           | TrNum n ->
+             let (st', outs) =
+               tr_r_next c (N.to_nat n) st.rs_st st.rs_names st.rs_sched
+             in
+             (st', ((TrSuccInt n) :: outs))
+           | _ -> tr_r_fail st)
+        | RpName ->
+          (match m with
+           | TrName p -> tr_r_name c dest st p
+           | _ -> tr_r_fail st)
+        | RpHSize (p, leaf, old) ->
+          (match m with
+           | TrSize n ->
+             ((tr_r_phase st (RpHash (p, leaf, old, n, r_init))), [])
+           | _ -> tr_r_fail st)
+        | RpHash (p, leaf, old, ssize, r) ->
+          (match m with
+           | TrHash (step, h0) -> tr_r_hash hx st p leaf old ssize r step h0
+           | TrHashOver -> tr_r_over st p leaf old ssize r
+           | _ -> tr_r_fail st)
+        | RpSize p ->
+          (match m with
+           | TrSize n -> tr_r_size c st p n
+           | _ -> tr_r_fail st)
+        | RpComp (p, size) ->
+          (match m with
+           | TrComp b ->
+             ((tr_r_phase st (RpData (p, size, b, [],
+                (tr_cur_sched st).sc_steps))), [])
+           | _ -> tr_r_fail st)
+        | RpData (p, size, cp, acc, steps) ->
+          (match m with
+           | TrData f -> tr_r_frame zdecomp aparse c st p size cp acc steps f
+           | TrKeepAlive -> tr_r_stay st
+           | _ -> tr_r_fail st)
+        | RpV1 (p, size, w) ->
+          (match m with
+           | TrData pl -> tr_r_v1 unzl c st p size w pl
+           | _ -> tr_r_fail st)
+        | RpMd5 (p, w) ->
+          (match m with
+           | TrMd5 d -> tr_r_md5 h deq aparse c dest st p w d
+           | _ -> tr_r_fail st)
+        | RpExit ->
+          (match m with
+           | TrExit _ -> ((tr_r_phase st RpDone), [])
+           | _ -> tr_r_fail st)
+        | _ -> tr_r_stay st)
+     | TrHashOver ->
+       (match ph with
+        | RpNum ->
+          (match m with
+           | TrNum n ->
+             let (st', outs) =
+               tr_r_next c (N.to_nat n) st.rs_st st.rs_names st.rs_sched
+             in
+             (st', ((TrSuccInt n) :: outs))
+           | _ -> tr_r_fail st)
+        | RpName ->
+          (match m with
+           | TrName p -> tr_r_name c dest st p
+           | _ -> tr_r_fail st)
+        | RpHSize (p, leaf, old) ->
+          (match m with
+           | TrSize n ->
+             ((tr_r_phase st (RpHash (p, leaf, old, n, r_init))), [])
+           | _ -> tr_r_fail st)
+        | RpHash (p, leaf, old, ssize, r) ->
+          (match m with
+           | TrHash (step, h0) -> tr_r_hash hx st p leaf old ssize r step h0
+           | TrHashOver -> tr_r_over st p leaf old ssize r
+           | _ -> tr_r_fail st)
+        | RpSize p ->
+          (match m with
+           | TrSize n -> tr_r_size c st p n
+           | _ -> tr_r_fail st)
+        | RpComp (p, size) ->
+          (match m with
+           | TrComp b ->
+             ((tr_r_phase st (RpData (p, size, b, [],
+                (tr_cur_sched st).sc_steps))), [])
+           | _ -> tr_r_fail st)
+        | RpData (p, size, cp, acc, steps) ->
+          (match m with
+           | TrData f -> tr_r_frame zdecomp aparse c st p size cp acc steps f
+           | TrKeepAlive -> tr_r_stay st
+           | _ -> tr_r_fail st)
+        | RpV1 (p, size, w) ->
+          (match m with
+           | TrData pl -> tr_r_v1 unzl c st p size w pl
+           | _ -> tr_r_fail st)
+        | RpMd5 (p, w) ->
+          (match m with
+           | TrMd5 d -> tr_r_md5 h deq aparse c dest st p w d
            | _ -> tr_r_fail st)
         | RpExit ->
           (match m with
@@ -4860,6 +9179,16 @@ let tr_receiver h deq zdecomp unzl c dest st m =
           (match m with
            | TrName p -> tr_r_name c dest st p
            | _ -> tr_r_fail st)
+        | RpHSize (p, leaf, old) ->
+          (match m with
+           | TrSize n ->
+             ((tr_r_phase st (RpHash (p, leaf, old, n, r_init))), [])
+           | _ -> tr_r_fail st)
+        | RpHash (p, leaf, old, ssize, r) ->
+          (match m with
+           | TrHash (step, h0) -> tr_r_hash hx st p leaf old ssize r step h0
+           | TrHashOver -> tr_r_over st p leaf old ssize r
+           | _ -> tr_r_fail st)
         | RpSize p ->
           (match m with
            | TrSize n -> tr_r_size c st p n
@@ -4872,7 +9201,7 @@ let tr_receiver h deq zdecomp unzl c dest st m =
            | _ -> tr_r_fail st)
         | RpData (p, size, cp, acc, steps) ->
           (match m with
-           | TrData f -> tr_r_frame zdecomp c st p size cp acc steps f
+           | TrData f -> tr_r_frame zdecomp aparse c st p size cp acc steps f
            | TrKeepAlive -> tr_r_stay st
            | _ -> tr_r_fail st)
         | RpV1 (p, size, w) ->
@@ -4881,7 +9210,7 @@ let tr_receiver h deq zdecomp unzl c dest st m =
            | _ -> tr_r_fail st)
         | RpMd5 (p, w) ->
           (match m with
-           | TrMd5 d -> tr_r_md5 h deq c dest st p w d
+           | TrMd5 d -> tr_r_md5 h deq aparse c dest st p w d
            | _ -> tr_r_fail st)
         | RpExit ->
           (match m with
@@ -4902,6 +9231,16 @@ let tr_receiver h deq zdecomp unzl c dest st m =
           (match m with
            | TrName p -> tr_r_name c dest st p
            | _ -> tr_r_fail st)
+        | RpHSize (p, leaf, old) ->
+          (match m with
+           | TrSize n ->
+             ((tr_r_phase st (RpHash (p, leaf, old, n, r_init))), [])
+           | _ -> tr_r_fail st)
+        | RpHash (p, leaf, old, ssize, r) ->
+          (match m with
+           | TrHash (step, h0) -> tr_r_hash hx st p leaf old ssize r step h0
+           | TrHashOver -> tr_r_over st p leaf old ssize r
+           | _ -> tr_r_fail st)
         | RpSize p ->
           (match m with
            | TrSize n -> tr_r_size c st p n
@@ -4914,7 +9253,7 @@ let tr_receiver h deq zdecomp unzl c dest st m =
            | _ -> tr_r_fail st)
         | RpData (p, size, cp, acc, steps) ->
           (match m with
-           | TrData f -> tr_r_frame zdecomp c st p size cp acc steps f
+           | TrData f -> tr_r_frame zdecomp aparse c st p size cp acc steps f
            | TrKeepAlive -> tr_r_stay st
            | _ -> tr_r_fail st)
         | RpV1 (p, size, w) ->
@@ -4923,7 +9262,7 @@ let tr_receiver h deq zdecomp unzl c dest st m =
            | _ -> tr_r_fail st)
         | RpMd5 (p, w) ->
           (match m with
-           | TrMd5 d -> tr_r_md5 h deq c dest st p w d
+           | TrMd5 d -> tr_r_md5 h deq aparse c dest st p w d
            | _ -> tr_r_fail st)
         | RpExit ->
           (match m with
@@ -4944,6 +9283,16 @@ let tr_receiver h deq zdecomp unzl c dest st m =
           (match m with
            | TrName p -> tr_r_name c dest st p
            | _ -> tr_r_fail st)
+        | RpHSize (p, leaf, old) ->
+          (match m with
+           | TrSize n ->
+             ((tr_r_phase st (RpHash (p, leaf, old, n, r_init))), [])
+           | _ -> tr_r_fail st)
+        | RpHash (p, leaf, old, ssize, r) ->
+          (match m with
+           | TrHash (step, h0) -> tr_r_hash hx st p leaf old ssize r step h0
+           | TrHashOver -> tr_r_over st p leaf old ssize r
+           | _ -> tr_r_fail st)
         | RpSize p ->
           (match m with
            | TrSize n -> tr_r_size c st p n
@@ -4956,7 +9305,7 @@ let tr_receiver h deq zdecomp unzl c dest st m =
            | _ -> tr_r_fail st)
         | RpData (p, size, cp, acc, steps) ->
           (match m with
-           | TrData f -> tr_r_frame zdecomp c st p size cp acc steps f
+           | TrData f -> tr_r_frame zdecomp aparse c st p size cp acc steps f
            | TrKeepAlive -> tr_r_stay st
            | _ -> tr_r_fail st)
         | RpV1 (p, size, w) ->
@@ -4965,7 +9314,7 @@ let tr_receiver h deq zdecomp unzl c dest st m =
            | _ -> tr_r_fail st)
         | RpMd5 (p, w) ->
           (match m with
-           | TrMd5 d -> tr_r_md5 h deq c dest st p w d
+           | TrMd5 d -> tr_r_md5 h deq aparse c dest st p w d
            | _ -> tr_r_fail st)
         | RpExit ->
           (match m with
@@ -4986,6 +9335,16 @@ let tr_receiver h deq zdecomp unzl c dest st m =
           (match m with
            | TrName p -> tr_r_name c dest st p
            | _ -> tr_r_fail st)
+        | RpHSize (p, leaf, old) ->
+          (match m with
+           | TrSize n ->
+             ((tr_r_phase st (RpHash (p, leaf, old, n, r_init))), [])
+           | _ -> tr_r_fail st)
+        | RpHash (p, leaf, old, ssize, r) ->
+          (match m with
+           | TrHash (step, h0) -> tr_r_hash hx st p leaf old ssize r step h0
+           | TrHashOver -> tr_r_over st p leaf old ssize r
+           | _ -> tr_r_fail st)
         | RpSize p ->
           (match m with
            | TrSize n -> tr_r_size c st p n
@@ -4998,7 +9357,7 @@ let tr_receiver h deq zdecomp unzl c dest st m =
            | _ -> tr_r_fail st)
         | RpData (p, size, cp, acc, steps) ->
           (match m with
-           | TrData f -> tr_r_frame zdecomp c st p size cp acc steps f
+           | TrData f -> tr_r_frame zdecomp aparse c st p size cp acc steps f
            | TrKeepAlive -> tr_r_stay st
            | _ -> tr_r_fail st)
         | RpV1 (p, size, w) ->
@@ -5007,7 +9366,7 @@ let tr_receiver h deq zdecomp unzl c dest st m =
            | _ -> tr_r_fail st)
         | RpMd5 (p, w) ->
           (match m with
-           | TrMd5 d -> tr_r_md5 h deq c dest st p w d
+           | TrMd5 d -> tr_r_md5 h deq aparse c dest st p w d
            | _ -> tr_r_fail st)
         | RpExit ->
           (match m with
@@ -5028,6 +9387,16 @@ let tr_receiver h deq zdecomp unzl c dest st m =
           (match m with
            | TrName p -> tr_r_name c dest st p
            | _ -> tr_r_fail st)
+        | RpHSize (p, leaf, old) ->
+          (match m with
+           | TrSize n ->
+             ((tr_r_phase st (RpHash (p, leaf, old, n, r_init))), [])
+           | _ -> tr_r_fail st)
+        | RpHash (p, leaf, old, ssize, r) ->
+          (match m with
+           | TrHash (step, h0) -> tr_r_hash hx st p leaf old ssize r step h0
+           | TrHashOver -> tr_r_over st p leaf old ssize r
+           | _ -> tr_r_fail st)
         | RpSize p ->
           (match m with
            | TrSize n -> tr_r_size c st p n
@@ -5040,7 +9409,7 @@ let tr_receiver h deq zdecomp unzl c dest st m =
            | _ -> tr_r_fail st)
         | RpData (p, size, cp, acc, steps) ->
           (match m with
-           | TrData f -> tr_r_frame zdecomp c st p size cp acc steps f
+           | TrData f -> tr_r_frame zdecomp aparse c st p size cp acc steps f
            | TrKeepAlive -> tr_r_stay st
            | _ -> tr_r_fail st)
         | RpV1 (p, size, w) ->
@@ -5049,7 +9418,59 @@ let tr_receiver h deq zdecomp unzl c dest st m =
            | _ -> tr_r_fail st)
         | RpMd5 (p, w) ->
           (match m with
-           | TrMd5 d -> tr_r_md5 h deq c dest st p w d
+           | TrMd5 d -> tr_r_md5 h deq aparse c dest st p w d
+           | _ -> tr_r_fail st)
+        | RpExit ->
+          (match m with
+           | TrExit _ -> ((tr_r_phase st RpDone), [])
+           | _ -> tr_r_fail st)
+        | _ -> tr_r_stay st)
+     | TrSuccHack (_, _) ->
+       (match ph with
+        | RpNum ->
+          (match m with
+           | TrNum n ->
+             let (st', outs) =
+               tr_r_next c (N.to_nat n) st.rs_st st.rs_names st.rs_sched
+             in
+             (st', ((TrSuccInt n) :: outs))
+           | _ -> tr_r_fail st)
+        | RpName ->
+          (match m with
+           | TrName p -> tr_r_name c dest st p
+           | _ -> tr_r_fail st)
+        | RpHSize (p, leaf, old) ->
+          (match m with
+           | TrSize n ->
+             ((tr_r_phase st (RpHash (p, leaf, old, n, r_init))), [])
+           | _ -> tr_r_fail st)
+        | RpHash (p, leaf, old, ssize, r) ->
+          (match m with
+           | TrHash (step, h0) -> tr_r_hash hx st p leaf old ssize r step h0
+           | TrHashOver -> tr_r_over st p leaf old ssize r
+           | _ -> tr_r_fail st)
+        | RpSize p ->
+          (match m with
+           | TrSize n -> tr_r_size c st p n
+           | _ -> tr_r_fail st)
+        | RpComp (p, size) ->
+          (match m with
+           | TrComp b ->
+             ((tr_r_phase st (RpData (p, size, b, [],
+                (tr_cur_sched st).sc_steps))), [])
+           | _ -> tr_r_fail st)
+        | RpData (p, size, cp, acc, steps) ->
+          (match m with
+           | TrData f -> tr_r_frame zdecomp aparse c st p size cp acc steps f
+           | TrKeepAlive -> tr_r_stay st
+           | _ -> tr_r_fail st)
+        | RpV1 (p, size, w) ->
+          (match m with
+           | TrData pl -> tr_r_v1 unzl c st p size w pl
+           | _ -> tr_r_fail st)
+        | RpMd5 (p, w) ->
+          (match m with
+           | TrMd5 d -> tr_r_md5 h deq aparse c dest st p w d
            | _ -> tr_r_fail st)
         | RpExit ->
           (match m with
@@ -5070,6 +9491,16 @@ let tr_receiver h deq zdecomp unzl c dest st m =
           (match m with
            | TrName p -> tr_r_name c dest st p
            | _ -> tr_r_fail st)
+        | RpHSize (p, leaf, old) ->
+          (match m with
+           | TrSize n ->
+             ((tr_r_phase st (RpHash (p, leaf, old, n, r_init))), [])
+           | _ -> tr_r_fail st)
+        | RpHash (p, leaf, old, ssize, r) ->
+          (match m with
+           | TrHash (step, h0) -> tr_r_hash hx st p leaf old ssize r step h0
+           | TrHashOver -> tr_r_over st p leaf old ssize r
+           | _ -> tr_r_fail st)
         | RpSize p ->
           (match m with
            | TrSize n -> tr_r_size c st p n
@@ -5082,7 +9513,7 @@ let tr_receiver h deq zdecomp unzl c dest st m =
            | _ -> tr_r_fail st)
         | RpData (p, size, cp, acc, steps) ->
           (match m with
-           | TrData f -> tr_r_frame zdecomp c st p size cp acc steps f
+           | TrData f -> tr_r_frame zdecomp aparse c st p size cp acc steps f
            | TrKeepAlive -> tr_r_stay st
            | _ -> tr_r_fail st)
         | RpV1 (p, size, w) ->
@@ -5091,7 +9522,7 @@ let tr_receiver h deq zdecomp unzl c dest st m =
            | _ -> tr_r_fail st)
         | RpMd5 (p, w) ->
           (match m with
-           | TrMd5 d -> tr_r_md5 h deq c dest st p w d
+           | TrMd5 d -> tr_r_md5 h deq aparse c dest st p w d
            | _ -> tr_r_fail st)
         | RpExit ->
           (match m with
@@ -5114,53 +9545,70 @@ let tr_tag_out dir ms =
 (** val tr_step :
     (byte list -> 'a1) -> ('a1 -> 'a1 -> bool) -> (byte list list -> byte
     list list) -> (byte list -> byte list option) -> (byte list -> byte list)
-    -> (byte list -> byte list option) -> tr_cfg -> path -> 'a1 tr_conf ->
-    'a1 tr_conf option **)
+    -> (byte list -> byte list option) -> (byte list -> digest) -> (src ->
+    coq_Z -> byte list) -> (byte list -> (src * coq_Z) option) -> tr_cfg ->
+    path -> 'a1 tr_conf -> 'a1 tr_conf option **)
 
-let tr_step h deq zcomp zdecomp zl unzl c dest cf =
+let tr_step h deq zcomp zdecomp zl unzl hx ahdr aparse c dest cf =
   match cf.cf_s2r with
   | [] ->
     (match cf.cf_r2s with
      | [] -> None
      | m :: q ->
-       let (s', outs) = tr_sender h deq zcomp zl c cf.cf_s m in
+       let (s', outs) = tr_sender h deq zcomp zl hx ahdr c cf.cf_s m in
        Some { cf_s = s'; cf_r = cf.cf_r; cf_s2r = outs; cf_r2s = q; cf_log =
        (app cf.cf_log (tr_tag_out true outs)) })
   | m :: q ->
-    let (r', outs) = tr_receiver h deq zdecomp unzl c dest cf.cf_r m in
+    let (r', outs) = tr_receiver h deq zdecomp unzl hx aparse c dest cf.cf_r m
+    in
     Some { cf_s = cf.cf_s; cf_r = r'; cf_s2r = q; cf_r2s =
     (app cf.cf_r2s outs); cf_log = (app cf.cf_log (tr_tag_out false outs)) }
 
 (** val tr_run_from :
     (byte list -> 'a1) -> ('a1 -> 'a1 -> bool) -> (byte list list -> byte
     list list) -> (byte list -> byte list option) -> (byte list -> byte list)
-    -> (byte list -> byte list option) -> nat -> tr_cfg -> path -> 'a1
-    tr_conf -> 'a1 tr_conf **)
+    -> (byte list -> byte list option) -> (byte list -> digest) -> (src ->
+    coq_Z -> byte list) -> (byte list -> (src * coq_Z) option) -> nat ->
+    tr_cfg -> path -> 'a1 tr_conf -> 'a1 tr_conf **)
 
-let rec tr_run_from h deq zcomp zdecomp zl unzl fuel c dest cf =
+let rec tr_run_from h deq zcomp zdecomp zl unzl hx ahdr aparse fuel c dest cf =
   match fuel with
   | O -> cf
   | S f ->
-    (match tr_step h deq zcomp zdecomp zl unzl c dest cf with
-     | Some cf' -> tr_run_from h deq zcomp zdecomp zl unzl f c dest cf'
+    (match tr_step h deq zcomp zdecomp zl unzl hx ahdr aparse c dest cf with
+     | Some cf' ->
+       tr_run_from h deq zcomp zdecomp zl unzl hx ahdr aparse f c dest cf'
      | None -> cf)
 
 (** val tr_init :
     tr_cfg -> (tr_entry * tr_sched) list -> fs -> 'a1 tr_conf **)
 
-let tr_init c ess f0 =
-  let (s, outs) = tr_sender_init c ess in
-  { cf_s = s; cf_r = (tr_receiver_init f0 (map snd ess)); cf_s2r = outs;
+let tr_init c items f0 =
+  let (s, outs) = tr_sender_init c items in
+  { cf_s = s; cf_r = (tr_receiver_init f0 (map snd items)); cf_s2r = outs;
   cf_r2s = []; cf_log = (tr_tag_out true outs) }
+
+(** val tr_run_items :
+    (byte list -> 'a1) -> ('a1 -> 'a1 -> bool) -> (byte list list -> byte
+    list list) -> (byte list -> byte list option) -> (byte list -> byte list)
+    -> (byte list -> byte list option) -> (byte list -> digest) -> (src ->
+    coq_Z -> byte list) -> (byte list -> (src * coq_Z) option) -> nat ->
+    tr_cfg -> path -> (tr_entry * tr_sched) list -> fs -> 'a1 tr_conf **)
+
+let tr_run_items h deq zcomp zdecomp zl unzl hx ahdr aparse fuel c dest items f0 =
+  tr_run_from h deq zcomp zdecomp zl unzl hx ahdr aparse fuel c dest
+    (tr_init c items f0)
 
 (** val tr_run :
     (byte list -> 'a1) -> ('a1 -> 'a1 -> bool) -> (byte list list -> byte
     list list) -> (byte list -> byte list option) -> (byte list -> byte list)
-    -> (byte list -> byte list option) -> nat -> tr_cfg -> path ->
-    (tr_entry * tr_sched) list -> fs -> 'a1 tr_conf **)
+    -> (byte list -> byte list option) -> (byte list -> digest) -> (src ->
+    coq_Z -> byte list) -> (byte list -> (src * coq_Z) option) -> nat ->
+    tr_cfg -> path -> (tr_entry * tr_sched) list -> fs -> 'a1 tr_conf **)
 
-let tr_run h deq zcomp zdecomp zl unzl fuel c dest ess f0 =
-  tr_run_from h deq zcomp zdecomp zl unzl fuel c dest (tr_init c ess f0)
+let tr_run h deq zcomp zdecomp zl unzl hx ahdr aparse fuel c dest ess f0 =
+  tr_run_items h deq zcomp zdecomp zl unzl hx ahdr aparse fuel c dest
+    (tr_group c ess) f0
 
 (** val tr_sender_ok : 'a1 tr_conf -> bool **)
 
@@ -5185,75 +9633,152 @@ let tr_quiet cf =
            | _ :: _ -> false)
   | _ :: _ -> false
 
-(** val tr_entry_steps :
-    (byte list list -> byte list list) -> tr_cfg -> (tr_entry * tr_sched) ->
-    nat **)
+(** val tr_resume_run :
+    (byte list -> digest) -> tr_cfg -> tr_entry -> tr_sched -> byte list ->
+    result **)
 
-let tr_entry_steps zcomp c = function
-| (e, sc) ->
-  if e.te_isdir
-  then S (S O)
-  else if tr_pipeline c
-       then add
-              (add
-                (add
-                  (add
-                    (add (add (S (S O)) (S (S O)))
-                      (length (snd (tr_compress c e sc))))
-                    (mul (S (S O)) (S (length (tr_frames zcomp c e sc)))))
-                  (length
-                    (filter (fun s -> N.ltb s (te_size e)) sc.sc_prefinal)))
-                (S O)) (S (S O))
-       else add
-              (add (add (S (S O)) (S (S O)))
-                (mul (S (S O)) (length (tr_v1_chunks e sc)))) (S (S O))
-
-(** val tr_fuel :
-    (byte list list -> byte list list) -> tr_cfg -> (tr_entry * tr_sched)
-    list -> nat **)
-
-let tr_fuel zcomp c ess =
-  add (S (S O))
-    (fold_right (fun es n -> add (tr_entry_steps zcomp c es) n) (S O) ess)
+let tr_resume_run hx c e sc old =
+  run tr_hash_B hx c.tc_proto sc.sc_hstops (te_data e) old
 
 (** val tr_spec_entry :
-    tr_cfg -> path -> tr_entry -> state -> (name * state) option **)
+    (byte list -> digest) -> (src -> coq_Z -> byte list) -> (byte list ->
+    (src * coq_Z) option) -> tr_cfg -> path -> tr_entry -> tr_sched -> state
+    -> (name * state) option **)
 
-let tr_spec_entry c dest e st =
+let tr_spec_entry hx ahdr aparse c dest e sc st =
   let p = tr_payload c e in
   if (&&) e.te_isdir (negb (tr_json c))
   then None
   else let (r, st1) = tr_create c dest p [] st in
        (match r with
         | NOk ln ->
-          if e.te_isdir
-          then Some (ln, st1)
-          else if (&&) (tr_json_names c)
-                    (N.ltb N0 (tr_target_size dest ln p st1))
-               then None
-               else let (r0, st2) = tr_create c dest p (te_data e) st in
-                    (match r0 with
-                     | NOk _ -> Some (ln, st2)
-                     | NErr -> None)
+          if tr_has_subs e
+          then (match tr_arch_entry ahdr e sc with
+                | Some f ->
+                  (match tr_unarchive aparse e.te_id sc (te_data f) with
+                   | Some t ->
+                     Some (ln, (tr_graft_st st1 (app dest (ln :: [])) t))
+                   | None -> None)
+                | None -> None)
+          else if e.te_isdir
+               then Some (ln, st1)
+               else if (&&) (tr_json_names c)
+                         (N.ltb N0 (tr_target_size dest ln p st1))
+                    then (match tr_resume_run hx c e sc
+                                  (tr_old_content st1 (tr_leaf dest ln p)) with
+                          | Done o ->
+                            Some (ln,
+                              (tr_set_file st1 (tr_leaf dest ln p) o.o_final))
+                          | _ -> None)
+                    else let (r0, st2) = tr_create c dest p (te_data e) st in
+                         (match r0 with
+                          | NOk _ -> Some (ln, st2)
+                          | NErr -> None)
         | NErr -> None)
 
 (** val tr_spec :
-    tr_cfg -> path -> tr_entry list -> state -> name list -> ((name
-    list * name list) * state) option **)
+    (byte list -> digest) -> (src -> coq_Z -> byte list) -> (byte list ->
+    (src * coq_Z) option) -> tr_cfg -> path -> (tr_entry * tr_sched) list ->
+    state -> name list -> ((name list * name list) * state) option **)
 
-let rec tr_spec c dest es st names =
-  match es with
+let rec tr_spec hx ahdr aparse c dest items st names =
+  match items with
   | [] -> Some (([], names), st)
-  | e :: es' ->
-    (match tr_spec_entry c dest e st with
-     | Some p ->
-       let (ln, st') = p in
-       (match tr_spec c dest es' st' (tr_add_name names ln) with
-        | Some p0 ->
-          let (p1, stf) = p0 in
-          let (per, all) = p1 in Some (((ln :: per), all), stf)
+  | p :: items' ->
+    let (e, sc) = p in
+    (match tr_spec_entry hx ahdr aparse c dest e sc st with
+     | Some p0 ->
+       let (ln, st') = p0 in
+       (match tr_spec hx ahdr aparse c dest items' st' (tr_add_name names ln) with
+        | Some p1 ->
+          let (p2, stf) = p1 in
+          let (per, all) = p2 in Some (((ln :: per), all), stf)
         | None -> None)
      | None -> None)
+
+(** val tr_tail_steps :
+    (byte list list -> byte list list) -> tr_cfg -> tr_entry -> tr_sched ->
+    nat **)
+
+let tr_tail_steps zcomp c e sc =
+  if tr_pipeline c
+  then add
+         (add
+           (add
+             (add (add (S (S O)) (length (snd (tr_compress c e sc))))
+               (mul (S (S O)) (S (length (tr_frames zcomp c e sc)))))
+             (length (filter (fun s -> N.ltb s (te_size e)) sc.sc_prefinal)))
+           (S O)) (S (S O))
+  else add (add (S (S O)) (mul (S (S O)) (length (tr_v1_chunks e sc)))) (S (S
+         O))
+
+(** val tr_entry_steps :
+    (byte list list -> byte list list) -> (byte list -> digest) -> (src ->
+    coq_Z -> byte list) -> tr_cfg -> path -> tr_entry -> tr_sched -> state ->
+    nat **)
+
+let tr_entry_steps zcomp hx ahdr c dest e sc st =
+  add (S (S O))
+    (let (r, st1) = tr_create c dest (tr_payload c e) [] st in
+     (match r with
+      | NOk ln ->
+        if (&&) (tr_json_names c) (tr_has_subs e)
+        then (match tr_arch_entry ahdr e sc with
+              | Some f -> tr_tail_steps zcomp c f sc
+              | None -> S O)
+        else if e.te_isdir
+             then O
+             else if (&&) (tr_json_names c)
+                       (N.ltb N0
+                         (tr_target_size dest ln (tr_payload c e) st1))
+                  then (match tr_resume_run hx c e sc
+                                (tr_old_content st1
+                                  (tr_leaf dest ln (tr_payload c e))) with
+                        | Done o ->
+                          add
+                            (add
+                              (add (length (tr_resume_pre c e))
+                                (length o.o_hashes)) (length o.o_acks))
+                            (tr_tail_steps zcomp c (tr_rem_entry e o.o_msend)
+                              sc)
+                        | SenderBlocked (hs, acks) ->
+                          add (add (length (tr_resume_pre c e)) (length hs))
+                            (length acks)
+                        | _ -> O)
+                  else tr_tail_steps zcomp c e sc
+      | NErr -> O))
+
+(** val tr_fuel_go :
+    (byte list list -> byte list list) -> (byte list -> digest) -> (src ->
+    coq_Z -> byte list) -> (byte list -> (src * coq_Z) option) -> tr_cfg ->
+    path -> (tr_entry * tr_sched) list -> state -> nat **)
+
+let rec tr_fuel_go zcomp hx ahdr aparse c dest items st =
+  match items with
+  | [] -> S O
+  | p :: r ->
+    let (e, sc) = p in
+    add (tr_entry_steps zcomp hx ahdr c dest e sc st)
+      (match tr_spec_entry hx ahdr aparse c dest e sc st with
+       | Some p0 ->
+         let (_, st') = p0 in tr_fuel_go zcomp hx ahdr aparse c dest r st'
+       | None -> O)
+
+(** val tr_fuel_items :
+    (byte list list -> byte list list) -> (byte list -> digest) -> (src ->
+    coq_Z -> byte list) -> (byte list -> (src * coq_Z) option) -> tr_cfg ->
+    path -> (tr_entry * tr_sched) list -> fs -> nat **)
+
+let tr_fuel_items zcomp hx ahdr aparse c dest items f0 =
+  add (S (S O)) (tr_fuel_go zcomp hx ahdr aparse c dest items (init_state f0))
+
+(** val tr_fuel :
+    (byte list list -> byte list list) -> (byte list -> digest) -> (src ->
+    coq_Z -> byte list) -> (byte list -> (src * coq_Z) option) -> tr_cfg ->
+    path -> (tr_entry * tr_sched) list -> fs -> nat **)
+
+let tr_fuel zcomp hx ahdr aparse c dest ess f0 =
+  tr_fuel_items zcomp hx ahdr aparse c dest (tr_group c ess) f0
 
 type tr_tag =
 | TgNum
@@ -5266,6 +9791,9 @@ type tr_tag =
 | TgAck
 | TgMd5
 | TgExit
+| TgHash
+| TgOver
+| TgHack
 | TgOther
 
 (** val tr_tag_of : 'a1 tr_msg -> tr_tag **)
@@ -5280,7 +9808,10 @@ let tr_tag_of = function
                | _ :: _ -> TgData)
 | TrMd5 _ -> TgMd5
 | TrExit _ -> TgExit
+| TrHash (_, _) -> TgHash
+| TrHashOver -> TgOver
 | TrSuccAck (_, _) -> TgAck
+| TrSuccHack (_, _) -> TgHack
 | TrKeepAlive -> TgOther
 | TrFail -> TgOther
 | _ -> TgSucc
@@ -5298,6 +9829,8 @@ type tr_q =
 | Q9
 | Q10
 | Q11
+| QH
+| QO
 | QE
 
 (** val tr_delta : bool -> tr_q -> tr_tag -> tr_q option **)
@@ -5306,9 +9839,6 @@ let tr_delta pipe q t =
   match q with
   | Q0 -> (match t with
            | TgNum -> Some Q1
-           | _ -> None)
-  | Q1 -> (match t with
-           | TgSucc -> Some Q2
            | _ -> None)
   | Q2 -> (match t with
            | TgName -> Some Q3
@@ -5322,6 +9852,14 @@ let tr_delta pipe q t =
      | TgName -> Some Q3
      | TgSize -> Some Q5
      | TgExit -> Some QE
+     | TgHash -> if pipe then Some QH else None
+     | TgOver -> if pipe then Some QO else None
+     | _ -> None)
+  | Q5 ->
+    (match t with
+     | TgSucc -> Some Q6
+     | TgHash -> if pipe then Some QH else None
+     | TgOver -> if pipe then Some QO else None
      | _ -> None)
   | Q6 ->
     (match t with
@@ -5342,12 +9880,22 @@ let tr_delta pipe q t =
            | TgSucc -> Some Q9
            | TgMd5 -> Some Q10
            | _ -> None)
-  | Q10 -> (match t with
-            | TgSucc -> Some Q2
+  | Q11 -> (match t with
+            | TgSucc -> Some Q6
             | _ -> None)
+  | QH ->
+    (match t with
+     | TgHash -> Some QH
+     | TgOver -> Some QO
+     | TgHack -> Some QH
+     | _ -> None)
+  | QO -> (match t with
+           | TgSize -> Some Q5
+           | TgHack -> Some QO
+           | _ -> None)
   | QE -> None
   | _ -> (match t with
-          | TgSucc -> Some Q6
+          | TgSucc -> Some Q2
           | _ -> None)
 
 (** val tr_accepts_from : bool -> tr_q -> tr_tag list -> tr_q option **)
@@ -5367,3 +9915,76 @@ let tr_shape_ok pipe log =
                | QE -> true
                | _ -> false)
   | None -> false
+
+(** val tr_p_head : tr_npayload -> name **)
+
+let tr_p_head = function
+| TrPlain nm -> nm
+| TrJson (s, _) -> hd [] s.s_rel
+
+(** val tr_tail : tr_cfg -> tr_entry -> name list **)
+
+let tr_tail c e =
+  tr_p_tail (tr_payload c e)
+
+(** val tr_key : tr_cfg -> tr_entry -> name **)
+
+let tr_key c e =
+  tr_p_head (tr_payload c e)
+
+(** val tr_nodupb : ('a1 -> 'a1 -> bool) -> 'a1 list -> bool **)
+
+let rec tr_nodupb eqb0 = function
+| [] -> true
+| x :: r -> (&&) (negb (existsb (eqb0 x) r)) (tr_nodupb eqb0 r)
+
+(** val tr_first_top : coq_Z list -> tr_entry list -> bool **)
+
+let rec tr_first_top seen = function
+| [] -> true
+| e :: r ->
+  (&&)
+    (match tl e.te_rel with
+     | [] -> true
+     | _ :: _ -> existsb (Z.eqb e.te_id) seen)
+    (tr_first_top (e.te_id :: seen) r)
+
+(** val tr_subs_wfb : tr_entry -> bool **)
+
+let tr_subs_wfb e =
+  (&&)
+    ((&&)
+      ((&&)
+        (forallb (fun s ->
+          (&&)
+            ((&&) ((&&) (Z.eqb s.te_id e.te_id) (negb (tr_has_subs s)))
+              (list_eqb (hd [] s.te_rel) (hd [] e.te_rel)))
+            (nonempty s.te_rel)) e.te_subs)
+        (tr_nodupb apath_eqb (map (fun s -> tl s.te_rel) e.te_subs)))
+      (forallb (fun s -> nonempty (tl s.te_rel)) e.te_subs))
+    (forallb (fun s ->
+      (||) s.te_isdir
+        (forallb (fun s' ->
+          negb (apath_proper_prefix (tl s.te_rel) (tl s'.te_rel))) e.te_subs))
+      e.te_subs)
+
+(** val tr_wfb : tr_cfg -> tr_entry list -> bool **)
+
+let tr_wfb c es =
+  (&&)
+    ((&&)
+      (if c.tc_overwrite
+       then tr_nodupb path_eqb
+              (map (fun e -> (tr_key c e) :: (tr_tail c e)) es)
+       else if tr_json c
+            then (&&)
+                   (tr_nodupb (fun a b ->
+                     (&&) (Z.eqb (fst a) (fst b)) (path_eqb (snd a) (snd b)))
+                     (map (fun e -> (e.te_id, (tl e.te_rel))) es))
+                   (tr_first_top [] es)
+            else true)
+      (forallb (fun e ->
+        (||) (negb (tr_has_subs e)) ((&&) (tr_archive_mode c) (tr_subs_wfb e)))
+        es))
+    ((||) (negb (tr_archive_mode c))
+      (tr_nodupb Z.eqb (map (fun t -> t.te_id) es)))
